@@ -1769,6 +1769,1876 @@ GENERATORS["Biccs"] = gen_biccs
 
 
 # ---------------------------------------------------------------------------------------------------------
+# view.run (selection), view.get_unstable, view.search: a small typed translation of statements into the exception monad
+# (C04, C05).  Every loop becomes a step function (`<fn>_loop<k>`) folded with `List.foldlM`; an `if` that falls through on
+# both sides is a joined `let … ← (if … then do … else do …)`, an `if` with a branch that ends in raise / return / continue
+# takes the rest of the block into its branches; `try: v = d[k] except KeyError: …` is a match on the lookup.
+
+VIEWSEL_PRELUDE = r'''set_option linter.unusedVariables false
+namespace Gaftools.Gen.ViewSel
+open Gaftools.View Gaftools.TextLayer
+
+/-! ### the Python values and built-ins the translation refers to (fixed text) -/
+
+/-- the exceptions the fragment can end in -/
+inductive VErr where
+  | indexError | valueError | keyError | typeError | assertionError
+  | commandLineError (msg : String)
+deriving DecidableEq, Repr
+
+abbrev M := Except VErr
+
+/-- a component of a key of the pickled index -/
+inductive PyAtom where
+  | str (s : String)
+  | int (i : Int)
+deriving DecidableEq, Repr
+
+/-- a key of the pickled index: `(id, SN, SO, SO+LN)` or the string "ref_contig" -/
+inductive IKey where
+  | node (k : Key)
+  | ref
+deriving DecidableEq, Repr
+
+/-- `x[j]` for a constant `0 ≤ j ≤ 3` (the translator accepts no other subscript): a tuple component, or a character of "ref_contig" -/
+def IKey.get : IKey → Nat → PyAtom
+  | .node k, 0 => .str k.1
+  | .node k, 1 => .str k.2.1
+  | .node k, 2 => .int k.2.2.1
+  | .node k, _ => .int k.2.2.2
+  | .ref, 0 => .str "r"
+  | .ref, 1 => .str "e"
+  | .ref, 2 => .str "f"
+  | .ref, _ => .str "_"
+
+/-- `x == "<literal>"` (a tuple never equals a string) -/
+def IKey.eqStr (x : IKey) (s : String) : Bool :=
+  match x with
+  | .ref => s == "ref_contig"
+  | .node _ => false
+
+/-- `a < b`, `a <= b`: a `TypeError` between `str` and `int` -/
+def PyAtom.lt : PyAtom → PyAtom → M Bool
+  | .str a, .str b => pure (decide (a < b))
+  | .int a, .int b => pure (decide (a < b))
+  | _, _ => throw .typeError
+def PyAtom.le : PyAtom → PyAtom → M Bool
+  | .str a, .str b => pure (decide (a ≤ b))
+  | .int a, .int b => pure (decide (a ≤ b))
+  | _, _ => throw .typeError
+
+/-- the `<` that `sorted` / `list.sort` apply to the keys (tuples: the first unequal component decides) -/
+class PyOrd (κ : Type) where
+  lt : κ → κ → M Bool
+instance : PyOrd PyAtom := ⟨PyAtom.lt⟩
+instance : PyOrd Nat := ⟨fun a b => pure (decide (a < b))⟩
+instance : PyOrd (PyAtom × PyAtom) :=
+  ⟨fun a b => if a.1 == b.1 then (if a.2 == b.2 then pure false else PyAtom.lt a.2 b.2) else PyAtom.lt a.1 b.1⟩
+
+/-- stable sort by insertion: an element goes before the first one whose key is greater.  When every comparison is defined this
+    is the one stable sorted arrangement (what `sorted` returns); when one is not, `sorted` raises `TypeError` as well (possibly
+    after other comparisons than these) -/
+def pyInsert {α κ : Type} [PyOrd κ] (kx : κ) (x : α) : List (κ × α) → M (List (κ × α))
+  | [] => pure [(kx, x)]
+  | (ky, y) :: ys => do
+    let b ← PyOrd.lt kx ky
+    if b then pure ((kx, x) :: (ky, y) :: ys)
+    else do
+      let r ← pyInsert kx x ys
+      pure ((ky, y) :: r)
+def pySortedBy {α κ : Type} [PyOrd κ] (key : α → κ) (l : List α) : M (List α) := do
+  let s ← l.foldlM (fun acc x => pyInsert (key x) x acc) []
+  pure (s.map (·.2))
+
+/-- a `dict` in insertion order -/
+abbrev Dict (κ ν : Type) := List (κ × ν)
+def dictGet? {κ ν : Type} [BEq κ] (d : Dict κ ν) (k : κ) : Option ν := (d.find? (·.1 == k)).map (·.2)
+def dictGet {κ ν : Type} [BEq κ] (d : Dict κ ν) (k : κ) : M ν :=
+  match dictGet? d k with
+  | some v => pure v
+  | none => throw .keyError
+def dictHas {κ ν : Type} [BEq κ] (d : Dict κ ν) (k : κ) : Bool := d.any (·.1 == k)
+def dictSet {κ ν : Type} [BEq κ] (d : Dict κ ν) (k : κ) (v : ν) : Dict κ ν :=
+  if d.any (·.1 == k) then d.map (fun e => if e.1 == k then (e.1, v) else e) else d ++ [(k, v)]
+def dictKeys {κ ν : Type} (d : Dict κ ν) : List κ := d.map (·.1)
+
+/-- a `set` as a duplicate-free list (its iteration order is never observed: the only reader is `sorted`) -/
+def setOf {α : Type} [BEq α] (l : List α) : List α := l.eraseDups
+def setUnion {α : Type} [BEq α] (a b : List α) : List α := (a ++ b).eraseDups
+
+def pyIdx {α : Type} (l : List α) (i : Nat) : M α :=
+  match l[i]? with
+  | some v => pure v
+  | none => throw .indexError
+def pyLast {α : Type} (l : List α) : M α :=
+  match l.getLast? with
+  | some v => pure v
+  | none => throw .indexError
+/-- `s.split(sep)` for a one-character separator, `int(s)` -/
+def pySplit (s : String) (sep : Char) : List String := (splitOn sep s.toList).map String.ofList
+def pyIntOf (s : String) : M Int :=
+  match pyInt s.toList with
+  | some v => pure v
+  | none => throw .valueError
+def pyAssert (b : Bool) : M Unit := if b then pure () else throw .assertionError
+/-- `a and b` -/
+def pyAnd (a b : M Bool) : M Bool := do
+  let x ← a
+  if x then b else pure false
+/-- `[x for x in l if p(x)]` -/
+def pyFilterM {α : Type} (p : α → M Bool) : List α → M (List α)
+  | [] => pure []
+  | x :: xs => do
+    let b ← p x
+    let r ← pyFilterM p xs
+    pure (if b then x :: r else r)
+/-- truth value of an optional string (`None` and "" are false) -/
+def truthyStr : Option String → Bool
+  | none => false
+  | some s => s != ""
+'''
+
+_VS_KEYWORDS = {"end", "from", "at", "open", "in", "fun", "do", "then", "else", "if", "let", "have", "show", "match", "with",
+                "by", "where", "def", "theorem", "namespace", "section", "variable", "instance", "structure", "class", "import",
+                "prefix", "postfix", "infix", "notation", "macro", "syntax", "deriving", "mutual", "private", "protected", "return",
+                "for", "unless", "try", "catch", "finally", "mut", "Type", "Prop", "Sort", "local", "abbrev", "example", "axiom"}
+_VS_RESERVED = {"st", "pure", "some", "none", "throw", "decide", "M", "selecting"} | set(re.findall(r"^(?:def|abbrev|class|inductive) ([\w.?]+)", VIEWSEL_PRELUDE, re.M))
+
+S_, INT_, NAT_, BOOL_, ATOM_, IK_, REC_, OUT_ = "String", "Int", "Nat", "Bool", "PyAtom", "IKey", "Rec", "Out"
+
+
+def _vs_L(t):
+    return ("List", t)
+
+
+def _vs_D(k, v):
+    return ("Dict", k, v)
+
+
+def _vs_ty(t):
+    """type -> Lean text (parenthesised when applied)"""
+    if isinstance(t, str):
+        return t
+    if t[0] == "List":
+        return "(List %s)" % _vs_ty(t[1])
+    if t[0] == "Dict":
+        return "(Dict %s %s)" % (_vs_ty(t[1]), _vs_ty(t[2]))
+    if t[0] == "Opt":
+        return "(Option %s)" % _vs_ty(t[1])
+    if t[0] == "Tuple":
+        return "(" + " × ".join(_vs_ty(x) for x in t[1]) + ")"
+    if t[0] == "Fn":
+        return "(%s → %s)" % (_vs_ty(t[1]), _vs_ty(t[2]))
+    if t[0] == "MFn":
+        return "(%s → M %s)" % (_vs_ty(t[1]), _vs_ty(t[2]))
+    raise Untranslatable("type %r" % (t,))
+
+
+def _vs_mentions(t, name):
+    if isinstance(t, str):
+        return t == name
+    return any(_vs_mentions(x, name) for x in t[1:] if not isinstance(x, list)) or any(
+        _vs_mentions(y, name) for x in t[1:] if isinstance(x, list) for y in x)
+
+
+def _vs_unify(declared, got, what):
+    """`got` may contain None (the element type of an empty container); returns the resolved type"""
+    if got is None:
+        return declared
+    if declared is None:
+        return got
+    if isinstance(declared, str) or isinstance(got, str) or declared[0] == "Tuple" or got[0] == "Tuple":
+        if declared != got:
+            raise Untranslatable("%s: type %r where %r is expected" % (what, got, declared))
+        return declared
+    if declared[0] != got[0] or len(declared) != len(got):
+        raise Untranslatable("%s: type %r where %r is expected" % (what, got, declared))
+    return (declared[0],) + tuple(_vs_unify(a, b, what) for a, b in zip(declared[1:], got[1:]))
+
+
+def _vs_name(n):
+    if re.fullmatch(r"t\d+|jn\d*", n) or n in _VS_RESERVED:
+        raise Untranslatable("identifier %s clashes with a name of the translation" % n)
+    return n + "_" if n in _VS_KEYWORDS else n
+
+
+def _vs_str(v):
+    if any(ord(ch) < 32 or ord(ch) > 126 for ch in v):
+        raise Untranslatable("string literal %r" % v)
+    return '"%s"' % v.replace("\\", "\\\\").replace('"', '\\"')
+
+
+class _VsEnv:
+    """variables in scope (python name -> type), in order of definition; records which outer names a block reads"""
+
+    def __init__(self, items=None, used=None):
+        self.items = dict(items or {})
+        self.used = used if used is not None else set()
+
+    def child(self):
+        return _VsEnv(self.items, self.used)
+
+    def get(self, n):
+        if n not in self.items:
+            raise Untranslatable("name %s is not a variable of the fragment" % n)
+        self.used.add(n)
+        return self.items[n]
+
+    def has(self, n):
+        return n in self.items
+
+    def set(self, n, t):
+        self.items[n] = t
+
+
+class _VsFn:
+    """translation of one Python function (or fragment) into Lean definitions"""
+
+    def __init__(self, unit, pyname, leanname, ret, empties, externals):
+        self.unit = unit              # the _VsUnit (known functions, output definitions)
+        self.pyname, self.lean = pyname, leanname
+        self.ret = ret
+        self.empties = empties        # declared types of the variables that start as an empty container
+        self.externals = externals    # lean name -> type of the external functions (run only)
+        self.tmp = 0
+        self.loops = 0
+        self.joins = 0
+        self.aliased = set()          # names whose list / dict may be reachable through another name or container: the translation
+                                      # copies values, so an in-place change of such an object is outside the subset
+        self.handle = None            # the name bound to GAF(gaf_path)
+
+    def fresh(self):
+        self.tmp += 1
+        return "t%d" % self.tmp
+
+    # ---------------------------------------------------------------- expressions: (binds, term, type)
+    def coerce_bool(self, term, ty):
+        if ty == BOOL_:
+            return term
+        if not isinstance(ty, str) and ty[0] == "List":
+            return "(!%s.isEmpty)" % term
+        if ty == ("Opt", S_):
+            return "(truthyStr %s)" % term
+        raise Untranslatable("truth value of a %r" % (ty,))
+
+    def as_atom(self, term, ty):
+        if ty == ATOM_:
+            return term
+        if ty == S_:
+            return "(PyAtom.str %s)" % term
+        if ty == INT_:
+            return "(PyAtom.int %s)" % term
+        raise Untranslatable("a %r where a tuple component is expected" % (ty,))
+
+    def ex(self, e, env):
+        if isinstance(e, ast.Name):
+            return [], _vs_name(e.id), env.get(e.id)
+        if isinstance(e, ast.Constant):
+            if isinstance(e.value, str):
+                return [], _vs_str(e.value), S_
+            if isinstance(e.value, bool) or e.value is None:
+                raise Untranslatable("constant %r" % (e.value,))
+            if isinstance(e.value, int) and e.value >= 0:
+                return [], str(e.value), "IntLit"
+            raise Untranslatable("constant %r" % (e.value,))
+        if isinstance(e, ast.List):
+            if not e.elts:
+                return [], "[]", ("List", None)
+            parts = [self.ex(x, env) for x in e.elts]
+            ty = parts[0][2]
+            for p in parts[1:]:
+                ty = _vs_unify(ty, p[2], "list element")
+            return sum((p[0] for p in parts), []), "[" + ", ".join(p[1] for p in parts) + "]", ("List", ty)
+        if isinstance(e, ast.Dict) and not e.keys:
+            return [], "[]", ("Dict", None, None)
+        if isinstance(e, ast.Tuple):
+            parts = [self.ex(x, env) for x in e.elts]
+            return sum((p[0] for p in parts), []), "(" + ", ".join(p[1] for p in parts) + ")", ("Tuple", [p[2] for p in parts])
+        if isinstance(e, ast.Subscript):
+            b, base, bt = self.ex(e.value, env)
+            if bt == IK_:
+                if not (isinstance(e.slice, ast.Constant) and isinstance(e.slice.value, int) and not isinstance(e.slice.value, bool)
+                        and 0 <= e.slice.value <= 3):
+                    raise Untranslatable("subscript of an index key: %s" % ast.unparse(e))
+                return b, "(%s.get %d)" % (base, e.slice.value), ATOM_
+            if not isinstance(bt, str) and bt[0] == "List":
+                t = self.fresh()
+                if isinstance(e.slice, ast.Constant) and isinstance(e.slice.value, int) and e.slice.value >= 0:
+                    return b + [(t, "pyIdx %s %d" % (base, e.slice.value))], t, bt[1]
+                if ast.unparse(e.slice) == "-1":
+                    return b + [(t, "pyLast %s" % base)], t, bt[1]
+                raise Untranslatable("list subscript %s" % ast.unparse(e))
+            if not isinstance(bt, str) and bt[0] == "Dict":
+                kb, k, kt = self.ex(e.slice, env)
+                k = self.key_as(k, kt, bt[1])
+                t = self.fresh()
+                return b + kb + [(t, "dictGet %s %s" % (base, k))], t, bt[2]
+            raise Untranslatable("subscript of a %r" % (bt,))
+        if isinstance(e, ast.UnaryOp) and isinstance(e.op, ast.Not):
+            b, t, ty = self.ex(e.operand, env)
+            return b, "(!%s)" % self.coerce_bool(t, ty), BOOL_
+        if isinstance(e, ast.BoolOp):
+            parts = [self.ex(x, env) for x in e.values]
+            terms = [self.coerce_bool(p[1], p[2]) for p in parts]
+            if all(not p[0] for p in parts[1:]):
+                # later operands are pure and total: evaluating them eagerly is unobservable
+                op = " && " if isinstance(e.op, ast.And) else " || "
+                return parts[0][0], "(" + op.join(terms) + ")", BOOL_
+            if isinstance(e.op, ast.And):
+                m = self.mterm(parts[-1][0], terms[-1])
+                for p, t in zip(reversed(parts[:-1]), reversed(terms[:-1])):
+                    m = "pyAnd %s (%s)" % (self.mterm(p[0], t, paren=True), m)
+                t = self.fresh()
+                return [(t, m)], t, BOOL_
+            raise Untranslatable("`or` over operands that may raise: %s" % ast.unparse(e))
+        if isinstance(e, ast.Compare) and len(e.ops) == 1:
+            return self.compare(e, env)
+        if isinstance(e, ast.Call):
+            return self.call(e, env)
+        if isinstance(e, (ast.ListComp, ast.GeneratorExp)):
+            return self.comprehension(e, env)
+        raise Untranslatable("expression %s" % ast.unparse(e)[:80])
+
+    def mterm(self, binds, term, paren=False):
+        """a term of type `M _` that evaluates the bound sub-expressions in order and yields `term`"""
+        if not binds:
+            s = "pure %s" % term
+        elif len(binds) == 1 and binds[0][0] == term:
+            s = binds[0][1]
+        else:
+            s = "do " + "; ".join("let %s ← %s" % b for b in binds) + "; pure %s" % term
+        return "(%s)" % s if paren else s
+
+    def key_as(self, term, ty, want):
+        if ty == want:
+            return term
+        if want == ATOM_:
+            return self.as_atom(term, ty)
+        raise Untranslatable("a %r used as a key of type %r" % (ty, want))
+
+    def compare(self, e, env):
+        op, l, r = e.ops[0], e.left, e.comparators[0]
+        lb, lt_, lty = self.ex(l, env)
+        rb, rt, rty = self.ex(r, env)
+        binds = lb + rb
+        neg = isinstance(op, (ast.NotEq, ast.NotIn))
+
+        def out(term):
+            return binds, "(!%s)" % term if neg else term, BOOL_
+        if isinstance(op, (ast.In, ast.NotIn)):
+            if not isinstance(rty, str) and rty[0] == "Dict":
+                return out("(dictHas %s %s)" % (rt, self.key_as(lt_, lty, rty[1])))
+            raise Untranslatable("membership in a %r" % (rty,))
+        if isinstance(op, (ast.Eq, ast.NotEq)):
+            if lty == IK_ and isinstance(r, ast.Constant) and isinstance(r.value, str):
+                return out("(%s.eqStr %s)" % (lt_, rt))
+            if rty == IK_ and isinstance(l, ast.Constant) and isinstance(l.value, str):
+                return out("(%s.eqStr %s)" % (rt, lt_))
+            if lty == ("Opt", S_) and rty == S_:
+                return out("(%s == some %s)" % (lt_, rt))
+            if ATOM_ in (lty, rty) and lty in (ATOM_, S_, INT_) and rty in (ATOM_, S_, INT_):
+                return out("(%s == %s)" % (self.as_atom(lt_, lty), self.as_atom(rt, rty)))
+            if lty == NAT_ and rty == "IntLit" or lty == "IntLit" and rty == NAT_:
+                return out("(%s == %s)" % (lt_, rt))
+            if lty in (S_, INT_, NAT_) and lty == rty:
+                return out("(%s == %s)" % (lt_, rt))
+            if not isinstance(lty, str) and lty[0] == "List" and not isinstance(rty, str) and rty[0] == "List" and lty[1] in (ATOM_, S_, NAT_, INT_):
+                _vs_unify(lty, rty, "compared lists")
+                return out("(%s == %s)" % (lt_, rt))
+            raise Untranslatable("comparison %s (%r, %r)" % (ast.unparse(e), lty, rty))
+        sym = {ast.Lt: ("lt", "<"), ast.LtE: ("le", "≤"), ast.Gt: ("lt", "<"), ast.GtE: ("le", "≤")}.get(type(op))
+        if sym is None:
+            raise Untranslatable("comparison %s" % ast.unparse(e))
+        if isinstance(op, (ast.Gt, ast.GtE)):        # a > b is evaluated as b < a once both operands are known
+            lt_, lty, rt, rty = rt, rty, lt_, lty
+        if lty in (NAT_, "IntLit") and rty in (NAT_, "IntLit"):
+            return binds, "(decide (%s %s %s))" % (lt_, sym[1], rt), BOOL_
+        if lty == INT_ and rty == INT_:
+            return binds, "(decide (%s %s %s))" % (lt_, sym[1], rt), BOOL_
+        if ATOM_ in (lty, rty):
+            t = self.fresh()
+            return binds + [(t, "PyAtom.%s %s %s" % (sym[0], self.as_atom(lt_, lty), self.as_atom(rt, rty)))], t, BOOL_
+        raise Untranslatable("comparison %s (%r, %r)" % (ast.unparse(e), lty, rty))
+
+    def lam(self, node, elem_ty, env, what):
+        """`lambda v: body` over elements of type elem_ty, body pure -> (lean lambda, body type)"""
+        if not (isinstance(node, ast.Lambda) and len(node.args.args) == 1 and not node.args.defaults and not node.args.kwonlyargs
+                and node.args.vararg is None and node.args.kwarg is None):
+            raise Untranslatable("%s: not a one-argument lambda" % what)
+        v = node.args.args[0].arg
+        inner = env.child()
+        inner.set(v, elem_ty)
+        b, t, ty = self.ex(node.body, inner)
+        if b:
+            raise Untranslatable("%s: the key may raise" % what)
+        return "(fun %s => %s)" % (_vs_name(v), t), ty
+
+    def sort_key(self, kw, elem_ty, env, what):
+        if kw is None:
+            if elem_ty not in (NAT_, ATOM_):
+                raise Untranslatable("%s: elements of type %r" % (what, elem_ty))
+            return "(fun v => v)"
+        f, kt = self.lam(kw, elem_ty, env, what)
+        if kt not in (NAT_, ATOM_, ("Tuple", [ATOM_, ATOM_])):
+            raise Untranslatable("%s: sort key of type %r" % (what, kt))
+        return f
+
+    def call(self, e, env):
+        f = e.func
+        u = ast.unparse(f)
+        kws = {k.arg: k.value for k in e.keywords}
+        if None in kws:
+            raise Untranslatable("call %s" % ast.unparse(e)[:60])
+        if isinstance(f, ast.Name) and f.id in ("int", "len", "list", "set", "sorted"):
+            if f.id == "set" and not e.args and not kws:
+                return [], "[]", ("List", None)
+            if f.id == "sorted" and len(e.args) == 1 and set(kws) <= {"key"}:
+                b, t, ty = self.ex(e.args[0], env)
+                if isinstance(ty, str) or ty[0] != "List":
+                    raise Untranslatable("sorted of a %r" % (ty,))
+                k = self.sort_key(kws.get("key"), ty[1], env, "sorted")
+                r = self.fresh()
+                return b + [(r, "pySortedBy %s %s" % (k, t))], r, ty
+            if len(e.args) != 1 or kws:
+                raise Untranslatable("call %s" % ast.unparse(e)[:60])
+            b, t, ty = self.ex(e.args[0], env)
+            if f.id == "int":
+                if ty != S_:
+                    raise Untranslatable("int of a %r" % (ty,))
+                r = self.fresh()
+                return b + [(r, "pyIntOf %s" % t)], r, INT_
+            if isinstance(ty, str) or ty[0] != "List":
+                raise Untranslatable("%s of a %r" % (f.id, ty))
+            if f.id == "len":
+                return b, "%s.length" % t, NAT_
+            if f.id == "list":
+                return b, t, ty
+            if f.id == "set":
+                return b, "(setOf %s)" % t, ty
+        if isinstance(f, ast.Attribute) and f.attr == "keys" and not e.args and not kws:
+            b, t, ty = self.ex(f.value, env)
+            if isinstance(ty, str) or ty[0] != "Dict":
+                raise Untranslatable("keys of a %r" % (ty,))
+            return b, "(dictKeys %s)" % t, ("List", ty[1])
+        if isinstance(f, ast.Attribute) and f.attr == "split" and len(e.args) == 1 and not kws:
+            b, t, ty = self.ex(f.value, env)
+            a = e.args[0]
+            if ty != S_ or not (isinstance(a, ast.Constant) and isinstance(a.value, str) and len(a.value) == 1 and 32 < ord(a.value) < 127
+                                and a.value not in "'\\"):
+                raise Untranslatable("split: %s" % ast.unparse(e)[:60])
+            return b, "(pySplit %s '%s')" % (t, a.value), ("List", S_)
+        if isinstance(f, ast.Name) and f.id in self.unit.sigs and not kws:
+            params, ret = self.unit.sigs[f.id]
+            if len(params) != len(e.args):
+                raise Untranslatable("call of %s with %d arguments" % (f.id, len(e.args)))
+            binds, terms = [], []
+            for a, (pn, pt) in zip(e.args, params):
+                b, t, ty = self.ex(a, env)
+                _vs_unify(pt, ty, "argument %s of %s" % (pn, f.id))
+                binds += b
+                terms.append(t)
+            r = self.fresh()
+            return binds + [(r, "%s %s" % (self.unit.lean_names[f.id], " ".join(terms)))], r, ret
+        # --- the record layer of run(): read a record at an offset, convert it
+        if self.externals:
+            if self.handle and u == "%s.read_line" % self.handle and len(e.args) == 1 and not kws:
+                b, t, ty = self.ex(e.args[0], env)
+                if ty != NAT_:
+                    raise Untranslatable("read_line of a %r" % (ty,))
+                env.get("readLine")
+                r = self.fresh()
+                return b + [(r, "readLine %s" % t)], r, REC_
+            conv = {"to_stable": ("toStable", ["gfa_nodes", "ref_contig", "contig_len"]), "to_unstable": ("toUnstable", ["reference"])}
+            if isinstance(f, ast.Name) and f.id in conv and not kws and e.args:
+                lean, extra = conv[f.id]
+                if [ast.unparse(a) for a in e.args[1:]] != extra:
+                    raise Untranslatable("arguments of %s: %s" % (f.id, ast.unparse(e)[:80]))
+                b, t, ty = self.ex(e.args[0], env)
+                if ty != REC_:
+                    raise Untranslatable("%s of a %r" % (f.id, ty))
+                env.get(lean)
+                r = self.fresh()
+                return b + [(r, "%s %s" % (lean, t))], r, OUT_
+        raise Untranslatable("call %s" % ast.unparse(e)[:60])
+
+    def comprehension(self, e, env):
+        if len(e.generators) != 1 or e.generators[0].is_async or not isinstance(e.generators[0].target, ast.Name) or len(e.generators[0].ifs) > 1:
+            raise Untranslatable("comprehension %s" % ast.unparse(e)[:60])
+        g = e.generators[0]
+        b, it, ity = self.ex(g.iter, env)
+        if isinstance(ity, str) or ity[0] != "List":
+            raise Untranslatable("comprehension over a %r" % (ity,))
+        v = g.target.id
+        inner = env.child()
+        inner.set(v, ity[1])
+        lv = _vs_name(v)
+        term, ty = it, ity
+        if g.ifs:
+            cb, ct, cty = self.ex(g.ifs[0], inner)
+            ct = self.coerce_bool(ct, cty)
+            if cb:
+                r = self.fresh()
+                b = b + [(r, "pyFilterM (fun %s => %s) %s" % (lv, self.mterm(cb, ct), term))]
+                term = r
+            else:
+                term = "(%s.filter (fun %s => %s))" % (term, lv, ct)
+        if not (isinstance(e.elt, ast.Name) and e.elt.id == v):
+            eb, et, ety = self.ex(e.elt, inner)
+            if eb:
+                raise Untranslatable("comprehension element may raise: %s" % ast.unparse(e.elt))
+            term, ty = "(%s.map (fun %s => %s))" % (term, lv, et), ("List", ety)
+        return b, term, ty
+
+    # ---------------------------------------------------------------- statements
+    @staticmethod
+    def is_log(st):
+        """statements without an effect on the values: logging"""
+        if isinstance(st, ast.Expr) and isinstance(st.value, ast.Constant):
+            return True
+        if isinstance(st, ast.Pass):
+            return True
+        if isinstance(st, ast.Expr) and isinstance(st.value, ast.Call):
+            u = ast.unparse(st.value.func)
+            return u.startswith("logger.") or u.startswith("logging.")
+        if isinstance(st, ast.If):
+            return _VsFn.harmless(st.test) and all(_VsFn.is_log(x) for x in st.body + st.orelse)
+        if isinstance(st, ast.For):
+            return isinstance(st.target, ast.Name) and isinstance(st.iter, ast.Name) and not st.orelse and all(_VsFn.is_log(x) for x in st.body)
+        return False
+
+    @staticmethod
+    def harmless(e):
+        """a test that cannot raise and has no effect: names, constants, `len(name)`, comparisons, and / or / not"""
+        if isinstance(e, (ast.Name, ast.Constant)):
+            return True
+        if isinstance(e, ast.Call):
+            return isinstance(e.func, ast.Name) and e.func.id == "len" and len(e.args) == 1 and isinstance(e.args[0], ast.Name) and not e.keywords
+        if isinstance(e, ast.Compare):
+            return all(isinstance(o, (ast.Eq, ast.NotEq, ast.Lt, ast.LtE, ast.Gt, ast.GtE)) for o in e.ops) and all(
+                _VsFn.harmless(x) and not isinstance(x, ast.Name) for x in [e.left] + e.comparators)
+        if isinstance(e, ast.BoolOp):
+            return all(_VsFn.harmless(x) for x in e.values)
+        if isinstance(e, ast.UnaryOp) and isinstance(e.op, ast.Not):
+            return _VsFn.harmless(e.operand)
+        return False
+
+    @staticmethod
+    def terminates(stmts):
+        stmts = [s for s in stmts if not _VsFn.is_log(s)]
+        if not stmts:
+            return False
+        l = stmts[-1]
+        if isinstance(l, (ast.Return, ast.Raise, ast.Continue)):
+            return True
+        return isinstance(l, ast.If) and bool(l.orelse) and _VsFn.terminates(l.body) and _VsFn.terminates(l.orelse)
+
+    def assigned(self, stmts, into_loops=True):
+        """python names (re)bound by the statements, in first-occurrence order"""
+        out = []
+
+        def add(n):
+            if n not in out:
+                out.append(n)
+        for st in stmts:
+            if self.is_log(st):
+                continue
+            if isinstance(st, ast.Assign) and len(st.targets) == 1:
+                t = st.targets[0]
+                if isinstance(t, ast.Name):
+                    add(t.id)
+                elif isinstance(t, ast.Subscript) and isinstance(t.value, ast.Name):
+                    add(t.value.id)
+                else:
+                    raise Untranslatable("assignment target %s" % ast.unparse(t))
+            elif isinstance(st, ast.AugAssign) and isinstance(st.target, ast.Name):
+                add(st.target.id)
+            elif isinstance(st, ast.Expr) and isinstance(st.value, ast.Call):
+                f = st.value.func
+                if isinstance(f, ast.Attribute) and f.attr in ("sort", "extend", "append") and isinstance(f.value, ast.Name):
+                    add(f.value.id)
+                elif isinstance(f, ast.Name) and f.id == "print":
+                    add("out")
+            elif isinstance(st, ast.If):
+                for n in self.assigned(st.body, into_loops) + self.assigned(st.orelse, into_loops):
+                    add(n)
+            elif isinstance(st, ast.For):
+                if into_loops:
+                    for n in self.assigned(st.body):
+                        add(n)
+            elif isinstance(st, ast.Try):
+                for n in self.assigned(st.body, into_loops) + sum((self.assigned(h.body, into_loops) for h in st.handlers), []):
+                    add(n)
+        return out
+
+    def inplace(self, n):
+        if n in self.aliased:
+            raise Untranslatable("in-place change of %s, which may be shared" % n)
+
+    def emit_binds(self, binds, pad):
+        return ["%slet %s ← %s" % (pad, t, m) for t, m in binds]
+
+    def tuple_of(self, names):
+        names = [_vs_name(n) for n in names]
+        return names[0] if len(names) == 1 else "(" + ", ".join(names) + ")"
+
+    def unpack(self, src, names, pad):
+        if len(names) == 1:
+            return []
+        out = []
+        for i, n in enumerate(names):
+            proj = ".2" * i + (".1" if i < len(names) - 1 else "")
+            out.append("%slet %s := %s%s" % (pad, _vs_name(n), src, proj))
+        return out
+
+    def bind_var(self, env, name, ty, what):
+        if env.has(name):
+            env.set(name, _vs_unify(env.items[name], ty, what))
+        else:
+            if ty is None or (not isinstance(ty, str) and None in ty[1:]):
+                raise Untranslatable("%s: the type of the empty container is not declared" % what)
+            env.set(name, ty)
+
+    def blk(self, stmts, env, ind, tail):
+        """lines of a `do` block for the statements; `tail(env, pad)` gives the lines that end a block which falls through"""
+        pad = " " * ind
+        stmts = list(stmts)
+        while stmts and self.is_log(stmts[0]):
+            stmts = stmts[1:]
+        if not stmts:
+            return tail(env, pad)
+        st, rest = stmts[0], stmts[1:]
+        u = ast.unparse(st)
+        if isinstance(st, ast.Continue):
+            return tail(env, pad)
+        if isinstance(st, ast.Return):
+            if self.ret is None or st.value is None:
+                raise Untranslatable("return in a fragment")
+            b, t, ty = self.ex(st.value, env)
+            _vs_unify(self.ret, ty, "returned value")
+            return self.emit_binds(b, pad) + ["%spure %s" % (pad, t)]
+        if isinstance(st, ast.Raise):
+            c = st.exc
+            if (isinstance(c, ast.Call) and ast.unparse(c.func) == "CommandLineError" and len(c.args) == 1 and not c.keywords
+                    and isinstance(c.args[0], ast.Constant) and isinstance(c.args[0].value, str)):
+                return ["%sthrow (.commandLineError %s)" % (pad, _vs_str(c.args[0].value))]
+            raise Untranslatable("raise: %s" % u[:60])
+        if isinstance(st, ast.Assert):
+            if st.msg is not None:
+                raise Untranslatable("assert with a message")
+            b, t, ty = self.ex(st.test, env)
+            return self.emit_binds(b, pad) + ["%spyAssert %s" % (pad, self.coerce_bool(t, ty))] + self.blk(rest, env, ind, tail)
+        if isinstance(st, ast.Assign) and len(st.targets) == 1:
+            tg = st.targets[0]
+            if isinstance(tg, ast.Name):
+                # the handle of the input file
+                if self.externals and isinstance(st.value, ast.Call) and ast.unparse(st.value) == "GAF(gaf_path)":
+                    self.handle = tg.id
+                    return self.blk(rest, env, ind, tail)
+                b, t, ty = self.ex(st.value, env)
+                name = tg.id
+                self.aliased.discard(name)
+                if isinstance(st.value, (ast.Name, ast.Subscript, ast.Attribute)):
+                    self.aliased.add(name)
+                    if isinstance(st.value, ast.Name):
+                        self.aliased.add(st.value.id)
+                lines = self.emit_binds(b, pad)
+                if not isinstance(ty, str) and None in ty[1:]:
+                    declared = env.items.get(name) or self.empties.get(name)
+                    if declared is None:
+                        raise Untranslatable("%s starts as an empty container of undeclared type" % name)
+                    ty = _vs_unify(declared, ty, "initial value of " + name)
+                    self.bind_var(env, name, ty, "assignment to " + name)
+                    lines.append("%slet %s : %s := %s" % (pad, _vs_name(name), _vs_ty(ty), t))
+                else:
+                    if ty == "IntLit":
+                        raise Untranslatable("integer constant assigned to %s" % name)
+                    self.bind_var(env, name, ty, "assignment to " + name)
+                    lines.append("%slet %s := %s" % (pad, _vs_name(name), t))
+                return lines + self.blk(rest, env, ind, tail)
+            if isinstance(tg, ast.Subscript) and isinstance(tg.value, ast.Name):
+                d = tg.value.id
+                dty = env.get(d)
+                if isinstance(dty, str) or dty[0] != "Dict":
+                    raise Untranslatable("item assignment to a %r" % (dty,))
+                kb, k, kt = self.ex(tg.slice, env)
+                vb, v, vt = self.ex(st.value, env)
+                _vs_unify(dty[2], vt, "value stored in " + d)
+                self.inplace(d)
+                for n in ast.walk(st.value):
+                    if isinstance(n, ast.Name):
+                        self.aliased.add(n.id)
+                return (self.emit_binds(kb + vb, pad) + ["%slet %s := dictSet %s %s %s" % (pad, _vs_name(d), _vs_name(d), self.key_as(k, kt, dty[1]), v)]
+                        + self.blk(rest, env, ind, tail))
+            raise Untranslatable("assignment %s" % u[:60])
+        if isinstance(st, ast.AugAssign) and isinstance(st.target, ast.Name) and isinstance(st.op, ast.BitOr):
+            n = st.target.id
+            self.inplace(n)
+            nty = env.get(n)
+            b, t, ty = self.ex(st.value, env)
+            if isinstance(nty, str) or nty[0] != "List" or not (isinstance(st.value, ast.Call) and ast.unparse(st.value.func) == "set"):
+                raise Untranslatable("|= : %s" % u[:60])
+            _vs_unify(nty, ty, "|= on " + n)
+            return self.emit_binds(b, pad) + ["%slet %s := setUnion %s %s" % (pad, _vs_name(n), _vs_name(n), t)] + self.blk(rest, env, ind, tail)
+        if isinstance(st, ast.Expr) and isinstance(st.value, ast.Call):
+            c = st.value
+            f = c.func
+            kws = {k.arg: k.value for k in c.keywords}
+            if self.externals and self.handle and ast.unparse(c) == "%s.close()" % self.handle:
+                return self.blk(rest, env, ind, tail)
+            if isinstance(f, ast.Attribute) and isinstance(f.value, ast.Name) and f.attr == "sort" and not c.args and set(kws) <= {"key"}:
+                n = f.value.id
+                self.inplace(n)
+                nty = env.get(n)
+                if isinstance(nty, str) or nty[0] != "List":
+                    raise Untranslatable("sort of a %r" % (nty,))
+                k = self.sort_key(kws.get("key"), nty[1], env, "sort")
+                t = self.fresh()
+                return (["%slet %s ← pySortedBy %s %s" % (pad, t, k, _vs_name(n)), "%slet %s := %s" % (pad, _vs_name(n), t)]
+                        + self.blk(rest, env, ind, tail))
+            if isinstance(f, ast.Attribute) and isinstance(f.value, ast.Name) and f.attr == "extend" and len(c.args) == 1 and not kws:
+                n = f.value.id
+                self.inplace(n)
+                nty = env.get(n)
+                b, t, ty = self.ex(c.args[0], env)
+                _vs_unify(nty, ty, "extend of " + n)
+                return self.emit_binds(b, pad) + ["%slet %s := %s ++ %s" % (pad, _vs_name(n), _vs_name(n), t)] + self.blk(rest, env, ind, tail)
+            if self.externals and isinstance(f, ast.Name) and f.id == "print" and len(c.args) == 1 and list(kws) == ["file"] and ast.unparse(kws["file"]) == "writer":
+                b, t, ty = self.ex(c.args[0], env)
+                if ty == REC_:
+                    env.get("strOf")
+                    t = "(strOf %s)" % t
+                elif ty != OUT_:
+                    raise Untranslatable("print of a %r" % (ty,))
+                env.get("out")
+                return self.emit_binds(b, pad) + ["%slet out := out ++ [%s]" % (pad, t)] + self.blk(rest, env, ind, tail)
+            raise Untranslatable("statement %s" % u[:60])
+        if isinstance(st, ast.For):
+            return self.for_loop(st, rest, env, ind, tail)
+        if isinstance(st, ast.If):
+            return self.if_stmt(st, rest, env, ind, tail)
+        if isinstance(st, ast.Try):
+            return self.try_stmt(st, rest, env, ind, tail)
+        raise Untranslatable("statement %s" % u[:60])
+
+    def join(self, branches, rest, env, ind, tail, head):
+        """branches: list of (header line, statements, pre) that all fall through; `pre` = None or (name, type, lean term): a variable
+        bound at the start of the branch.  The variables the branches rebind are joined."""
+        pad = " " * ind
+        per = [([pre[0]] if pre else []) + [n for n in self.assigned(body) if not (pre and n == pre[0])] for _, body, pre in branches]
+        top = [([pre[0]] if pre else []) + self.assigned(body, into_loops=False) for _, body, pre in branches]
+        names = []
+        for a in per:
+            for n in a:
+                if n not in names and (env.has(n) or all(n in x for x in top)):
+                    names.append(n)
+        if not names:
+            raise Untranslatable("a branch statement without an effect")
+        if len(names) == 1:
+            tmp = _vs_name(names[0])
+        else:
+            self.joins += 1
+            tmp = "jn%d" % self.joins
+        lines = ["%slet %s ← (%s" % (pad, tmp, head)]
+        envs = []
+        for hdr, body, pre in branches:
+            benv = env.child()
+
+            def btail(e, p, names=names):
+                for n in names:
+                    e.get(n)
+                return ["%spure %s" % (p, self.tuple_of(names))]
+            lines.append("%s  %s" % (pad, hdr))
+            if pre:
+                self.aliased.add(pre[0])
+                self.bind_var(benv, pre[0], pre[1], "assignment to " + pre[0])
+                lines.append("%s    let %s := %s" % (pad, _vs_name(pre[0]), pre[2]))
+            lines += self.blk(body, benv, ind + 4, btail)
+            envs.append(benv)
+        lines[-1] += ")"
+        for n in names:
+            ty = None
+            for be in envs:
+                if not be.has(n):
+                    raise Untranslatable("%s is not defined on every path" % n)
+                ty = _vs_unify(ty, be.items[n], "joined variable " + n) if ty is not None else be.items[n]
+            self.bind_var(env, n, ty, "joined variable " + n)
+        lines += self.unpack(tmp, names, pad)
+        return lines + self.blk(rest, env, ind, tail)
+
+    def if_stmt(self, st, rest, env, ind, tail):
+        pad = " " * ind
+        b, t, ty = self.ex(st.test, env)
+        cond = self.coerce_bool(t, ty)
+        lines = self.emit_binds(b, pad)
+        if self.terminates(st.body) or self.terminates(st.orelse):
+            e1, e2 = env.child(), env.child()
+            then = self.blk(st.body if self.terminates(st.body) else st.body + rest, e1, ind + 2, tail)
+            els = self.blk(st.orelse if self.terminates(st.orelse) else st.orelse + rest, e2, ind + 2, tail)
+            return lines + ["%sif %s then" % (pad, cond)] + then + ["%selse" % pad] + els
+        return lines + self.join([("then do", st.body, None), ("else do", st.orelse, None)], rest, env, ind, tail, "if %s" % cond)
+
+    def try_stmt(self, st, rest, env, ind, tail):
+        ok = (len(st.body) == 1 and isinstance(st.body[0], ast.Assign) and len(st.body[0].targets) == 1 and isinstance(st.body[0].targets[0], ast.Name)
+              and isinstance(st.body[0].value, ast.Subscript) and isinstance(st.body[0].value.value, ast.Name)
+              and len(st.handlers) == 1 and st.handlers[0].name is None and st.handlers[0].type is not None
+              and ast.unparse(st.handlers[0].type) == "KeyError" and not st.orelse and not st.finalbody)
+        if not ok:
+            raise Untranslatable("try statement is not `v = d[k]` guarded by `except KeyError`")
+        sub = st.body[0].value
+        dty = env.get(sub.value.id)
+        if isinstance(dty, str) or dty[0] != "Dict":
+            raise Untranslatable("try: lookup in a %r" % (dty,))
+        kb, k, kt = self.ex(sub.slice, env)
+        if kb:
+            raise Untranslatable("try: the key may raise")
+        if self.terminates(st.handlers[0].body):
+            raise Untranslatable("try: handler does not fall through")
+        t = self.fresh()
+        return self.join([("| some %s => do" % t, [], (st.body[0].targets[0].id, dty[2], t)), ("| none => do", st.handlers[0].body, None)], rest, env, ind, tail,
+                         "match dictGet? %s %s with" % (_vs_name(sub.value.id), self.key_as(k, kt, dty[1])))
+
+    def for_loop(self, st, rest, env, ind, tail):
+        pad = " " * ind
+        if st.orelse or not isinstance(st.target, ast.Name):
+            raise Untranslatable("for statement: %s" % ast.unparse(st)[:60])
+        for n in ast.walk(st):
+            if isinstance(n, (ast.Break, ast.Return)):
+                raise Untranslatable("break / return inside a loop")
+        b, it, ity = self.ex(st.iter, env)
+        if isinstance(ity, str) or ity[0] != "List":
+            raise Untranslatable("loop over a %r" % (ity,))
+        state = [n for n in self.assigned(st.body) if env.has(n)]
+        if not state:
+            raise Untranslatable("loop without an effect on the variables of the fragment")
+        self.loops += 1
+        lname = "%s_loop%d" % (self.lean, self.loops)
+        v = st.target.id
+        if env.has(v):
+            raise Untranslatable("loop variable %s shadows a variable" % v)
+        inner = _VsEnv(env.items, set())
+        inner.set(v, ity[1])
+        saved_tmp, self.tmp = self.tmp, 0
+
+        def ltail(e, p):
+            for n in state:
+                e.get(n)
+            return ["%spure %s" % (p, self.tuple_of(state))]
+        body = self.blk(st.body, inner, 2, ltail)
+        self.tmp = saved_tmp
+        free = [n for n in env.items if n in inner.used and n not in state]
+        for n in free:
+            env.used.add(n)
+        for n in state:
+            env.used.add(n)
+        st_ty = env.items[state[0]] if len(state) == 1 else ("Tuple", [env.items[n] for n in state])
+        sig_types = [env.items[n] for n in free] + [st_ty, ity[1]]
+        tparams = "".join(" {%s : Type}" % tp for tp in (REC_, OUT_) if any(_vs_mentions(t, tp) for t in sig_types))
+        params = "".join(" (%s : %s)" % (_vs_name(n), _vs_ty(env.items[n])) for n in free)
+        head = ["def %s%s%s (st : %s) (%s : %s) : M %s := do" % (lname, tparams, params, _vs_ty(st_ty), _vs_name(v), _vs_ty(ity[1]), _vs_ty(st_ty))]
+        if len(state) == 1:
+            head.append("  let %s := st" % self.tuple_of(state))
+        else:
+            head += self.unpack("st", state, "  ")
+        self.unit.defs.append("/-- the body of `for %s in %s` in `%s` -/\n" % (v, ast.unparse(st.iter), self.pyname) + "\n".join(head + body))
+        args = "".join(" " + _vs_name(n) for n in free)
+        lines = self.emit_binds(b, pad)
+        if len(state) == 1:
+            s = self.tuple_of(state)
+            lines.append("%slet %s ← %s.foldlM (%s%s) %s" % (pad, s, it, lname, args, s))
+        else:
+            lines.append("%slet st ← %s.foldlM (%s%s) %s" % (pad, it, lname, args, self.tuple_of(state)))
+            lines += self.unpack("st", state, pad)
+        return lines + self.blk(rest, env, ind, tail)
+
+
+class _VsUnit:
+    def __init__(self):
+        self.sigs = {}         # python function name -> ([(param, type)], return type)
+        self.lean_names = {}
+        self.defs = []
+
+
+def gen_view_sel():
+    _, src = src_of("gaftools/cli/view.py")
+    mod = ast.parse(src)
+    unit = _VsUnit()
+    KEYS = _vs_D(IK_, _vs_L(NAT_))       # the pickled index: node key | "ref_contig" -> offsets (the contig names under "ref_contig" are never read)
+
+    def plain_function(pyname, ptypes, ret, empties, doc):
+        fn = find_func(mod, pyname)
+        a = fn.args
+        if a.vararg or a.kwarg or a.kwonlyargs or a.defaults or a.posonlyargs or len(a.args) != len(ptypes):
+            raise Untranslatable("signature of %s" % pyname)
+        params = [(x.arg, t) for x, t in zip(a.args, ptypes)]
+        tr = _VsFn(unit, pyname, _vs_name(pyname), ret, empties, {})
+        env = _VsEnv()
+        for n, t in params:
+            env.set(n, t)
+            tr.aliased.add(n)
+
+        def tail(e, p):
+            raise Untranslatable("%s can fall off its end" % pyname)
+        body = tr.blk(fn.body, env, 2, tail)
+        unit.defs.append("/-- %s -/\ndef %s%s : M %s := do\n%s" % (doc, _vs_name(pyname), "".join(" (%s : %s)" % (_vs_name(n), _vs_ty(t)) for n, t in params),
+                                                                  _vs_ty(ret), "\n".join(body)))
+        unit.sigs[pyname] = (params, ret)
+        unit.lean_names[pyname] = _vs_name(pyname)
+
+    # search(node, node_list): node = [contig, start, end] as strings, node_list = keys of the index
+    plain_function("search", [_vs_L(S_), _vs_L(IK_)], _vs_L(IK_), {}, "`view.search`")
+    # get_unstable(regions, index)
+    plain_function("get_unstable", [_vs_L(S_), KEYS], _vs_L(ATOM_), {"node_dict": _vs_D(S_, _vs_L(IK_)), "result": _vs_L(ATOM_)}, "`view.get_unstable`")
+
+    # ---- run: the branch that selects by nodes / regions, from the statement after the index is unpickled
+    fn = find_func(mod, "run")
+    pnames = [x.arg for x in fn.args.args]
+    for need in ("nodes", "regions", "format", "gaf_path"):
+        if need not in pnames:
+            raise Untranslatable("run has no parameter %s" % need)
+    sel = None
+    for st in fn.body:
+        if isinstance(st, ast.If):
+            for i, x in enumerate(st.body):
+                if (isinstance(x, ast.With) and len(x.body) == 1 and isinstance(x.body[0], ast.Assign) and len(x.body[0].targets) == 1
+                        and isinstance(x.body[0].targets[0], ast.Name) and ast.unparse(x.body[0].value).startswith("pickle.load(")):
+                    if sel is not None:
+                        raise Untranslatable("two places unpickle an index")
+                    sel = (st, i, x.body[0].targets[0].id)
+    if sel is None:
+        raise Untranslatable("the branch of run that unpickles the index was not found")
+    sel_if, at, ind_var = sel
+    for x in sel_if.body[:at]:
+        # what precedes is the choice of the index path (modelled in Cli.viewHead); it must not touch the selection's inputs
+        for n in ast.walk(x):
+            if isinstance(n, ast.Name) and isinstance(n.ctx, ast.Store) and n.id in ("nodes", "regions", "format"):
+                raise Untranslatable("nodes / regions / format rebound before the index is read")
+    tr = _VsFn(unit, "run", "run", None, {"ind_dict": _vs_D(ATOM_, IK_), "offsets": _vs_L(NAT_)},
+               {"readLine": ("MFn", NAT_, REC_), "toStable": ("MFn", REC_, OUT_), "toUnstable": ("MFn", REC_, OUT_), "strOf": ("Fn", REC_, OUT_)})
+    env = _VsEnv()
+    for n, t in tr.externals.items():
+        env.set(n, t)
+    env.set("format", ("Opt", S_))
+    env.set(ind_var, KEYS)
+    env.set("nodes", _vs_L(ATOM_))
+    env.set("regions", _vs_L(S_))
+    env.set("out", _vs_L(OUT_))
+    tr.aliased |= {ind_var, "nodes", "regions"}
+    # the guard of the branch
+    genv = _VsEnv({"nodes": _vs_L(ATOM_), "regions": _vs_L(S_)})
+    gb, gt, gty = tr.ex(sel_if.test, genv)
+    if gb:
+        raise Untranslatable("the guard of the selecting branch may raise")
+    tr.tmp = 0
+
+    def rtail(e, p):
+        return ["%spure out" % p]
+    body = tr.blk(sel_if.body[at + 1:], env, 2, rtail)
+    unit.defs.append("/-- `view.run` is in the branch that selects by nodes / regions -/\ndef selecting (nodes : %s) (regions : %s) : Bool := %s"
+                     % (_vs_ty(_vs_L(ATOM_)), _vs_ty(_vs_L(S_)), tr.coerce_bool(gt, gty)))
+    unit.defs.append("/-- `view.run`, the selecting branch from the statement after the index is unpickled (`%s`) to its end; the result is\n"
+                     "    what has been printed to `writer` (`readLine` = `GAF.read_line`, `toStable` / `toUnstable` = the conversions with the tables\n"
+                     "    built in the head of `run`, `strOf` = `str` of a record) -/\n"
+                     "def run {Rec Out : Type} (readLine : Nat → M Rec) (toStable toUnstable : Rec → M Out) (strOf : Rec → Out)\n"
+                     "    (format : Option String) (%s : %s) (nodes : %s) (regions : %s) : M (List Out) := do\n"
+                     "  let out : List Out := []\n%s" % (ind_var, _vs_name(ind_var), _vs_ty(KEYS), _vs_ty(_vs_L(ATOM_)), _vs_ty(_vs_L(S_)), "\n".join(body)))
+    return ("import Gaftools.Model.View\nimport Gaftools.Model.TextLayer\n"
+            "/-! generated by harness/translate.py from gaftools/cli/view.py : `search`, `get_unstable` and the selecting branch of `run`, translated\n"
+            "    statement by statement into the exception monad — do not edit -/\n"
+            + VIEWSEL_PRELUDE + "\n/-! ### translated from the source -/\n\n" + "\n\n".join(unit.defs) + "\n\nend Gaftools.Gen.ViewSel\n")
+
+
+GENERATORS["ViewSel"] = gen_view_sel
+
+
+# ---------------------------------------------------------------------------------------------------------
+# index.convert_coord and the record loop of index.run, statement by statement (C03, C04, C05)
+
+_IX_PRELUDE = r"""/-! ## the Python primitives the translation refers to -/
+
+/-- `re.split(p, s)` for a pattern that is an alternation of single characters, every one of them in a capturing group: `sep c` =
+    the character is one of them; the separator itself becomes an element of the result (the `None`s of the groups that did not
+    take part are not represented: the translator insists on `filter(None, …)` around a pattern with groups).  A pattern without
+    groups is `List.splitOnP`. -/
+def reSplitAux (sep keep : Char → Bool) : Str → Str → List Str
+  | [], cur => [cur.reverse]
+  | c :: cs, cur =>
+    if sep c then cur.reverse :: ((if keep c then [[c]] else []) ++ reSplitAux sep keep cs [])
+    else reSplitAux sep keep cs (c :: cur)
+def reSplit (sep keep : Char → Bool) (s : Str) : List Str := reSplitAux sep keep s []
+
+/-- `filter(None, l)` on strings: the empty ones go -/
+def filterNone (l : List Str) : List Str := l.filter (fun t => !t.isEmpty)
+
+/-- `l[a:b]` with Python's treatment of negative and out-of-range bounds -/
+def pySlice {α : Type} (l : List α) (a b : Int) : List α :=
+  let n : Int := l.length
+  let a' : Int := if a < 0 then max (a + n) 0 else min a n
+  let b' : Int := if b < 0 then max (b + n) 0 else min b n
+  (l.drop a'.toNat).take (b' - a').toNat
+
+/-- `x, y = l` (anything but two elements: ValueError) -/
+def unpack2 {α : Type} : List α → Option (α × α)
+  | [x, y] => some (x, y)
+  | _ => none
+
+/-- the dictionary `out_dict` (insertion ordered): membership, `d[k].append(v)` for a present key, `d[k] = v` -/
+abbrev Idx := List (Key × List Nat)
+def dHas (d : Idx) (k : Key) : Bool := d.any (·.1 == k)
+def dAppend (d : Idx) (k : Key) (v : Nat) : Idx := d.map (fun e => if e.1 == k then (e.1, e.2 ++ [v]) else e)
+def dSet (d : Idx) (k : Key) (v : List Nat) : Idx :=
+  if dHas d k then d.map (fun e => if e.1 == k then (e.1, v) else e) else d ++ [(k, v)]
+
+/-- the GAF being read: `tell()` = `pos` (a record is identified by its ordinal), `readline()` takes the head of `rest`
+    (`none` = the empty string at the end of the file) and advances `pos` -/
+structure GafFile where
+  pos : Nat
+  rest : List Str
+
+/-- `while True:` with a body that says whether to go on (`false` = `break`); `none` = an exception (or out of fuel) -/
+def whileTrue {σ : Type} (body : σ → Option (Bool × σ)) : Nat → σ → Option σ
+  | 0, _ => none
+  | fuel + 1, s =>
+    match body s with
+    | none => none
+    | some (false, s') => some s'
+    | some (true, s') => whileTrue body fuel s'
+"""
+
+_IX_RESERVED = {
+    "end", "from", "fun", "at", "open", "in", "let", "do", "then", "else", "if", "match", "with", "where", "have", "show", "by", "local",
+    "section", "namespace", "instance", "class", "structure", "def", "theorem", "example", "variable", "universe", "import", "export",
+    "mutual", "private", "protected", "partial", "unsafe", "noncomputable", "deriving", "extends", "for", "return", "mut", "break",
+    "continue", "try", "catch", "finally", "throw", "unless", "using", "calc", "nomatch", "nofun", "true", "false", "some", "none", "id",
+    "rstrip", "splitOnChar", "splitTab", "toInt", "toNat", "pySlice", "unpack2", "filterNone", "reSplit", "reSplitAux", "dHas", "dAppend",
+    "dSet", "whileTrue", "window", "searchIv", "convertCoord", "max", "min", "not", "and", "or", "s", "k", "fuel", "onKeyError", "c", "kv",
+    "String", "List", "Option", "Nat", "Int", "Bool", "Unit", "Prod", "Char", "Gaftools", "Str", "Idx", "Key", "Seg", "NodeInfo", "GafFile",
+    "RunSt", "run", "run_while", "run_ref_contig",
+}       # a Python variable of one of these names gets a `_` appended: as a Lean local it would shadow something the translation uses
+
+_IX_SHOW = {"Ref": "String → List Seg", "Nodes": "String → Option NodeInfo"}
+
+
+def _ix_ty(t):
+    return _IX_SHOW.get(t, t)
+
+
+def _ix_chars(v):
+    def ch(c):
+        if c == "'":
+            return "'\\''"
+        if c == "\\":
+            return "'\\\\'"
+        if c == "\t":
+            return "'\\t'"
+        if c == "\n":
+            return "'\\n'"
+        if not (32 <= ord(c) < 127):
+            raise Untranslatable("non-ASCII / control character in a string constant")
+        return "'%s'" % c
+    return "[" + ", ".join(ch(c) for c in v) + "]"
+
+
+class _IxFn:
+    """one Python function (or region of one) -> Lean definitions; loop bodies become auxiliary definitions"""
+
+    def __init__(self, owner, fname):
+        self.owner = owner            # shared: list of emitted definitions, known translated functions
+        self.fname = fname
+        self.nloop = 0
+        self.ntmp = 0
+
+    @staticmethod
+    def lean_name(n):
+        if (not re.fullmatch(r"[A-Za-z_][A-Za-z0-9_]*", n) or re.fullmatch(r"v\d+", n) or n.endswith("_int") or n.endswith("_")
+                or re.fullmatch(r"\w+_for\d+", n)):
+            raise Untranslatable("variable name %s" % n)
+        return n + "_" if n in _IX_RESERVED else n
+
+
+class _IxCtx:
+    """state of the translation of one definition body"""
+
+    def __init__(self, fn, env, rtype, cache=None):
+        self.fn = fn
+        self.env = list(env)          # [(py, lean, type)]; the first `outer_n` entries belong to the enclosing definition
+        self.outer_n = len(self.env)
+        self.rtype = rtype            # Lean type of the definition's result
+        self.binds = []               # pending [(var, text, kind)] of the statement being translated
+        self.cache = dict(cache or {})  # unparsed pure fallible expression -> (lean var, type, names it depends on)
+        self.used = set()             # Lean names of the enclosing definition this body reads (shared by the forks)
+        self.flags = {"fallible": False, "fuel": False}   # shared by the forks
+        self.extras = []              # out_dict["…"] = name after the loop
+
+    def fork(self):
+        c = _IxCtx(self.fn, self.env, self.rtype, self.cache)
+        c.outer_n = self.outer_n
+        c.used = self.used
+        c.flags = self.flags
+        c.extras = list(self.extras)
+        return c
+
+    @property
+    def fallible(self):
+        return self.flags["fallible"]
+
+    def mark_used(self, lean):
+        idx = max(i for i, (_, l, _) in enumerate(self.env) if l == lean)
+        if idx < self.outer_n:
+            self.used.add(lean)
+
+    def lookup(self, n):
+        for py, lean, ty in reversed(self.env):
+            if py == n:
+                self.mark_used(lean)
+                return lean, ty
+        raise Untranslatable("unknown variable %s" % n)
+
+    def has(self, n):
+        return any(py == n for py, _, _ in self.env)
+
+    def define(self, n, ty):
+        lean = _IxFn.lean_name(n)
+        self.env.append((n, lean, ty))
+        for k in [k for k, v in self.cache.items() if n in v[2]]:
+            del self.cache[k]
+        return lean
+
+    def tmp(self):
+        self.fn.ntmp += 1
+        return "v%d" % self.fn.ntmp
+
+    def bind(self, text, ty, kind, key=None, deps=(), name=None):
+        if key is not None and key in self.cache:
+            v, t, _ = self.cache[key]
+            self.mark_used(v)
+            return v, t
+        v = name or self.tmp()
+        self.binds.append((v, text, kind))
+        self.flags["fallible"] = True
+        if key is not None:
+            self.cache[key] = (v, ty, set(deps))
+            self.env.append(("", v, ty))          # a derived Lean-only variable (it can be passed on to a loop body)
+        return v, ty
+
+    # ---- expressions ------------------------------------------------------------------------------------
+    def tag_read(self, e):
+        """X.tags["SO"|"LN"|"SN"][1] -> (lean of X, type of X, tag) or None"""
+        if (isinstance(e, ast.Subscript) and isinstance(e.slice, ast.Constant) and e.slice.value == 1 and isinstance(e.value, ast.Subscript)
+                and isinstance(e.value.slice, ast.Constant) and isinstance(e.value.slice.value, str)
+                and isinstance(e.value.value, ast.Attribute) and e.value.value.attr == "tags"):
+            x, tx = self.ex(e.value.value.value)
+            if tx not in ("Seg", "NodeInfo"):
+                raise Untranslatable("tags of a %s" % tx)
+            return x, tx, e.value.slice.value
+        return None
+
+    def ex(self, e):
+        """-> (lean text, type); fallible parts are appended to self.binds in evaluation order"""
+        if isinstance(e, ast.Name):
+            return self.lookup(e.id)
+        if isinstance(e, ast.Constant):
+            if isinstance(e.value, bool):
+                return ("true" if e.value else "false"), "Bool"
+            if isinstance(e.value, int):
+                return "(%d : Int)" % e.value, "Int"
+            if isinstance(e.value, str):
+                return _ix_chars(e.value), "Str"
+            raise Untranslatable("constant %r" % (e.value,))
+        if isinstance(e, ast.UnaryOp) and isinstance(e.op, ast.USub) and isinstance(e.operand, ast.Constant) and isinstance(e.operand.value, int):
+            return "(-%d : Int)" % e.operand.value, "Int"
+        if isinstance(e, ast.UnaryOp) and isinstance(e.op, ast.Not):
+            x, t = self.ex(e.operand)
+            if t == "Bool":
+                return "(!%s)" % x, "Bool"
+            if t == "Prop":
+                return "(¬ %s)" % x, "Prop"
+            if t == "Option Str":
+                return "%s.isNone" % x, "Bool"
+            raise Untranslatable("not of a %s" % t)
+        if isinstance(e, ast.BoolOp):
+            parts = [self.ex(v) for v in e.values]
+            for _, t in parts:
+                if t not in ("Bool", "Prop"):
+                    raise Untranslatable("truth value of a %s" % t)
+            if all(t == "Bool" for _, t in parts):
+                return "(" + (" && " if isinstance(e.op, ast.And) else " || ").join(x for x, _ in parts) + ")", "Bool"
+            ps = [x if t == "Prop" else "(%s = true)" % x for x, t in parts]
+            return "(" + (" ∧ " if isinstance(e.op, ast.And) else " ∨ ").join(ps) + ")", "Prop"
+        if isinstance(e, ast.Compare):
+            if len(e.ops) > 1:
+                vals = [e.left] + list(e.comparators)
+                parts = [self.ex(ast.Compare(left=vals[i], ops=[e.ops[i]], comparators=[vals[i + 1]])) for i in range(len(e.ops))]
+                if all(t == "Prop" for _, t in parts):
+                    return "(" + " ∧ ".join(x for x, _ in parts) + ")", "Prop"
+                raise Untranslatable("comparison chain " + ast.unparse(e))
+            op, l, r = e.ops[0], e.left, e.comparators[0]
+            if isinstance(op, (ast.In, ast.NotIn)):
+                if isinstance(l, ast.Constant) and isinstance(l.value, str) and len(l.value) == 1:
+                    x, t = self.ex(r)
+                    if t == "Str":
+                        c = "(%s.contains %s)" % (x, _ix_chars(l.value)[1:-1])
+                        return (c if isinstance(op, ast.In) else "(!%s)" % c), "Bool"
+                raise Untranslatable("membership test " + ast.unparse(e))
+            (x, tx), (y, ty) = self.ex(l), self.ex(r)
+            if tx != ty:
+                raise Untranslatable("comparison of a %s with a %s" % (tx, ty))
+            if tx in ("Str", "String") and isinstance(op, (ast.Eq, ast.NotEq)):
+                return "(%s %s %s)" % (x, "==" if isinstance(op, ast.Eq) else "!=", y), "Bool"
+            if tx in ("Int", "Nat"):
+                sym = {ast.Lt: "<", ast.Gt: ">", ast.Eq: "=", ast.LtE: "≤", ast.GtE: "≥", ast.NotEq: "≠"}.get(type(op))
+                if sym:
+                    return "(%s %s %s)" % (x, sym, y), "Prop"
+            raise Untranslatable("comparison " + ast.unparse(e))
+        if isinstance(e, ast.BinOp) and isinstance(e.op, (ast.Add, ast.Sub)):
+            (x, tx), (y, ty) = self.ex(e.left), self.ex(e.right)
+            if tx == ty == "Int":
+                return "(%s %s %s)" % (x, "+" if isinstance(e.op, ast.Add) else "-", y), "Int"
+            raise Untranslatable("arithmetic on %s, %s" % (tx, ty))
+        if isinstance(e, ast.Tuple):
+            parts = [self.ex(v) for v in e.elts]
+            tys = [t for _, t in parts]
+            ty = "Key" if tys == ["String", "String", "Int", "Int"] else "(" + " × ".join(tys) + ")"
+            return "(" + ", ".join(x for x, _ in parts) + ")", ty
+        if isinstance(e, ast.List) and len(e.elts) == 1:
+            x, t = self.ex(e.elts[0])
+            return "[%s]" % x, "List " + t
+        if isinstance(e, ast.Attribute):
+            if e.attr == "id":
+                x, t = self.ex(e.value)
+                if t in ("Seg", "NodeInfo"):
+                    return "%s.id" % x, "String"
+            raise Untranslatable("attribute " + ast.unparse(e))
+        if isinstance(e, ast.Subscript):
+            tr = self.tag_read(e)
+            if tr is not None:
+                x, tx, tag = tr
+                if tag == "SN" and tx == "NodeInfo":
+                    return "%s.sn" % x, "String"
+                raise Untranslatable("tag value used as text: " + ast.unparse(e))
+            x, t = self.ex(e.value)
+            if isinstance(e.slice, ast.Slice):
+                if e.slice.step is not None or not t.startswith("List "):
+                    raise Untranslatable("slice " + ast.unparse(e))
+                lo, hi = e.slice.lower, e.slice.upper
+                if hi is None and isinstance(lo, ast.Constant) and isinstance(lo.value, int) and lo.value >= 0:
+                    return "(%s.drop %d)" % (x, lo.value), t
+                if lo is not None and hi is not None:
+                    (a, ta), (b, tb) = self.ex(lo), self.ex(hi)
+                    if ta == tb == "Int":
+                        return "(pySlice %s %s %s)" % (x, a, b), t
+                raise Untranslatable("slice " + ast.unparse(e))
+            if t == "List Str" and isinstance(e.slice, ast.Constant) and isinstance(e.slice.value, int) and e.slice.value >= 0:
+                return self.bind("(%s[%d]?)" % (x, e.slice.value), "Str", "IndexError")
+            if t == "Ref":
+                k, tk = self.ex(e.slice)
+                if tk == "Str":
+                    return "(%s (String.ofList %s))" % (x, k), "List Seg"
+                if tk == "String":
+                    return "(%s %s)" % (x, k), "List Seg"
+            if t == "Nodes":
+                k, tk = self.ex(e.slice)
+                if tk == "String":
+                    return self.bind("(%s %s)" % (x, k), "NodeInfo", "KeyError", key=ast.unparse(e), deps=_ix_names(e))
+            raise Untranslatable("subscript " + ast.unparse(e))
+        if isinstance(e, ast.Call):
+            return self.call(e)
+        raise Untranslatable("expression " + ast.unparse(e)[:80])
+
+    def call(self, e):
+        if e.keywords:
+            raise Untranslatable("keyword arguments: " + ast.unparse(e)[:60])
+        f, a = e.func, e.args
+        fu = ast.unparse(f)
+        if fu == "int" and len(a) == 1:
+            tr = self.tag_read(a[0])
+            if tr is not None:
+                x, tx, tag = tr
+                if tag == "SO":
+                    return "%s.so" % x, "Int"
+                if tag == "LN":
+                    return "(%s.en - %s.so)" % (x, x), "Int"
+                raise Untranslatable("int of tag " + tag)
+            if isinstance(a[0], ast.Name):
+                if ast.unparse(e) in self.cache:                      # already converted, and the variable has not been assigned since
+                    return self.bind("", "Int", "ValueError", key=ast.unparse(e))
+                x, t = self.ex(a[0])
+                if t == "Str":
+                    return self.bind("(toInt %s)" % x, "Int", "ValueError", key=ast.unparse(e), deps={a[0].id}, name=x + "_int")
+            raise Untranslatable("int() of " + ast.unparse(a[0])[:60])
+        if fu == "len" and len(a) == 1:
+            x, t = self.ex(a[0])
+            if t.startswith("List "):
+                return "(%s.length : Int)" % x, "Int"
+            raise Untranslatable("len of a %s" % t)
+        if fu == "list" and len(a) == 1:
+            x, t = self.ex(a[0])
+            if t.startswith("List "):
+                return x, t
+            raise Untranslatable("list() of a %s" % t)
+        if fu == "filter" and len(a) == 2 and isinstance(a[0], ast.Constant) and a[0].value is None:
+            x, t = self.ex(a[1])
+            if t in ("List Str", "ReSplit"):
+                return "(filterNone %s)" % x, "List Str"
+            raise Untranslatable("filter(None, …) of a %s" % t)
+        if fu == "re.split" and len(a) == 2 and isinstance(a[0], ast.Constant) and isinstance(a[0].value, str):
+            x, t = self.ex(a[1])
+            if t != "Str":
+                raise Untranslatable("re.split of a %s" % t)
+            alts = a[0].value.split("|")
+            grouped = [re.fullmatch(r"\((.)\)", p) for p in alts]
+            plain = [re.fullmatch(r"(.)", p) for p in alts]
+            special = set(".^$*+?{}[]\\|()")
+            if all(grouped):
+                cs = [m.group(1) for m in grouped]
+            elif all(plain):
+                cs = [m.group(1) for m in plain]
+            else:
+                raise Untranslatable("regular expression %r" % a[0].value)
+            if any(c in special for c in cs):
+                raise Untranslatable("regular expression %r" % a[0].value)
+            pred = "(fun c => " + " || ".join("c == %s" % _ix_chars(c)[1:-1] for c in cs) + ")"
+            if all(grouped):
+                return "(reSplit %s %s %s)" % (pred, pred, x), "ReSplit"        # must go through filter(None, …)
+            return "(%s.splitOnP %s)" % (x, pred), "List Str"
+        if isinstance(f, ast.Attribute):
+            m = f.attr
+            if m == "rstrip" and not a:
+                x, t = self.ex(f.value)
+                if t == "Str":
+                    return "(rstrip %s)" % x, "Str"
+            if m == "split" and len(a) == 1 and isinstance(a[0], ast.Constant) and isinstance(a[0].value, str) and len(a[0].value) == 1:
+                x, t = self.ex(f.value)
+                if t == "Str":
+                    return "(splitOnChar %s %s)" % (_ix_chars(a[0].value)[1:-1], x), "List Str"
+            if m == "tell" and not a:
+                x, t = self.ex(f.value)
+                if t == "GafFile":
+                    return "%s.pos" % x, "Nat"
+            if fu in ("utils.search_intervals", "search_intervals") and len(a) == 5:
+                parts = [self.ex(v) for v in a]
+                if [t for _, t in parts] == ["List Seg", "Int", "Int", "Int", "Int"]:
+                    iv = parts[0][0]
+                    return self.bind("(Gaftools.Gen.searchIv %s %s %s (%s.length + 2) %s %s)" % (
+                        iv, parts[1][0], parts[2][0], iv, parts[3][0], parts[4][0]), "(Int × Int)", "IndexError")
+            raise Untranslatable("call " + ast.unparse(e)[:70])
+        if isinstance(f, ast.Name) and f.id in self.fn.owner.known:
+            name, ptys, rty, fallible = self.fn.owner.known[f.id]
+            parts = [self.ex(v) for v in a]
+            if [t for _, t in parts] != ptys:
+                raise Untranslatable("arguments of %s: %s" % (f.id, [t for _, t in parts]))
+            text = "(Gaftools.Gen.%s %s)" % (name, " ".join(x for x, _ in parts))
+            return self.bind(text, rty, "any") if fallible else (text, rty)
+        raise Untranslatable("call " + ast.unparse(e)[:70])
+
+    # ---- statements -------------------------------------------------------------------------------------
+    def flush(self, pad, only_kinds=None):
+        out = ""
+        for v, text, kind in self.binds:
+            if only_kinds is not None and kind not in only_kinds:
+                raise Untranslatable("a %s inside a handler for %s" % (kind, sorted(only_kinds)))
+            out += "%s%s.bind fun %s =>\n" % (pad, text, v)
+        self.binds = []
+        return out
+
+    def let(self, pad, n, ty, text):
+        lean = self.define(n, ty)
+        return "%slet %s : %s := %s\n" % (pad, lean, _ix_ty(ty), text)
+
+    def block(self, stmts, ind, k):
+        """k: dict of continuations  fin / cont / brk / ret : ctx -> text"""
+        pad = " " * ind
+        if not stmts:
+            return pad + k["fin"](self)
+        st, rest = stmts[0], stmts[1:]
+        if isinstance(st, ast.Expr) and isinstance(st.value, ast.Constant):
+            return self.block(rest, ind, k)             # a docstring
+        if isinstance(st, ast.Pass):
+            return self.block(rest, ind, k)
+        if isinstance(st, ast.Continue):
+            if "cont" not in k:
+                raise Untranslatable("continue outside a loop")
+            return pad + k["cont"](self)
+        if isinstance(st, ast.Break):
+            if "brk" not in k:
+                raise Untranslatable("break outside a while loop")
+            return pad + k["brk"](self)
+        if isinstance(st, ast.Return):
+            if "ret" not in k or st.value is None:
+                raise Untranslatable("return")
+            x, t = self.ex(st.value)
+            return self.flush(pad) + pad + k["ret"](self, x, t)
+        if isinstance(st, ast.With):
+            if not (len(st.items) == 1 and st.items[0].optional_vars is None and isinstance(st.items[0].context_expr, ast.Call)
+                    and ast.unparse(st.items[0].context_expr.func) == "timers"):
+                raise Untranslatable("with " + ast.unparse(st.items[0])[:60])
+            return self.block(list(st.body) + rest, ind, k)
+        if isinstance(st, ast.If):
+            # `if not <line just read>: break` — afterwards the line is a non-empty string
+            refine = None
+            if (isinstance(st.test, ast.UnaryOp) and isinstance(st.test.op, ast.Not) and isinstance(st.test.operand, ast.Name)
+                    and self.has(st.test.operand.id) and self.lookup(st.test.operand.id)[1] == "Option Str"
+                    and len(st.body) == 1 and isinstance(st.body[0], ast.Break) and not st.orelse):
+                refine = st.test.operand.id
+            x, t = self.ex(st.test)
+            if t not in ("Bool", "Prop"):
+                raise Untranslatable("truth value of a %s" % t)
+            pre = self.flush(pad)
+            a, b = self.fork(), self.fork()
+            then = a.block(list(st.body) + rest, ind + 2, k)
+            if refine:
+                lean, _ = b.lookup(refine)
+                els = b.let(" " * (ind + 2), refine, "Str", "%s.getD []" % lean) + b.block(rest, ind + 2, k)
+            else:
+                els = b.block(list(st.orelse) + rest, ind + 2, k)
+            self.extras = b.extras or a.extras
+            return "%s%sif %s then\n%s\n%selse\n%s" % (pre, pad, x, then, pad, els)
+        if isinstance(st, ast.Try):
+            return self.try_stmt(st, rest, ind, k)
+        if isinstance(st, ast.For):
+            return self.for_stmt(st, rest, ind, k)
+        if isinstance(st, ast.While):
+            return self.while_stmt(st, rest, ind, k)
+        if isinstance(st, ast.Assign) and len(st.targets) == 1:
+            return self.assign(st.targets[0], st.value, ind) + self.block(rest, ind, k)
+        if isinstance(st, ast.Expr) and isinstance(st.value, ast.Call) and isinstance(st.value.func, ast.Attribute):
+            c = st.value
+            if c.func.attr == "append" and len(c.args) == 1 and not c.keywords and isinstance(c.func.value, ast.Name):
+                lean, t = self.lookup(c.func.value.id)
+                x, tx = self.ex(c.args[0])
+                if t != "List " + tx:
+                    raise Untranslatable("append of a %s to a %s" % (tx, t))
+                out = self.flush(pad)
+                return out + self.let(pad, c.func.value.id, t, "%s ++ [%s]" % (lean, x)) + self.block(rest, ind, k)
+            if c.func.attr == "close" and not c.args and isinstance(c.func.value, ast.Name) and self.lookup(c.func.value.id)[1] == "GafFile":
+                return self.block(rest, ind, k)
+        raise Untranslatable("statement " + ast.unparse(st)[:70])
+
+    def assign(self, tgt, val, ind):
+        pad = " " * ind
+        if isinstance(tgt, ast.Name):
+            if isinstance(val, (ast.List, ast.Dict)) and not (val.elts if isinstance(val, ast.List) else val.keys):
+                ty = self.fn.owner.empty_hint.get((self.fn.fname, tgt.id))
+                if ty is None:
+                    raise Untranslatable("the type of the empty container %s is not known" % tgt.id)
+                return self.let(pad, tgt.id, ty, "[]")
+            if (isinstance(val, ast.Call) and isinstance(val.func, ast.Attribute) and val.func.attr == "readline" and not val.args
+                    and isinstance(val.func.value, ast.Name) and self.lookup(val.func.value.id)[1] == "GafFile"):
+                f = val.func.value.id
+                lf, _ = self.lookup(f)
+                out = self.let(pad, tgt.id, "Option Str", "%s.rest.head?" % lf)
+                return out + self.let(pad, f, "GafFile", "⟨%s.pos + 1, %s.rest.tail⟩" % (lf, lf))
+            x, t = self.ex(val)
+            if t in ("ReSplit", "Prop"):
+                raise Untranslatable("value of " + ast.unparse(val)[:60])
+            if t == "Int" and self.has(tgt.id) and self.lookup(tgt.id)[1] == "Nat":
+                raise Untranslatable("integer assigned to the offset variable")
+            if isinstance(val, ast.Constant) and isinstance(val.value, int) and val.value >= 0 and self.fn.owner.nat_hint.get((self.fn.fname, tgt.id)):
+                x, t = str(val.value), "Nat"
+            want = self.fn.owner.var_hint.get((self.fn.fname, tgt.id))
+            if want is not None and t != want:
+                if (t, want) == ("List Str", "List String"):
+                    x, t = "(%s.map String.ofList)" % x, want
+                else:
+                    raise Untranslatable("%s holds a %s" % (tgt.id, t))
+            out = self.flush(pad)
+            return out + self.let(pad, tgt.id, t, x)
+        if isinstance(tgt, ast.Tuple) and len(tgt.elts) == 2 and all(isinstance(v, ast.Name) for v in tgt.elts):
+            x, t = self.ex(val)
+            if t == "List Str":
+                x, t = self.bind("(unpack2 %s)" % x, "(Str × Str)", "ValueError")
+            m = re.fullmatch(r"\((\w+) × (\w+)\)", t)
+            if not m:
+                raise Untranslatable("unpacking a %s" % t)
+            out = self.flush(pad)
+            return out + self.let(pad, tgt.elts[0].id, m.group(1), x + ".1") + self.let(pad, tgt.elts[1].id, m.group(2), x + ".2")
+        if isinstance(tgt, ast.Subscript) and isinstance(tgt.value, ast.Name) and self.lookup(tgt.value.id)[1] == "Idx":
+            d, _ = self.lookup(tgt.value.id)
+            if isinstance(tgt.slice, ast.Constant) and isinstance(tgt.slice.value, str):
+                x, t = self.ex(val)
+                if t != "List String" or not re.fullmatch(r"[A-Za-z_]+", tgt.slice.value):
+                    raise Untranslatable("extra entry of the index: " + ast.unparse(tgt))
+                self.extras = self.extras + ['("%s", %s)' % (tgt.slice.value, x)]
+                return ""
+            kx, kt = self.ex(tgt.slice)
+            x, t = ("[]", "List Nat") if (isinstance(val, ast.List) and not val.elts) else self.ex(val)
+            if kt != "Key" or t != "List Nat":
+                raise Untranslatable("assignment to the index: %s (%s) = %s" % (ast.unparse(tgt), kt, t))
+            out = self.flush(pad)
+            return out + self.let(pad, tgt.value.id, "Idx", "dSet %s %s %s" % (d, kx, x))
+        raise Untranslatable("assignment to " + ast.unparse(tgt)[:60])
+
+    def try_stmt(self, st, rest, ind, k):
+        pad = " " * ind
+        if len(st.handlers) != 1 or st.orelse or st.finalbody or st.handlers[0].name is not None:
+            raise Untranslatable("try statement shape")
+        h = st.handlers[0]
+        exc = ast.unparse(h.type) if h.type is not None else ""
+        if exc == "TypeError":
+            # try: v = f(line)  except TypeError: v = f(line.decode("utf-8"))   (bytes from a BGZF reader): one assignment
+            class Undecode(ast.NodeTransformer):
+                def visit_Call(self, node):
+                    self.generic_visit(node)
+                    if (isinstance(node.func, ast.Attribute) and node.func.attr == "decode" and len(node.args) == 1
+                            and isinstance(node.args[0], ast.Constant) and str(node.args[0].value).lower().replace("-", "") == "utf8"):
+                        return node.func.value
+                    return node
+            if len(st.body) != 1 or len(h.body) != 1 or not isinstance(st.body[0], ast.Assign):
+                raise Untranslatable("try / except TypeError shape")
+            other = Undecode().visit(ast.parse(ast.unparse(h.body[0])).body[0])
+            if ast.dump(other) != ast.dump(ast.parse(ast.unparse(st.body[0])).body[0]):
+                raise Untranslatable("the TypeError handler is not the same assignment on the decoded line")
+            out = self.assign(st.body[0].targets[0], st.body[0].value, ind)
+            return out + self.block(rest, ind, k)
+        if exc == "KeyError":
+            # try: D[K].append(V)   except KeyError: <statements>     (both followed by the rest of the block)
+            b = st.body
+            if not (len(b) == 1 and isinstance(b[0], ast.Expr) and isinstance(b[0].value, ast.Call) and isinstance(b[0].value.func, ast.Attribute)
+                    and b[0].value.func.attr == "append" and len(b[0].value.args) == 1 and not b[0].value.keywords
+                    and isinstance(b[0].value.func.value, ast.Subscript) and isinstance(b[0].value.func.value.value, ast.Name)):
+                raise Untranslatable("try / except KeyError: the body is not D[key].append(value)")
+            dname = b[0].value.func.value.value.id
+            d, dt = self.lookup(dname)
+            if dt != "Idx":
+                raise Untranslatable("append to an entry of a %s" % dt)
+            if self.binds:
+                raise Untranslatable("pending evaluation before try")
+            self.flags["fallible"] = True
+            # the handler sees the variables as they were before the try (the append is the last thing the body does)
+            hc = self.fork()
+            hc.cache = {}
+            hbody = hc.block(list(h.body) + rest, ind + 4, k)
+            tc = self.fork()
+            tc.cache = {}
+            kx, kt = tc.ex(b[0].value.func.value.slice)
+            nb = len(tc.binds)
+            vx, vt = tc.ex(b[0].value.args[0])
+            if kt != "Key" or vt != "Nat" or len(tc.binds) != nb:
+                raise Untranslatable("entry %s (%s) append %s" % (ast.unparse(b[0].value.func.value), kt, vt))
+            keybinds = tc.flush("", only_kinds={"KeyError"}).replace("\n", " ")
+            out = "%slet onKeyError : Unit → %s := fun _ =>\n%s\n" % (pad, self.rtype, hbody)
+            out += "%smatch (%ssome %s) with\n%s| none => onKeyError ()\n%s| some k =>\n" % (pad, keybinds, kx, pad, pad)
+            out += "%s  if dHas %s k then\n" % (pad, d)
+            inner = self.fork()
+            out += inner.let(pad + "    ", dname, dt, "dAppend %s k %s" % (d, vx))
+            out += inner.block(rest, ind + 4, k) + "\n%s  else onKeyError ()" % pad
+            return out
+        raise Untranslatable("handler for %s" % exc)
+
+    def for_stmt(self, st, rest, ind, k):
+        pad = " " * ind
+        if st.orelse or not isinstance(st.target, ast.Name):
+            raise Untranslatable("for statement shape")
+        it, tit = self.ex(st.iter)
+        if not tit.startswith("List "):
+            raise Untranslatable("loop over a %s" % tit)
+        elem = tit[5:]
+        carried = [n for n in _ix_mutated(st.body) if self.has(n)]
+        if len(carried) != 1:
+            raise Untranslatable("loop carrying %s" % carried)
+        cname = carried[0]
+        if self.has(st.target.id):
+            raise Untranslatable("the loop variable %s is also a variable of the enclosing block" % st.target.id)
+        clean, cty = self.lookup(cname)
+        pre = self.flush(pad)
+        own = self.fn.owner
+        save = (self.fn.nloop, self.fn.ntmp, len(own.defs), dict(own.aux_memo))
+
+        def rollback():
+            self.fn.nloop, self.fn.ntmp = save[0], save[1]
+            del own.defs[save[2]:]
+            own.aux_memo = dict(save[3])
+        body = text = aux = None
+        for fallible in (False, True):
+            rollback()
+            self.fn.nloop += 1
+            aux = "%s_for%d" % (own.lean_fn[self.fn.fname], self.fn.nloop)
+            rty = ("Option (%s)" if " " in _ix_ty(cty) else "Option %s") % _ix_ty(cty) if fallible else _ix_ty(cty)
+            body = _IxCtx(self.fn, self.env, rty, self.cache)
+            lv = body.define(st.target.id, elem)
+
+            def fin(c, fallible=fallible):
+                if c.lookup(cname)[1] != cty:
+                    raise Untranslatable("the type of %s changes in the loop" % cname)
+                return ("some %s" if fallible else "%s") % c.lookup(cname)[0]
+            text = body.block(list(st.body), 2, {"fin": fin, "cont": fin})
+            if body.fallible == fallible:
+                break
+        else:
+            raise Untranslatable("loop body: fallibility")
+        params, seen = [], set()
+        for _, lean, _ in self.env:
+            if lean in body.used and lean != clean and lean not in seen:
+                params.append((lean, [t for _, l, t in self.env if l == lean][-1]))
+                seen.add(lean)
+        for lean, _ in params:
+            self.mark_used(lean)
+        head = ast.unparse(st).split("\n")[0].rstrip(":").replace("-/", "- /")
+        sig = "%s(%s : %s) (%s : %s) : %s :=\n%s\n" % (
+            "".join("(%s : %s) " % (l, _ix_ty(t)) for l, t in params), clean, _ix_ty(cty), lv, _ix_ty(elem), body.rtype, text)
+        tmps = {}
+        canon = re.sub(r"\bv\d+\b", lambda m: tmps.setdefault(m.group(0), "v#%d" % len(tmps)), sig.replace(aux, "@"))
+        memo = save[3].get((id(st), canon))
+        if memo is not None:
+            # the same loop translated a second time (the statements after an if / else are translated in both branches)
+            rollback()
+            aux = memo
+        else:
+            own.aux_memo[(id(st), canon)] = aux
+            own.defs.append("/-- body of `%s` -/\ndef %s %s" % (head, aux, sig))
+        call = "%s%s" % (aux, "".join(" " + l for l, _ in params))
+        if body.fallible:
+            self.flags["fallible"] = True
+            out = "%s%s(%s.foldlM (%s) %s).bind fun %s =>\n" % (pre, pad, it, call, clean, clean)
+            self.define(cname, cty)
+        else:
+            out = pre + self.let(pad, cname, cty, "%s.foldl (%s) %s" % (it, call, clean))
+        return out + self.block(rest, ind, k)
+
+    def while_stmt(self, st, rest, ind, k):
+        pad = " " * ind
+        if st.orelse or not (isinstance(st.test, ast.Constant) and st.test.value is True):
+            raise Untranslatable("while loop that is not `while True:`")
+        carried = [n for n in _ix_mutated(st.body) if self.has(n)]
+        order = [py for py, _, _ in self.env]
+        carried = sorted(set(carried), key=lambda n: max(i for i, p in enumerate(order) if p == n))
+        # state variables in the order in which the enclosing definition introduced them (parameters last)
+        carried = [n for n in carried if n not in self.fn.owner.params_of.get(self.fn.fname, [])] + \
+                  [n for n in carried if n in self.fn.owner.params_of.get(self.fn.fname, [])]
+        if not carried:
+            raise Untranslatable("while loop without state")
+        cvars = [(n,) + self.lookup(n) for n in carried]
+        sname = self.fn.owner.lean_fn[self.fn.fname]
+        sname = sname[0].upper() + sname[1:] + "St"
+        aux = "%s_while" % self.fn.owner.lean_fn[self.fn.fname]
+        if any(d.startswith("/-- the variables the `while True:`") for d in self.fn.owner.defs):
+            raise Untranslatable("two while loops")
+        body = _IxCtx(self.fn, self.env, "Option (Bool × %s)" % sname, self.cache)
+        head = ""
+        for n, lean, ty in cvars:
+            head += body.let("  ", n, ty, "s.%s" % lean)
+
+        def pack(c):
+            return "⟨" + ", ".join(c.lookup(n)[0] for n in carried) + "⟩"
+        text = body.block(list(st.body), 2, {"fin": lambda c: "some (true, %s)" % pack(c), "cont": lambda c: "some (true, %s)" % pack(c),
+                                              "brk": lambda c: "some (false, %s)" % pack(c)})
+        for n, lean, ty in cvars:
+            if body.lookup(n)[1] != ty:
+                raise Untranslatable("the type of %s changes in the loop" % n)
+        params, seen = [], set()
+        for _, lean, ty in self.env:
+            if lean in body.used and lean not in seen:
+                params.append((lean, [t for _, l, t in self.env if l == lean][-1]))
+                seen.add(lean)
+        for lean, _ in params:
+            self.mark_used(lean)
+        self.fn.owner.defs.append("/-- the variables the `while True:` loop carries from one iteration to the next -/\nstructure %s where\n%s" % (
+            sname, "".join("  %s : %s\n" % (lean, _ix_ty(ty)) for _, lean, ty in cvars)))
+        self.fn.owner.defs.append("/-- body of `while True:` (`false` = `break`) -/\ndef %s %s(s : %s) : Option (Bool × %s) :=\n%s%s\n" % (
+            aux, "".join("(%s : %s) " % (l, _ix_ty(t)) for l, t in params), sname, sname, head, text))
+        self.flags["fallible"] = True
+        self.flags["fuel"] = True
+        out = "%s(whileTrue (%s%s) fuel ⟨%s⟩).bind fun s =>\n" % (pad, aux, "".join(" " + l for l, _ in params), ", ".join(l for _, l, _ in cvars))
+        for n, lean, ty in cvars:
+            out += self.let(pad, n, ty, "s.%s" % lean)
+        return out + self.block(rest, ind, k)
+
+
+def _ix_names(e):
+    return {n.id for n in ast.walk(e) if isinstance(n, ast.Name)}
+
+
+def _ix_mutated(stmts):
+    """names a block of statements assigns, appends to, stores into or reads a line from — in order of first occurrence"""
+    out = []
+
+    def add(n):
+        if n not in out:
+            out.append(n)
+
+    def tgt(t):
+        if isinstance(t, ast.Name):
+            add(t.id)
+        elif isinstance(t, (ast.Tuple, ast.List)):
+            for x in t.elts:
+                tgt(x)
+        elif isinstance(t, (ast.Subscript, ast.Attribute)):
+            base = t
+            while isinstance(base, (ast.Subscript, ast.Attribute)):
+                base = base.value
+            if isinstance(base, ast.Name):
+                add(base.id)
+    for st in stmts:
+        for n in ast.walk(st):
+            if isinstance(n, ast.Assign):
+                for t in n.targets:
+                    tgt(t)
+            elif isinstance(n, (ast.AugAssign, ast.AnnAssign)):
+                tgt(n.target)
+            elif isinstance(n, (ast.For, ast.comprehension)):
+                tgt(n.target)
+            elif isinstance(n, ast.Call) and isinstance(n.func, ast.Attribute) and n.func.attr in (
+                    "append", "readline", "read", "extend", "pop", "add", "update", "clear", "remove", "insert", "seek", "sort", "reverse", "setdefault", "close"):
+                tgt(n.func.value)
+            elif isinstance(n, (ast.With,)):
+                for it in n.items:
+                    if it.optional_vars is not None:
+                        tgt(it.optional_vars)
+            elif isinstance(n, ast.NamedExpr):
+                tgt(n.target)
+            elif isinstance(n, ast.Delete):
+                for t in n.targets:
+                    tgt(t)
+    return out
+
+
+class _IxOwner:
+    def __init__(self):
+        self.defs = []
+        self.known = {}
+        self.lean_fn = {"convert_coord": "convertCoord", "run": "run"}
+        self.empty_hint = {("convert_coord", "unstable_coord"): "List String", ("run", "out_dict"): "Idx"}
+        self.nat_hint = {("run", "offset"): True}
+        self.var_hint = {("run", "alignment"): "List String"}
+        self.params_of = {}
+        self.aux_memo = {}
+
+
+def gen_index_loop():
+    try:
+        return _gen_index_loop()
+    except Untranslatable:
+        raise
+    except (SyntaxError, OSError):
+        raise
+    except Exception as e:      # any surprise in the shape of the source is "outside the subset", never an alarm by itself
+        raise Untranslatable("index.py: %s: %s" % (type(e).__name__, e))
+
+
+def _gen_index_loop():
+    _, src = src_of("gaftools/cli/index.py")
+    mod = ast.parse(src)
+    own = _IxOwner()
+    # ---- convert_coord(line, ref)
+    cc = find_func(mod, "convert_coord")
+    a = cc.args
+    if len(a.args) != 2 or a.vararg or a.kwarg or a.kwonlyargs or a.defaults or getattr(a, "posonlyargs", []):
+        raise Untranslatable("signature of convert_coord")
+    fn = _IxFn(own, "convert_coord")
+    ctx = _IxCtx(fn, [], "Option (List String)")
+    own.params_of["convert_coord"] = [x.arg for x in a.args]
+    p_line = ctx.define(a.args[0].arg, "List Str")
+    p_ref = ctx.define(a.args[1].arg, "Ref")
+    body = ctx.block(list(cc.body), 2, {"fin": lambda c: (_ for _ in ()).throw(Untranslatable("convert_coord may end without a return")),
+                                        "ret": lambda c, x, t: ("some %s" % x) if t == "List String" else (_ for _ in ()).throw(Untranslatable("convert_coord returns a %s" % t))})
+    own.defs.append("/-- `convert_coord(%s, %s)`: the node ids a stable record traverses (`none` = an exception) -/\n"
+                    "def convertCoord (%s : List Str) (%s : String → List Seg) : Option (List String) :=\n%s\n" % (
+                        a.args[0].arg, a.args[1].arg, p_line, p_ref, body))
+    own.known["convert_coord"] = ("convertCoord", ["List Str", "Ref"], "List String", True)
+    cc_defs, own.defs = own.defs, []
+    # ---- run: from the initialisation of the loop state to pickle.dump
+    run = find_func(mod, "run")
+    top = list(run.body)
+    wi = [i for i, st in enumerate(top) if isinstance(st, ast.While)]
+    if len(wi) != 1:
+        raise Untranslatable("run has %d top-level while loops" % len(wi))
+    wi = wi[0]
+    lo = wi
+    while lo > 0 and isinstance(top[lo - 1], ast.Assign) and len(top[lo - 1].targets) == 1 and isinstance(top[lo - 1].targets[0], ast.Name) and (
+            isinstance(top[lo - 1].value, ast.Constant) or (isinstance(top[lo - 1].value, (ast.Dict, ast.List)) and not ast.unparse(top[lo - 1].value)[1:-1])):
+        lo -= 1
+    # what the loop reads from the part of run that is not translated: their definitions are checked, not translated
+    pre = top[:lo]
+
+    def last_assign(name):
+        v = None
+        for st in pre:
+            for n in ast.walk(st):
+                if isinstance(n, ast.Assign) and any(isinstance(t, ast.Name) and t.id == name for t in n.targets):
+                    v = n.value
+        return v
+    nv, rv = last_assign("nodes"), last_assign("reference")
+    if nv is None or ast.unparse(nv) != "gfa_file.nodes":
+        raise Untranslatable("run: nodes is not gfa_file.nodes")
+    if rv is None or ast.unparse(rv) not in ("defaultdict(lambda: [])", "defaultdict(list)"):
+        raise Untranslatable("run: reference is not a defaultdict of lists")
+    gz = [st for st in pre if isinstance(st, ast.If) and "is_file_gzipped" in ast.unparse(st.test)]
+    if len(gz) != 1 or sorted(_ix_mutated([gz[0]])) != ["gaf_file"]:
+        raise Untranslatable("run: how gaf_file is opened")
+    if last_assign("stable") is None or last_assign("ref_contig") is None:
+        raise Untranslatable("run: stable / ref_contig")
+    # ref_contig: a comprehension over the dictionary gfa_file.contigs (name -> rank), translated on its own
+    rc = last_assign("ref_contig")
+    if not (isinstance(rc, ast.ListComp) and len(rc.generators) == 1 and not rc.generators[0].is_async and isinstance(rc.generators[0].target, ast.Name)
+            and ast.unparse(rc.generators[0].iter) in ("gfa_file.contigs", "gfa_file.contigs.keys()") and isinstance(rc.elt, ast.Name)
+            and rc.elt.id == rc.generators[0].target.id):
+        raise Untranslatable("run: ref_contig is not a selection of the keys of gfa_file.contigs")
+    cvar = rc.generators[0].target.id
+
+    class Rank(ast.NodeTransformer):
+        def visit_Subscript(self, node):
+            if ast.unparse(node) == "gfa_file.contigs[%s]" % cvar:
+                return ast.Name(id="rank__", ctx=ast.Load())
+            return self.generic_visit(node)
+    rctx = _IxCtx(_IxFn(own, "run"), [(cvar, "kv.1", "String"), ("rank__", "kv.2", "Int")], "List String")
+    conds = []
+    for c in rc.generators[0].ifs:
+        x, t = rctx.ex(Rank().visit(ast.parse(ast.unparse(c), mode="eval").body))
+        if rctx.binds or t not in ("Bool", "Prop"):
+            raise Untranslatable("run: test of the ref_contig comprehension")
+        conds.append(x if t == "Bool" else "decide %s" % x)
+    ref_contig_def = ("/-- `ref_contig = %s`; `contigs` = the dictionary `gfa_file.contigs` (name ↦ rank, insertion order) -/\n"
+                      "def run_ref_contig (contigs : List (String × Int)) : List String :=\n  (contigs.filter (fun kv => %s)).map (fun kv => kv.1)\n" % (
+                          ast.unparse(rc).replace("-/", "- /"), " && ".join(conds) if conds else "true"))
+    hi = None
+    for i in range(wi + 1, len(top)):
+        if isinstance(top[i], ast.With) and "pickle.dump" in ast.unparse(top[i]):
+            hi = i
+            break
+    if hi is None:
+        raise Untranslatable("run: pickle.dump not found after the loop")
+    dumps = [n for n in ast.walk(top[hi]) if isinstance(n, ast.Call) and ast.unparse(n.func) == "pickle.dump"]
+    if len(dumps) != 1 or len(dumps[0].args) < 2 or not isinstance(dumps[0].args[0], ast.Name):
+        raise Untranslatable("run: pickle.dump call")
+    dumped = dumps[0].args[0].id
+    w = top[hi]
+    if not (len(w.items) == 1 and ast.unparse(w.items[0].context_expr).startswith("open(output, 'wb')") and isinstance(w.items[0].optional_vars, ast.Name)
+            and ast.unparse(dumps[0].args[1]) == w.items[0].optional_vars.id):
+        raise Untranslatable("run: the file the index is written to")
+    inner = list(w.body)
+    while len(inner) == 1 and isinstance(inner[0], ast.With):
+        inner = list(inner[0].body)
+    if not (len(inner) == 1 and isinstance(inner[0], ast.Expr) and inner[0].value is dumps[0]):
+        raise Untranslatable("run: statements around pickle.dump")
+    fn = _IxFn(own, "run")
+    ctx = _IxCtx(fn, [], "Option (Idx × List (String × List String))")
+    RUN_PARAMS = [("stable", "Bool"), ("nodes", "Nodes"), ("reference", "Ref"), ("ref_contig", "List String"), ("gaf_file", "GafFile")]
+    own.params_of["run"] = [n for n, _ in RUN_PARAMS]
+    for n, t in RUN_PARAMS:
+        ctx.define(n, t)
+
+    def fin(c):
+        d, t = c.lookup(dumped)
+        if t != "Idx":
+            raise Untranslatable("what is pickled is a %s" % t)
+        return "some (%s, [%s])" % (d, ", ".join(c.extras))
+    body = ctx.block(top[lo:hi], 2, {"fin": fin})
+    if not ctx.flags["fuel"]:
+        raise Untranslatable("run: no loop translated")
+    own.defs.append(ref_contig_def)
+    own.defs.append("/-- `run`, from the initialisation of the loop state to `pickle.dump(%s, …)`: the index and the entries stored under text keys -/\n"
+                    "def run %s(fuel : Nat) : Option (Idx × List (String × List String)) :=\n%s\n" % (
+                        dumped, "".join("(%s : %s) " % (_IxFn.lean_name(n), _ix_ty(t)) for n, t in RUN_PARAMS), body))
+    return ("import Gaftools.Model.View\nimport Gaftools.Model.ConvText\nimport Gaftools.Gen.SearchIv\n"
+            "/-! generated by harness/translate.py from gaftools/cli/index.py : convert_coord and the record loop of run, statement by statement — do not edit -/\n"
+            "set_option linter.unusedVariables false\n"
+            "namespace Gaftools.Gen\nopen Gaftools.Gaf Gaftools.Conv Gaftools.ConvText Gaftools.View\n\n" + _IX_PRELUDE +
+            "\n/-! ## convert_coord -/\n\n" + "\n".join(cc_defs) + "\n/-! ## run -/\n\n" + "\n".join(own.defs) + "end Gaftools.Gen\n")
+
+
+GENERATORS["IndexLoop"] = gen_index_loop
+
+
+# ---------------------------------------------------------------------------------------------------------
 # order_gfa: count_sn, name_comps and the loop over the requested chromosomes of run_order_gfa (C06, C07, C18)
 
 _ORDER_RUN_PREAMBLE = """import Gaftools.Model.Order
@@ -4653,7 +6523,7 @@ def _lt(t):
     """Lean type of a translation type"""
     if t in (T_BOOL, T_ORIENT, T_STRAND):
         return "Bool"
-    if t in (T_STR, T_STRING, T_INT, T_NAT, T_SNODE):
+    if t in (T_STR, T_STRING, T_INT, T_NAT, T_SNODE, "Node", "Dict"):
         return t
     if t == T_MERGE:
         return "Option (SNode × Bool)"
@@ -5606,6 +7476,1365 @@ def _gen_search():
 GENERATORS["Search"] = gen_search
 
 
+# ---------------------------------------------------------------------------------------------------------
+# phase.add_phase_info: the loop that reads the haplotag TSV (C20), statement by statement; class Node's constructor;
+# utils.reverse_cigar (C02) statement by statement; utils.is_file_gzipped (the magic number)
+
+T_NODE, T_PDICT = "Node", "Dict"
+_NODE_FIELDS = ("chr_name", "haplotype", "phase_set")
+
+PHASE_TSV_HEADER = """import Gaftools.Model.Stat
+/-! %s -/
+set_option linter.unusedVariables false
+namespace Gaftools.Gen.PhaseTsv
+open Gaftools.Gaf Gaftools.Stat
+
+/-- an object of class `Node` of phase.py (the translator checks that these are exactly the attributes `__init__` stores) -/
+structure Node where
+  chr_name : Str
+  haplotype : Str
+  phase_set : Str
+deriving DecidableEq, Repr
+
+/-- the dictionary `phase` (insertion ordered): `k in d`, `d[k]` (`none` = KeyError), `d[k] = v` -/
+abbrev Dict := List (Str × Node)
+def dHas (d : Dict) (k : Str) : Bool := d.any (·.1 == k)
+def dGet (d : Dict) (k : Str) : Option Node := (d.find? (·.1 == k)).map (·.2)
+def dSet (d : Dict) (k : Str) (v : Node) : Dict :=
+  if dHas d k then d.map (fun e => if e.1 == k then (e.1, v) else e) else d ++ [(k, v)]
+
+/-- `s.rstrip(chars)` -/
+def rstripSet (chars : List Char) (s : Str) : Str := (s.reverse.dropWhile (fun c => chars.contains c)).reverse
+
+/-- `range(start, stop, step)` -/
+def pyRange (start stop step : Int) : List Int :=
+  if step > 0 then (List.range ((stop - start + step - 1) / step).toNat).map (fun (i : Nat) => start + step * (i : Int))
+  else if step < 0 then (List.range ((start - stop + (-step) - 1) / (-step)).toNat).map (fun (i : Nat) => start + step * (i : Int))
+  else []
+
+/-- `l[i]` for an integer that may be negative (counted from the end); `none` = IndexError -/
+def pyIdx {α : Type} (l : List α) (i : Int) : Option α :=
+  if i ≥ 0 then l[i.toNat]? else if -i ≤ (l.length : Int) then l[l.length - (-i).toNat]? else none
+
+"""
+
+
+class _TsvTr(_PyLean):
+    """_PyLean plus: `str.rstrip` / `split` / `startswith`, `str()`, the digit-run split, a dictionary str -> Node that is assigned to,
+    the constructor of Node, integer ranges with a step, subscripts by an integer that may be negative"""
+
+    def __init__(self, mod, loop_names, node_params=None):
+        _PyLean.__init__(self, mod, {}, {}, loop_names)
+        self.node_params = node_params
+
+    def _ex(self, e, env, binds, expect):
+        u = ast.unparse(e)
+        if isinstance(e, ast.Dict) and not e.keys and expect in (None, T_PDICT):
+            return "[]", T_PDICT
+        if isinstance(e, ast.UnaryOp) and isinstance(e.op, ast.USub) and isinstance(e.operand, ast.Constant) \
+                and isinstance(e.operand.value, int) and not isinstance(e.operand.value, bool):
+            return "(-%d : Int)" % e.operand.value, T_INT
+        if isinstance(e, ast.ListComp):
+            # ["".join(x) for _, x in itertools.groupby(S, key=str.isdigit)]
+            g = e.generators[0] if len(e.generators) == 1 else None
+            if (g is not None and not g.ifs and not g.is_async and isinstance(g.target, ast.Tuple) and len(g.target.elts) == 2
+                    and all(isinstance(x, ast.Name) for x in g.target.elts) and g.target.elts[0].id != g.target.elts[1].id
+                    and ast.unparse(e.elt) == "''.join(%s)" % g.target.elts[1].id
+                    and isinstance(g.iter, ast.Call) and ast.unparse(g.iter.func) == "itertools.groupby" and len(g.iter.args) == 1
+                    and len(g.iter.keywords) == 1 and g.iter.keywords[0].arg == "key" and ast.unparse(g.iter.keywords[0].value) == "str.isdigit"):
+                a, _ = self.ex(g.iter.args[0], env, binds, T_STR)
+                return "(groupDigits %s)" % a, ("List", T_STR)
+            raise Untranslatable("comprehension %s" % u)
+        if isinstance(e, ast.Subscript):
+            sl = e.slice
+            neg1 = isinstance(sl, ast.UnaryOp) and isinstance(sl.op, ast.USub) and isinstance(sl.operand, ast.Constant) and sl.operand.value == 1
+            if not isinstance(sl, (ast.Constant, ast.Slice)) and not neg1:
+                _, ty = self.ex(e.value, env, [], None)
+                if isinstance(ty, tuple) and ty[0] == "List":
+                    _, ti = self.ex(sl, env, [], None)
+                    if ti == T_INT:
+                        o, _ = self.ex(e.value, env, binds)
+                        i, _ = self.ex(sl, env, binds, T_INT)
+                        return self.bind("pyIdx %s %s" % (o, i), binds), ty[1]
+            _, ty = self.ex(e.value, env, [], None)
+            if ty == T_PDICT:
+                o, _ = self.ex(e.value, env, binds)
+                k, _ = self.ex(sl, env, binds, T_STR)
+                return self.bind("dGet %s %s" % (o, k), binds), T_NODE
+        if isinstance(e, ast.Attribute) and e.attr in _NODE_FIELDS:
+            _, ty = self.ex(e.value, env, [], None)
+            if ty == T_NODE:
+                o, _ = self.ex(e.value, env, binds)
+                return "%s.%s" % (o, e.attr), T_STR
+        if isinstance(e, ast.Compare) and len(e.ops) == 1 and type(e.ops[0]) in (ast.In, ast.NotIn):
+            _, tb = self.ex(e.comparators[0], env, [], None)
+            if tb == T_PDICT:
+                a, _ = self.ex(e.left, env, binds, T_STR)          # Python evaluates the left operand first
+                b, _ = self.ex(e.comparators[0], env, binds)
+                c = "(dHas %s %s)" % (b, a)
+                return (c if isinstance(e.ops[0], ast.In) else "(!%s)" % c), T_BOOL
+        if isinstance(e, ast.Call) and not e.keywords:
+            f = e.func
+            fu = ast.unparse(f)
+            if fu == "dict" and not e.args and "dict" not in env and expect in (None, T_PDICT):
+                return "[]", T_PDICT
+            if fu == "str" and len(e.args) == 1 and "str" not in env:
+                a, ta = self.ex(e.args[0], env, binds)
+                if ta == T_STR:
+                    return a, T_STR
+                raise Untranslatable("str() of %s" % ast.unparse(e.args[0]))
+            if fu == "range" and len(e.args) in (2, 3) and "range" not in env:
+                xs = [self.ex(x, env, binds, T_INT)[0] for x in e.args] + (["(1 : Int)"] if len(e.args) == 2 else [])
+                return "(pyRange %s)" % " ".join(xs), ("List", T_INT)
+            if fu == "Node" and "Node" not in env and self.node_params is not None:
+                if len(e.args) != len(self.node_params):
+                    raise Untranslatable("Node(...) with %d arguments" % len(e.args))
+                xs = [self.ex(x, env, binds, T_STR)[0] for x in e.args]
+                return "(nodeInit %s)" % " ".join(xs), T_NODE
+            if isinstance(f, ast.Attribute) and f.attr in ("rstrip", "split", "startswith"):
+                _, to = self.ex(f.value, env, [], None)
+                if to == T_STR:
+                    o, _ = self.ex(f.value, env, binds, T_STR)
+                    cs = [a.value for a in e.args if isinstance(a, ast.Constant) and isinstance(a.value, str)]
+                    if len(cs) != len(e.args):
+                        raise Untranslatable("argument of %s" % u)
+                    if f.attr == "rstrip" and not cs:
+                        return "(Gaftools.Gaf.rstrip %s)" % o, T_STR
+                    if f.attr == "rstrip" and len(cs) == 1:
+                        return "(rstripSet %s %s)" % (_chars(cs[0]), o), T_STR
+                    if f.attr == "split" and len(cs) == 1 and len(cs[0]) == 1:
+                        return "(%s.splitOn %s)" % (o, _chars(cs[0])[1:-1]), ("List", T_STR)
+                    if f.attr == "startswith" and len(cs) == 1:
+                        return "(List.isPrefixOf %s %s)" % (_chars(cs[0]), o), T_BOOL
+                    raise Untranslatable("string method %s" % u)
+        return _PyLean._ex(self, e, env, binds, expect)
+
+    def blk(self, stmts, env, ind, fall, decl):
+        if stmts:
+            st, rest = stmts[0], stmts[1:]
+            if isinstance(st, ast.Import) and all(a.asname is None and a.name not in env for a in st.names):
+                return self.blk(rest, env, ind, fall, decl)
+            if (isinstance(st, ast.Assign) and len(st.targets) == 1 and isinstance(st.targets[0], ast.Subscript)
+                    and isinstance(st.targets[0].value, ast.Name) and env.get(st.targets[0].value.id) == T_PDICT):
+                # D[key] = value: the value is evaluated first, then the key
+                name = st.targets[0].value.id
+                binds = []
+                v, _ = self.ex(st.value, env, binds, T_NODE)
+                k, _ = self.ex(st.targets[0].slice, env, binds, T_STR)
+                pad = " " * ind
+                return self.wrap(binds, pad, lambda p: "%slet %s : %s := (dSet %s %s %s)\n%s" % (
+                    p, name, _lt(T_PDICT), name, k, v, self.blk(rest, env, ind, fall, decl)))
+        return _PyLean.blk(self, stmts, env, ind, fall, decl)
+
+
+def _no_doc(stmts):
+    return [st for st in stmts if not (isinstance(st, ast.Expr) and isinstance(st.value, ast.Constant))]
+
+
+def _node_init(mod):
+    """class Node: a plain record whose constructor stores its parameters"""
+    cls = _only([n for n in mod.body if isinstance(n, ast.ClassDef) and n.name == "Node"], "class Node")
+    if cls.bases or cls.keywords or cls.decorator_list or [n.name for n in _no_doc(cls.body) if isinstance(n, ast.FunctionDef)] != ["__init__"] \
+            or len(_no_doc(cls.body)) != 1:
+        raise Untranslatable("class Node is not a plain record")
+    init = find_func(mod, "__init__", cls="Node")
+    a = init.args
+    if a.vararg or a.kwarg or a.kwonlyargs or a.posonlyargs or a.defaults or init.decorator_list or len(a.args) < 1:
+        raise Untranslatable("Node.__init__ signature")
+    self_name, params = a.args[0].arg, [x.arg for x in a.args[1:]]
+    stores = []
+    for st in _no_doc(init.body):
+        if not (isinstance(st, ast.Assign) and len(st.targets) == 1 and isinstance(st.targets[0], ast.Attribute)
+                and isinstance(st.targets[0].value, ast.Name) and st.targets[0].value.id == self_name
+                and isinstance(st.value, ast.Name) and st.value.id in params):
+            raise Untranslatable("Node.__init__ statement: %s" % ast.unparse(st)[:60])
+        stores.append((st.targets[0].attr, st.value.id))
+    if sorted(f for f, _ in stores) != sorted(_NODE_FIELDS):
+        raise Untranslatable("Node stores %s" % [f for f, _ in stores])
+    for x in params:
+        if x in _LEAN_RESERVED or x.startswith("_"):
+            raise Untranslatable("parameter name %s" % x)
+    return params, "def nodeInit (%s : Str) : Node :=\n  { %s }" % (" ".join(params), ", ".join("%s := %s" % fv for fv in stores))
+
+
+def _gen_tsv_loop(mod):
+    fn = find_func(mod, "add_phase_info")
+    a = fn.args
+    if a.vararg or a.kwarg or a.kwonlyargs or a.posonlyargs or a.defaults:
+        raise Untranslatable("add_phase_info signature")
+    fparams = [x.arg for x in a.args]
+    body = _no_doc(fn.body)
+    # the files opened for reading in text mode, by variable
+    files = {}
+    for st in body:
+        if (isinstance(st, ast.Assign) and len(st.targets) == 1 and isinstance(st.targets[0], ast.Name) and isinstance(st.value, ast.Call)
+                and ast.unparse(st.value.func) == "open"):
+            c = st.value
+            mode = c.args[1].value if len(c.args) == 2 and isinstance(c.args[1], ast.Constant) else ("r" if len(c.args) == 1 else None)
+            if not c.keywords and mode in ("r", "rt") and isinstance(c.args[0], ast.Name) and c.args[0].id in fparams:
+                files[st.targets[0].id] = st
+    loops = [st for st in body if isinstance(st, ast.For) and isinstance(st.iter, ast.Name) and st.iter.id in files]
+    loop = _only(loops, "loop over the lines of a file opened for reading")
+    fvar = loop.iter.id
+    at = body.index(loop)
+    pre, post = body[:at], body[at + 1:]
+    tr = _TsvTr(mod, ["tsvBody"], node_params=_node_init(mod)[0])
+    carried = tr.assigned(loop.body)
+    # what precedes the loop: the open(), log calls, and the initial values of the variables the loop updates
+    inits = []
+    for st in pre:
+        u = ast.unparse(st)
+        if st is files[fvar]:
+            continue
+        if isinstance(st, ast.Expr) and isinstance(st.value, ast.Call) and isinstance(st.value.func, ast.Attribute) \
+                and isinstance(st.value.func.value, ast.Name) and st.value.func.value.id == "logger":
+            if any(isinstance(n, ast.Name) and n.id in carried + [fvar] for n in ast.walk(st)):
+                raise Untranslatable("log call reads the loop state: %s" % u[:60])
+            continue
+        if isinstance(st, ast.Assign) and len(st.targets) == 1 and isinstance(st.targets[0], ast.Name) and st.targets[0].id != fvar:
+            inits.append(st)
+            continue
+        raise Untranslatable("before the TSV loop: %s" % u[:60])
+    if sum(1 for st in pre if isinstance(st, ast.Assign) and any(ast.unparse(t) == fvar for t in st.targets)) != 1:
+        raise Untranslatable("%s is assigned more than once" % fvar)
+    state = [v for v in carried if any(st.targets[0].id == v for st in inits)]
+    if len(state) != 1:
+        raise Untranslatable("the TSV loop updates %s" % state)
+    dname = state[0]
+    # afterwards the dictionary is only looked at (`k in D`, `D[k]`); the file variable is only closed
+    for st in post:
+        for n in ast.walk(st):
+            for c in ast.iter_child_nodes(n):
+                if isinstance(c, ast.Name) and c.id == dname:
+                    ok = (isinstance(n, ast.Compare) and len(n.ops) == 1 and isinstance(n.ops[0], (ast.In, ast.NotIn)) and n.comparators[0] is c) \
+                        or (isinstance(n, ast.Subscript) and n.value is c and isinstance(n.ctx, ast.Load))
+                    if not ok:
+                        raise Untranslatable("the dictionary is used after the loop in %s" % ast.unparse(n)[:60])
+                if isinstance(c, ast.Name) and c.id == fvar and not (
+                        isinstance(n, ast.Attribute) and n.attr == "close" and isinstance(n.ctx, ast.Load)):
+                    raise Untranslatable("the TSV file is used after the loop in %s" % ast.unparse(n)[:60])
+    if fvar in _LEAN_RESERVED or fvar.startswith("_"):
+        raise Untranslatable("variable name %s" % fvar)
+    env = {fvar: ("List", T_STR)}
+    tr.reserved = set(env)
+
+    def final(e, ind):
+        if e.get(dname) != T_PDICT:
+            raise Untranslatable("%s is not a dictionary" % dname)
+        return "%ssome %s" % (" " * ind, dname)
+    text = tr.blk(inits + [loop], env, 2, final, {})
+    if tr.loop_names:
+        raise Untranslatable("the TSV loop was not reached")
+    return dict(tr.defs)["tsvBody"], "def tsvLoop (%s : List Str) : Option Dict :=\n%s" % (fvar, text)
+
+
+def _gen_reverse_cigar(umod):
+    fn = find_func(umod, "reverse_cigar")
+    a = fn.args
+    if a.vararg or a.kwarg or a.kwonlyargs or a.posonlyargs or a.defaults or len(a.args) != 1:
+        raise Untranslatable("reverse_cigar signature")
+    cg = a.args[0].arg
+    if cg in _LEAN_RESERVED or cg.startswith("_"):
+        raise Untranslatable("parameter name %s" % cg)
+    body = _no_doc(fn.body)
+    if not body or not isinstance(body[-1], ast.Return) or body[-1].value is None or any(isinstance(n, ast.Return) for st in body[:-1] for n in ast.walk(st)):
+        raise Untranslatable("reverse_cigar does not end with its only return")
+    tr = _TsvTr(umod, ["revCigarBody"])
+    tr.reserved = {cg}
+
+    def final(e, ind):
+        binds = []
+        v, _ = tr.ex(body[-1].value, e, binds, T_STR)
+        return tr.wrap(binds, " " * ind, lambda p: "%ssome %s" % (p, v))
+    text = tr.blk(body[:-1], {cg: T_STR}, 2, final, {})
+    if tr.loop_names:
+        raise Untranslatable("reverse_cigar has no loop")
+    return dict(tr.defs)["revCigarBody"], "def reverseCigar (%s : Str) : Option Str :=\n%s" % (cg, text)
+
+
+def _gen_is_gzipped(umod):
+    fn = find_func(umod, "is_file_gzipped")
+    if len(fn.args.args) != 1 or fn.args.defaults or fn.args.vararg or fn.args.kwarg:
+        raise Untranslatable("is_file_gzipped signature")
+    src = fn.args.args[0].arg
+    w = _only(_no_doc(fn.body), "statement of is_file_gzipped")
+    if not (isinstance(w, ast.With) and len(w.items) == 1 and isinstance(w.items[0].optional_vars, ast.Name)
+            and ast.unparse(w.items[0].context_expr) == "open(%s, 'rb')" % src):
+        raise Untranslatable("is_file_gzipped does not open its argument in binary mode")
+    f = w.items[0].optional_vars.id
+    r = _only(_no_doc(w.body), "statement under the with of is_file_gzipped")
+    if not (isinstance(r, ast.Return) and isinstance(r.value, ast.Compare) and len(r.value.ops) == 1 and isinstance(r.value.ops[0], (ast.Eq, ast.NotEq))):
+        raise Untranslatable("is_file_gzipped: %s" % ast.unparse(r)[:60])
+    l, rt = r.value.left, r.value.comparators[0]
+    if isinstance(l, ast.Constant):
+        l, rt = rt, l
+    if not (isinstance(l, ast.Call) and ast.unparse(l.func) == "%s.read" % f and len(l.args) == 1 and not l.keywords
+            and isinstance(l.args[0], ast.Constant) and isinstance(l.args[0].value, int) and not isinstance(l.args[0].value, bool)
+            and l.args[0].value >= 0 and isinstance(rt, ast.Constant) and isinstance(rt.value, bytes)):
+        raise Untranslatable("is_file_gzipped compares %s" % ast.unparse(r.value)[:60])
+    return "def isFileGzipped (bytes : List UInt8) : Bool := (bytes.take %d %s [%s])" % (
+        l.args[0].value, "==" if isinstance(r.value.ops[0], ast.Eq) else "!=", ", ".join("0x%02x" % b for b in rt.value))
+
+
+_PHASE_TSV_DOCS = (
+    "/-- `Node.__init__`: which parameter is stored in which attribute -/\n%s\n\n"
+    "/-- the body of the loop over the lines of the haplotag TSV; the state is the dictionary (`none` = the Python raises: IndexError of\n"
+    "    `line_elements[k]`) -/\n%s\n\n"
+    "/-- `add_phase_info` from the empty dictionary to the end of that loop -/\n%s\n\n"
+    "/-- the body of the loop of `utils.reverse_cigar` -/\n%s\n\n"
+    "/-- `utils.reverse_cigar` -/\n%s\n\n"
+    "/-- `utils.is_file_gzipped`: the test on the first bytes of the file -/\n%s\n"
+    "end Gaftools.Gen.PhaseTsv\n")
+
+
+def gen_phase_tsv():
+    _, psrc = src_of("gaftools/cli/phase.py")
+    _, usrc = src_of("gaftools/utils.py")
+    mod, umod = ast.parse(psrc), ast.parse(usrc)
+    node_def = _node_init(mod)[1]
+    tsv_body, tsv_loop = _gen_tsv_loop(mod)
+    rc_body, rc_fn = _gen_reverse_cigar(umod)
+    gz = _gen_is_gzipped(umod)
+    return (PHASE_TSV_HEADER % ("generated by harness/translate.py from gaftools/cli/phase.py (class Node, add_phase_info up to the end of the loop over\n"
+                                "    the TSV lines, statement by statement) and gaftools/utils.py (reverse_cigar statement by statement, is_file_gzipped) — do not edit")
+            + _PHASE_TSV_DOCS % (node_def, tsv_body, tsv_loop, rc_body, rc_fn, gz))
+
+
+GENERATORS["PhaseTsv"] = gen_phase_tsv
+
+
+# ---------------------------------------------------------------------------------------------------------
+# realign.realign_gaf: the sequential part — how the records are cut into batches and the batches into rounds, the priority of a
+# record, what a worker puts for a batch, the drain of the priority queue, the leftover batch and the leftover round (C11)
+
+_RB_HEADER = """import Gaftools.Model.Realign
+/-! %s -/
+namespace Gaftools.Gen.RealignBatch
+open Gaftools.Realign
+set_option linter.unusedVariables false
+
+/-- an element of a batch: the tuple appended to `seq_batch`, reduced to (the record: its position in the input, its priority);
+    the other components of the tuple are computed from the record alone -/
+abbrev Item := Nat × Nat
+
+/-- `mp.Process(target=wfa_alignment, args=(batch, align_queue))` and whether `start()` has been called on it -/
+structure Proc where
+  batch : List Item
+  started : Bool
+deriving DecidableEq, Repr
+
+/-- the variables of `realign_gaf` the batching is about.  `p_queue`: the priorities of the objects in the `PriorityQueue` (a
+    bag, kept in arrival order); `out`: the calls of `output.write`, each object written named by its priority; `runs` (ghost):
+    the value of `processes` at every execution of a collector loop -/
+structure St where
+  processes : List Proc
+  seq_batch : List Item
+  priority_counter : Nat
+  p_queue : List Nat
+  runs : List (List Proc)
+  out : List Nat
+deriving DecidableEq, Repr
+
+def minOf : Nat → List Nat → Nat
+  | m, [] => m
+  | m, x :: xs => minOf (if x < m then x else m) xs
+
+/-- `PriorityQueue.get()`: the smallest entry and the queue without it (`none`: the queue is empty, the call blocks for ever) -/
+def pqGet : List Nat → Option (Nat × List Nat)
+  | [] => none
+  | x :: xs => some (minOf x xs, (x :: xs).erase (minOf x xs))
+
+"""
+
+
+def gen_realign_batch():
+    try:
+        return _gen_realign_batch()
+    except (Untranslatable, SyntaxError, OSError, KeyError, IndexError):
+        raise
+    except Exception as e:  # a shape the translator did not foresee is never an alarm
+        raise Untranslatable("translator: %s: %s" % (type(e).__name__, e))
+
+
+def _gen_realign_batch():
+    _, src = src_of("gaftools/cli/realign.py")
+    mod = ast.parse(src)
+    fn = find_func(mod, "realign_gaf")
+    wk = find_func(mod, "wfa_alignment")
+    params = [a.arg for a in fn.args.args]
+    for need in ("output", "cores"):
+        if need not in params:
+            raise Untranslatable("realign_gaf has no parameter %s" % need)
+
+    def is_doc(st):
+        return isinstance(st, ast.Expr) and isinstance(st.value, ast.Constant)
+
+    def names_in(e):
+        return {n.id for n in ast.walk(e) if isinstance(n, ast.Name)}
+
+    # -- the class of the objects put on the queues: ordered dataclass, the first field is the sort key
+    cls = _only([n for n in mod.body if isinstance(n, ast.ClassDef) and n.name == "PriorityAlignment"], "class PriorityAlignment")
+    deco = [ast.unparse(d) for d in cls.decorator_list]
+    if deco != ["dataclass(order=True)"]:
+        raise Untranslatable("PriorityAlignment is not an ordered dataclass: %s" % deco)
+    fields = [st.target.id for st in cls.body if isinstance(st, ast.AnnAssign) and isinstance(st.target, ast.Name)]
+    if len(fields) != 2:
+        raise Untranslatable("fields of PriorityAlignment: %s" % fields)
+    key_field, text_field = fields
+
+    def ctor_key(call):
+        """the expression given to the sort key in `PriorityAlignment(...)`"""
+        if not (isinstance(call, ast.Call) and ast.unparse(call.func) == "PriorityAlignment"):
+            raise Untranslatable("not a PriorityAlignment: %s" % ast.unparse(call)[:60])
+        got = dict(zip(fields, call.args))
+        for kw in call.keywords:
+            got[kw.arg] = kw.value
+        if set(got) != set(fields):
+            raise Untranslatable("arguments of PriorityAlignment")
+        return got[key_field]
+
+    # -- the statements of realign_gaf: before the loop over the records, the loop, after it
+    body = [st for st in fn.body if not is_doc(st)]
+    loop = _only([st for st in body if isinstance(st, ast.For)], "top-level for loop of realign_gaf")
+    if not (isinstance(loop.target, ast.Name) and ast.unparse(loop.iter).endswith(".read_file()") and not loop.orelse):
+        raise Untranslatable("loop over the records: %s" % ast.unparse(loop.iter))
+    rec = loop.target.id
+    at = body.index(loop)
+    pre, post = body[:at], body[at + 1:]
+    STATE = ("processes", "seq_batch", "priority_counter", "p_queue")
+    INTS = ("batch_size", "cores")
+    derived = set()             # locals of one iteration that are computed from the record alone
+    lets = {}                   # integer locals introduced by an assignment: name -> lean name
+    collectors = {}             # the collector loops: line -> (initial value of n_sentinels, inside the loop over the records)
+    proc_ctors = set()
+
+    def val(e):
+        """integer-valued expressions (Lean type Int)"""
+        u = ast.unparse(e)
+        if isinstance(e, ast.Name) and (e.id in INTS or e.id in lets):
+            return e.id
+        if isinstance(e, ast.Constant) and isinstance(e.value, int) and not isinstance(e.value, bool):
+            return "(%d : Int)" % e.value
+        if isinstance(e, ast.Call) and ast.unparse(e.func) == "len" and len(e.args) == 1 and not e.keywords:
+            a = ast.unparse(e.args[0])
+            if a in ("seq_batch", "processes"):
+                return "(σ.%s.length : Int)" % a
+            if a == "p_queue.queue":
+                return "(σ.p_queue.length : Int)"
+        if isinstance(e, ast.BinOp) and type(e.op) in (ast.Add, ast.Sub):
+            return "(%s %s %s)" % (val(e.left), "+" if isinstance(e.op, ast.Add) else "-", val(e.right))
+        raise Untranslatable("realign_gaf value: %s" % u[:70])
+
+    def cond(e):
+        if isinstance(e, ast.BoolOp):
+            return "(" + (" && " if isinstance(e.op, ast.And) else " || ").join(cond(x) for x in e.values) + ")"
+        if isinstance(e, ast.UnaryOp) and isinstance(e.op, ast.Not):
+            return "(!%s)" % cond(e.operand)
+        if isinstance(e, ast.Name) and e.id in ("seq_batch", "processes"):
+            return "(!σ.%s.isEmpty)" % e.id
+        if isinstance(e, ast.Compare) and len(e.ops) == 1:
+            l, r, t = val(e.left), val(e.comparators[0]), type(e.ops[0])
+            if t is ast.NotEq:
+                return "(%s != %s)" % (l, r)
+            if t is ast.Eq:
+                return "(%s == %s)" % (l, r)
+            op = {ast.Lt: "<", ast.Gt: ">", ast.LtE: "≤", ast.GtE: "≥"}.get(t)
+            if op:
+                return "decide (%s %s %s)" % (l, op, r)
+        raise Untranslatable("realign_gaf test: %s" % ast.unparse(e)[:70])
+
+    def skip_call(u):
+        return (u.startswith("logger.") or u.startswith("logging.") or u.startswith("step_timer.") or u.startswith("tracemalloc.")
+                or u in ("gaf_file.close", "fastafile.close", "print"))
+
+    def proc_of(e):
+        """mp.Process(target=wfa_alignment, args=(<batch>, align_queue))"""
+        if not (isinstance(e, ast.Call) and ast.unparse(e.func) in ("mp.Process", "multiprocessing.Process", "Process") and not e.args):
+            raise Untranslatable("appended to processes: %s" % ast.unparse(e)[:60])
+        kw = {k.arg: k.value for k in e.keywords}
+        if set(kw) != {"target", "args"} or ast.unparse(kw["target"]) != wk.name:
+            raise Untranslatable("Process keywords: %s" % sorted(map(str, kw)))
+        a = kw["args"]
+        if not (isinstance(a, ast.Tuple) and [ast.unparse(x) for x in a.elts] == ["seq_batch", "align_queue"] and len(wk.args.args) == 2):
+            raise Untranslatable("Process args: %s" % ast.unparse(a))
+        proc_ctors.add(e.lineno)
+        return "(⟨σ.seq_batch, false⟩ : Proc)"
+
+    tuple_shape = {}
+
+    def item_of(e):
+        """the tuple appended to seq_batch: the record, things computed from the record alone, the priority counter"""
+        if not isinstance(e, ast.Tuple):
+            raise Untranslatable("appended to seq_batch: %s" % ast.unparse(e)[:60])
+        kinds = []
+        for x in e.elts:
+            if isinstance(x, ast.Name) and x.id == rec:
+                kinds.append("rec")
+            elif isinstance(x, ast.Name) and x.id == "priority_counter":
+                kinds.append("prio")
+            elif isinstance(x, ast.Name) and x.id in derived:
+                kinds.append("data")
+            else:
+                raise Untranslatable("component of the batch tuple: %s" % ast.unparse(x)[:60])
+        if [k for k in kinds if k != "data"] != ["rec", "prio"]:
+            raise Untranslatable("batch tuple is not (record, …, priority): %s" % kinds)
+        tuple_shape[e.lineno] = kinds
+        return "(%s, σ.priority_counter)" % rec
+
+    def has_continue(stmts):
+        for x in stmts:
+            if isinstance(x, ast.Continue):
+                return True
+            if isinstance(x, ast.If) and (has_continue(x.body) or has_continue(x.orelse)):
+                return True
+        return False
+
+    def ex(stmts, ind, in_loop, top_loop):
+        pad = " " * ind
+        if not stmts:
+            return pad + "σ"
+        st, rest = stmts[0], stmts[1:]
+        u = ast.unparse(st)
+
+        def upd(text):
+            return "%slet σ : St := { σ with %s }\n%s" % (pad, text, ex(rest, ind, in_loop, top_loop))
+        if is_doc(st) or isinstance(st, ast.Pass):
+            return ex(rest, ind, in_loop, top_loop)
+        if isinstance(st, ast.Continue):
+            if not in_loop:
+                raise Untranslatable("continue outside a loop")
+            return pad + "σ"
+        if isinstance(st, ast.If):
+            s0 = dict(lets)
+
+            def branch(b, i):
+                lets.clear()
+                lets.update(s0)
+                try:
+                    return ex(b, i, in_loop, top_loop)
+                finally:
+                    lets.clear()
+                    lets.update(s0)
+            c = cond(st.test)
+            if has_continue(st.body) or has_continue(st.orelse):       # the rest of the iteration belongs to the branches
+                return "%sif %s then\n%s\n%selse\n%s" % (pad, c, branch(st.body + rest, ind + 2), pad, branch(st.orelse + rest, ind + 2))
+            return "%slet σ : St :=\n%s  if %s then\n%s\n%s  else\n%s\n%s" % (pad, pad, c, branch(st.body, ind + 4), pad, branch(st.orelse, ind + 4),
+                                                                           ex(rest, ind, in_loop, top_loop))
+        if isinstance(st, ast.For) and not st.orelse and isinstance(st.target, ast.Name):
+            v = st.target.id
+            if ast.unparse(st.iter) == "processes" and len(st.body) == 1:
+                b = ast.unparse(st.body[0])
+                if b == "%s.start()" % v:
+                    return upd("processes := σ.processes.map (fun p => { p with started := true })")
+                if b == "%s.join()" % v:
+                    return ex(rest, ind, in_loop, top_loop)
+            if (isinstance(st.iter, ast.Call) and ast.unparse(st.iter.func) == "range" and len(st.iter.args) == 1 and not st.iter.keywords
+                    and v not in names_in(ast.Module(body=st.body, type_ignores=[]))):
+                s0 = dict(lets)
+                inner = ex(st.body, ind + 4, True, False)
+                lets.clear()
+                lets.update(s0)
+                return "%slet σ : St := (List.range (%s).toNat).foldl (fun (σ : St) _ =>\n%s) σ\n%s" % (
+                    pad, val(st.iter.args[0]), inner, ex(rest, ind, in_loop, top_loop))
+            raise Untranslatable("for loop: %s" % u[:70])
+        if isinstance(st, ast.Assign) and len(st.targets) == 1 and isinstance(st.targets[0], ast.Name):
+            t, v = st.targets[0].id, st.value
+            if t in ("processes", "seq_batch") and isinstance(v, ast.List) and not v.elts:
+                return upd("%s := []" % t)
+            if t == "p_queue" and ast.unparse(v) in ("queue.PriorityQueue()", "PriorityQueue()"):
+                return upd("p_queue := []")
+            if t == "align_queue" and ast.unparse(v) in ("mp.Queue()", "multiprocessing.Queue()"):
+                return ex(rest, ind, in_loop, top_loop)            # a fresh, empty queue: `init` of the model has `chan := []`
+            if t == "priority_counter" and isinstance(v, ast.Constant) and isinstance(v.value, int) and not isinstance(v.value, bool) and v.value >= 0:
+                return upd("priority_counter := %d" % v.value)
+            if t == "n_sentinels" and isinstance(v, ast.Constant) and isinstance(v.value, int) and not isinstance(v.value, bool) and v.value >= 0:
+                # n_sentinels = 0 / while n_sentinels != len(processes): …   — the collector loop, tied in Gen/Collector.lean
+                if not (rest and isinstance(rest[0], ast.While)):
+                    raise Untranslatable("n_sentinels is not set just before the collector loop")
+                w = rest[0]
+                wu = ast.unparse(w)
+                if not ({"n_sentinels", "processes"} <= names_in(w.test) and "align_queue.get(" in wu and "p_queue.put(" in wu and not w.orelse):
+                    raise Untranslatable("shape of the collector loop")
+                collectors[w.lineno] = (v.value, top_loop)
+                return ("%slet σ : St := { σ with p_queue := σ.p_queue ++ coll σ.runs.length σ.processes, runs := σ.runs ++ [σ.processes] }\n%s"
+                        % (pad, ex(rest[1:], ind, in_loop, top_loop)))
+            if t in STATE or t in INTS or t == "n_sentinels" or t == rec:
+                raise Untranslatable("assignment: %s" % u[:70])
+            if isinstance(v, ast.Call) and ast.unparse(v.func) == "len":
+                text = val(v)
+                lets[t] = t
+                return "%slet %s : Int := %s\n%s" % (pad, t, text, ex(rest, ind, in_loop, top_loop))
+            if top_loop and not (names_in(v) & (set(STATE) | set(INTS) | {"n_sentinels", "align_queue", "output"})):
+                derived.add(t)                                      # data of the record (sequence of the path, of the read, …)
+                return ex(rest, ind, in_loop, top_loop)
+            raise Untranslatable("assignment: %s" % u[:70])
+        if isinstance(st, ast.AugAssign) and isinstance(st.target, ast.Name) and st.target.id == "priority_counter" and isinstance(st.op, ast.Add) \
+                and isinstance(st.value, ast.Constant) and isinstance(st.value.value, int) and not isinstance(st.value.value, bool) and st.value.value >= 0:
+            return upd("priority_counter := σ.priority_counter + %d" % st.value.value)
+        if isinstance(st, ast.Expr) and isinstance(st.value, ast.Call):
+            c = st.value
+            f = ast.unparse(c.func)
+            if skip_call(f):
+                return ex(rest, ind, in_loop, top_loop)
+            if f == "seq_batch.append" and len(c.args) == 1 and not c.keywords and top_loop:
+                return upd("seq_batch := σ.seq_batch ++ [%s]" % item_of(c.args[0]))
+            if f == "processes.append" and len(c.args) == 1 and not c.keywords:
+                return upd("processes := σ.processes ++ [%s]" % proc_of(c.args[0]))
+            if f == "output.write" and len(c.args) == 1 and not c.keywords:
+                a = c.args[0]
+                if isinstance(a, ast.Attribute) and a.attr == text_field and ast.unparse(a.value) == "p_queue.get()":
+                    return ("%smatch pqGet σ.p_queue with\n%s| none => σ\n%s| some r =>\n%s  let σ : St := { σ with p_queue := r.2 }\n"
+                            "%s  let σ : St := { σ with out := σ.out ++ [r.1] }\n%s" % (pad, pad, pad, pad, pad, ex(rest, ind + 2, in_loop, top_loop)))
+        raise Untranslatable("realign_gaf statement: %s" % u[:70])
+
+    # -- before the loop: the initial values, the batch size (a constant, replaced under the verification hook)
+    init_lines, batch_default, hook, seen = [], None, None, set()
+    for st in pre:
+        u = ast.unparse(st)
+        if isinstance(st, ast.Assign) and len(st.targets) == 1 and isinstance(st.targets[0], ast.Name) and st.targets[0].id == "batch_size":
+            if not (isinstance(st.value, ast.Constant) and isinstance(st.value.value, int) and not isinstance(st.value.value, bool)) or batch_default is not None:
+                raise Untranslatable("batch_size: %s" % u)
+            batch_default = st.value.value
+            continue
+        if isinstance(st, ast.If) and "batch_size" in names_in(st):
+            m = re.fullmatch(r"if os\.environ\.get\('GAFTOOLS_VERIF'\) == '1':\n    batch_size = int\(os\.environ\.get\('(\w+)', batch_size\)\)", u)
+            if not m or hook is not None or batch_default is None:
+                raise Untranslatable("batch_size: %s" % u[:80])
+            hook = m.group(1)
+            continue
+        if isinstance(st, ast.Assign) and len(st.targets) == 1 and isinstance(st.targets[0], ast.Name) and st.targets[0].id not in STATE + ("align_queue",):
+            if names_in(st.value) & (set(STATE) | {"batch_size", "cores", "output", "align_queue"}):
+                raise Untranslatable("before the loop: %s" % u[:70])
+            continue                                                # fastafile, step_timer, graph_obj, gaf_file: opened / loaded
+        t = ex([st], 2, False, False)
+        if isinstance(st, ast.Assign):
+            seen.add(st.targets[0].id)
+        if t.strip() != "σ":
+            init_lines.append(t.rsplit("\n", 1)[0])
+    if batch_default is None:
+        raise Untranslatable("batch_size is not set before the loop")
+    if not {"processes", "seq_batch", "priority_counter"} <= seen:
+        raise Untranslatable("not initialised before the loop: %s" % sorted({"processes", "seq_batch", "priority_counter"} - seen))
+    if hook:
+        bs = "  let batch_size : Int := %d\n  if verif then\n    let batch_size : Int := env.getD batch_size\n    batch_size\n  else\n    batch_size" % batch_default
+    else:
+        bs = "  let batch_size : Int := %d\n  batch_size" % batch_default
+    lets.clear()
+    step = ex(loop.body, 2, True, True)
+    lets.clear()
+    left = ex(post, 2, False, False)
+    collectors = [collectors[k] for k in sorted(collectors)]
+    if [c[1] for c in collectors] != [True, False]:
+        raise Untranslatable("collector loops: expected one in the loop over the records and one after it, found %s" % collectors)
+    if len(proc_ctors) != 2 or len(tuple_shape) != 1:
+        raise Untranslatable("expected one append to seq_batch and two to processes")
+    kinds = list(tuple_shape.values())[0]
+
+    # -- the worker: what it puts on the queue for a batch
+    wb = [st for st in wk.body if not is_doc(st)]
+    wparams = [a.arg for a in wk.args.args]
+    if not (len(wb) == 2 and isinstance(wb[0], ast.For) and ast.unparse(wb[0].iter) == wparams[0] and isinstance(wb[0].target, ast.Tuple)
+            and all(isinstance(x, ast.Name) for x in wb[0].target.elts) and not wb[0].orelse):
+        raise Untranslatable("wfa_alignment is not `for <tuple> in <batch>: …` + one statement")
+    unpack = [x.id for x in wb[0].target.elts]
+    if len(unpack) != len(kinds):
+        raise Untranslatable("the worker unpacks %d components, the batch tuple has %d" % (len(unpack), len(kinds)))
+    qu = wparams[1]
+    nconds = [0]
+    key_kinds = set()
+
+    def is_put(st):
+        return isinstance(st, ast.Expr) and isinstance(st.value, ast.Call) and ast.unparse(st.value.func) == "%s.put" % qu
+
+    def has_put(node):
+        return any(isinstance(n, ast.Call) and ast.unparse(n.func).startswith(qu + ".") for n in ast.walk(node))
+
+    def msg(e):
+        if isinstance(e, ast.Constant) and e.value is None:
+            return "Msg.sentinel"
+        k = ctor_key(e)
+        if not (isinstance(k, ast.Name) and k.id in unpack):
+            raise Untranslatable("priority of a result: %s" % ast.unparse(k)[:60])
+        if any(isinstance(n, (ast.Assign, ast.AugAssign)) and k.id in names_in(n.target if isinstance(n, ast.AugAssign) else ast.Tuple(elts=n.targets))
+               for n in ast.walk(wb[0])):
+            raise Untranslatable("the worker assigns to %s" % k.id)
+        if any(isinstance(n, ast.For) and n is not wb[0] and k.id in names_in(n.target) for n in ast.walk(wb[0])):
+            raise Untranslatable("the worker rebinds %s" % k.id)
+        kind = kinds[unpack.index(k.id)]
+        if kind == "data":
+            raise Untranslatable("priority of a result is a datum of the record")
+        key_kinds.add(kind)
+        return "Msg.item (workerPrio t)"
+
+    def puts(stmts):
+        parts = []
+        for st in stmts:
+            if is_put(st):
+                c = st.value
+                if len(c.args) != 1 or c.keywords:
+                    raise Untranslatable("put: %s" % ast.unparse(st)[:60])
+                parts.append("[%s]" % msg(c.args[0]))
+            elif isinstance(st, ast.If) and has_put(st):
+                i = nconds[0]
+                nconds[0] += 1
+                parts.append("(if conds %d then %s else %s)" % (i, puts(st.body), puts(st.orelse)))
+            elif isinstance(st, (ast.Continue, ast.Break, ast.Return, ast.Raise, ast.Try, ast.With)):
+                raise Untranslatable("control flow in the worker: %s" % ast.unparse(st)[:40])
+            elif has_put(st):
+                raise Untranslatable("a put inside %s" % type(st).__name__)
+            elif isinstance(st, ast.If):
+                for n in ast.walk(st):
+                    if isinstance(n, (ast.Continue, ast.Break, ast.Return, ast.Raise)):
+                        raise Untranslatable("control flow in the worker")
+        return " ++ ".join(parts) if parts else "[]"
+    per_item = puts(wb[0].body)
+    tail = puts(wb[1:])
+    if len(key_kinds) != 1:
+        raise Untranslatable("the results of the worker take their priority from %s" % sorted(key_kinds))
+    prio_comp = {"rec": "t.1", "prio": "t.2"}[key_kinds.pop()]
+    out = _RB_HEADER % ("generated by harness/translate.py from gaftools/cli/realign.py : realign_gaf without its two collector loops (those are\n"
+                        "    `Gen/Collector.lean`), statement by statement, and what `wfa_alignment` puts on the queue — do not edit")
+    out += ("/-- `batch_size` at the loop over the records; `verif`: the verification hook is on, `env`: the integer in its variable -/\n"
+            "def batchSize (verif : Bool) (env : Option Int) : Int :=\n%s\n\n" % bs)
+    out += ("/-- the variables before the first record -/\ndef initSt : St :=\n"
+            "  let σ : St := { processes := [], seq_batch := [], priority_counter := 0, p_queue := [], runs := [], out := [] }\n%s\n  σ\n\n"
+            % "\n".join(init_lines))
+    for (v, top), tag in zip(collectors, ("Main", "Left")):
+        out += "/-- `n_sentinels` on entry of the %s collector loop -/\ndef collectorInit%s : Nat := %d\n\n" % (
+            {"Main": "in-loop", "Left": "leftover"}[tag], tag, v)
+    out += ("/-- the body of `for %s in gaf_file.read_file()`; `coll k ps`: what the `k`-th execution of a collector loop, run on the\n"
+            "    processes `ps`, puts into `p_queue` (in arrival order) -/\n"
+            "def recStep (batch_size cores : Int) (coll : Nat → List Proc → List Nat) (σ : St) (%s : Nat) : St :=\n%s\n\n" % (rec, rec, step))
+    out += ("/-- the statements after the loop: the leftover batch, the leftover round -/\n"
+            "def leftover (batch_size cores : Int) (coll : Nat → List Proc → List Nat) (σ : St) : St :=\n%s\n\n" % left)
+    out += ("/-- `realign_gaf` on the records `lines` -/\n"
+            "def realignGaf (batch_size cores : Int) (coll : Nat → List Proc → List Nat) (lines : List Nat) : St :=\n"
+            "  leftover batch_size cores coll (lines.foldl (recStep batch_size cores coll) initSt)\n\n")
+    out += ("/-- the component of a batch element that `wfa_alignment` gives to `PriorityAlignment` as `%s` -/\n"
+            "def workerPrio (t : Item) : Nat := %s\n\n" % (key_field, prio_comp))
+    out += ("/-- what `wfa_alignment` puts on the queue for one element of its batch (`conds i`: the outcome of the `i`-th test on the way) -/\n"
+            "def workerPuts (conds : Nat → Bool) (t : Item) : List Msg :=\n  %s\n\n" % per_item)
+    out += "/-- … and after the last element -/\ndef workerTail : List Msg := %s\n\n" % tail
+    out += ("/-- everything a worker puts, in order -/\n"
+            "def workerTodo (conds : Item → Nat → Bool) (batch : List Item) : List Msg :=\n"
+            "  batch.flatMap (fun t => workerPuts (conds t) t) ++ workerTail\n"
+            "end Gaftools.Gen.RealignBatch\n")
+    return out
+
+
+GENERATORS["RealignBatch"] = gen_realign_batch
+
+
+# ---------------------------------------------------------------------------------------------------------
+# realign.wfa_alignment (the worker) statement by statement, and the statements of realign_gaf that build a batch entry (C12, C11)
+
+_RW_REC = {"query_name": ("qname", "Str"), "query_length": ("qlen", "Nat"), "query_start": ("qs", "Nat"), "query_end": ("qe", "Nat"),
+           "strand": ("strand", "Str"), "path": ("path", "Str"), "path_length": ("plen", "Nat"), "path_start": ("ps", "Nat"),
+           "path_end": ("pe", "Nat"), "residue_matches": ("nmatch", "Nat"), "alignment_block_length": ("blen", "Nat"),
+           "mapping_quality": ("mapq", "Nat"), "tags": ("tags", "Dict"), "cigar": ("cigar", "Str"), "is_primary": ("isPrimary", "Bool")}
+_RW_LEAN_T = {"Nat": "Nat", "Int": "Int", "Str": "Str", "Bool": "Bool", "Rec": "Rec", "Dict": "List (Str × Str)", "Wfa": "Wfa",
+              "Tuples": "List (Nat × Nat)", "Puts": "List Put", "Put": "Put", "Batch": "List (Rec × Str × Str × Nat)",
+              "Entry": "Rec × Str × Str × Nat"}
+_RW_ELEM = {"Tuples": ("Nat × Nat", ["Nat", "Nat"]), "Batch": ("Rec × Str × Str × Nat", ["Rec", "Str", "Str", "Nat"])}
+
+_RW_PRELUDE = '''import Gaftools.Model.Cigar
+/-! %s -/
+set_option linter.unusedVariables false
+namespace Gaftools.Gen.Realign
+open Gaftools.Gaf
+
+/-- what the foreign aligner hands back for (pattern, text, clip_cigar): `res.cigartuples` (operation code, length) and
+    `aligner.cigarstring` -/
+structure Wfa where
+  cigartuples : List (Nat × Nat)
+  cigarstring : Str
+
+/-- `f"{i}"` / `str(i)` of an integer -/
+def decI (i : Int) : Str := if i < 0 then '-' :: dec i.natAbs else dec i.toNat
+/-- `s.replace(a, b)` for single characters -/
+def replaceChar (a b : Char) (s : Str) : Str := s.map (fun c => if c == a then b else c)
+/-- `s[a:b]` for non-negative bounds -/
+def rwSlice (s : Str) (a b : Nat) : Str := (s.drop a).take (b - a)
+/-- what is handed to `qu.put`: `PriorityAlignment(priority, seq)` or `None` -/
+abbrev Put := Option (Nat × Str)
+
+'''
+
+
+class _RwTr:
+    """typed statement-by-statement translation: locals are `let`-bound (`v_<name>`), a `for` loop is a fold of a generated step
+    function over the variables it carries, `assert False` is `none`"""
+
+    def __init__(self, prefix):
+        self.prefix = prefix
+        self.defs = []          # generated top-level definitions, in dependency order
+        self.def_index = {}     # text of a step function without its name -> name (identical loops share one definition)
+        self.names = set()
+        self.pin = {}           # first loop target -> variables carried even when the body does not rebind them
+
+    # ---- expressions -----------------------------------------------------------------------------------------
+    @staticmethod
+    def v(name):
+        return "v_" + name
+
+    def to_str(self, lean, t):
+        if t == "Str":
+            return lean
+        if t == "Nat":
+            return "(dec %s)" % lean
+        if t == "Int":
+            return "(decI %s)" % lean
+        raise Untranslatable("str() of a %s" % (t,))
+
+    def to_int(self, lean, t):
+        if t == "Int":
+            return lean
+        if t == "Nat":
+            return "(%s : Int)" % lean
+        raise Untranslatable("a %s where a number is expected" % (t,))
+
+    def read(self, name, env):
+        if name not in env:
+            raise Untranslatable("name %s read before it is assigned" % name)
+        t = env[name]
+        if isinstance(t, tuple):
+            raise Untranslatable("the object %s used as a value" % name)
+        self.reads.add(name)
+        return self.v(name), t
+
+    def expr(self, e, env):
+        if isinstance(e, ast.Constant):
+            if isinstance(e.value, bool):
+                return ("true" if e.value else "false"), "Bool"
+            if isinstance(e.value, int):
+                return "(%d : Int)" % e.value, "Int"
+            if isinstance(e.value, str):
+                return "(%s : Str)" % _chars(e.value), "Str"
+            if e.value is None:
+                return "(none : Put)", "Put"
+            raise Untranslatable("constant %r" % (e.value,))
+        if isinstance(e, ast.Name):
+            return self.read(e.id, env)
+        if isinstance(e, ast.JoinedStr):
+            parts = []
+            for p in e.values:
+                if isinstance(p, ast.Constant) and isinstance(p.value, str):
+                    parts.append("(%s : Str)" % _chars(p.value))
+                elif isinstance(p, ast.FormattedValue) and p.conversion == -1 and p.format_spec is None:
+                    parts.append(self.to_str(*self.expr(p.value, env)))
+                else:
+                    raise Untranslatable("f-string piece %s" % ast.dump(p)[:60])
+            if not parts:
+                return "([] : Str)", "Str"
+            return "(" + " ++ ".join(parts) + ")", "Str"
+        if isinstance(e, ast.Attribute) and isinstance(e.value, ast.Name):
+            t = env.get(e.value.id)
+            if t == "Rec" and e.attr in _RW_REC:
+                self.reads.add(e.value.id)
+                return "%s.%s" % (self.v(e.value.id), _RW_REC[e.attr][0]), _RW_REC[e.attr][1]
+            if t == "Wfa" and e.attr == "cigartuples":
+                self.reads.add(e.value.id)
+                return "%s.cigartuples" % self.v(e.value.id), "Tuples"
+            if isinstance(t, tuple) and t[0] == "Aligner" and e.attr == "cigarstring":
+                if t[2] is None:
+                    raise Untranslatable("%s.cigarstring before the aligner has been called" % e.value.id)
+                return "%s.cigarstring" % t[2], "Str"
+            raise Untranslatable("attribute %s" % ast.unparse(e))
+        if isinstance(e, ast.Subscript):
+            u = ast.unparse(e)
+            if u in self.items:
+                return self.items[u], "Str"
+            if isinstance(e.slice, ast.Slice) and e.slice.step is None and e.slice.lower is not None and e.slice.upper is not None:
+                s, ts = self.expr(e.value, env)
+                a, ta = self.expr(e.slice.lower, env)
+                b, tb = self.expr(e.slice.upper, env)
+                if (ts, ta, tb) == ("Str", "Nat", "Nat"):
+                    return "(rwSlice %s %s %s)" % (s, a, b), "Str"
+            raise Untranslatable("subscript %s" % u)
+        if isinstance(e, ast.BinOp) and type(e.op) in (ast.Add, ast.Sub):
+            l, tl = self.expr(e.left, env)
+            r, tr = self.expr(e.right, env)
+            if isinstance(e.op, ast.Add) and tl == "Str" and tr == "Str":
+                return "(%s ++ %s)" % (l, r), "Str"
+            if isinstance(e.op, ast.Add) and tl == "Nat" and tr == "Nat":
+                return "(%s + %s)" % (l, r), "Nat"
+            return "(%s %s %s)" % (self.to_int(l, tl), "+" if isinstance(e.op, ast.Add) else "-", self.to_int(r, tr)), "Int"
+        if isinstance(e, ast.Compare) and len(e.ops) == 1:
+            l, tl = self.expr(e.left, env)
+            r, tr = self.expr(e.comparators[0], env)
+            t = type(e.ops[0])
+            if tl == "Str" and tr == "Str" and t in (ast.Eq, ast.NotEq):
+                return ("(%s == %s)" if t is ast.Eq else "(%s != %s)") % (l, r), "Bool"
+            l, r = self.to_int(l, tl), self.to_int(r, tr)
+            if t in (ast.Eq, ast.NotEq):
+                return ("(%s == %s)" if t is ast.Eq else "(%s != %s)") % (l, r), "Bool"
+            op = {ast.Lt: "<", ast.Gt: ">", ast.LtE: "≤", ast.GtE: "≥"}.get(t)
+            if op:
+                return "decide (%s %s %s)" % (l, op, r), "Bool"
+        if isinstance(e, ast.BoolOp):
+            vs = [self.expr(x, env) for x in e.values]
+            if all(t == "Bool" for _, t in vs):
+                return "(" + (" && " if isinstance(e.op, ast.And) else " || ").join(x for x, _ in vs) + ")", "Bool"
+        if isinstance(e, ast.UnaryOp) and isinstance(e.op, ast.Not):
+            x, t = self.expr(e.operand, env)
+            if t == "Bool":
+                return "(!%s)" % x, "Bool"
+        if isinstance(e, ast.Call) and not any(k.arg is None for k in e.keywords):
+            f = ast.unparse(e.func)
+            if f == "str" and len(e.args) == 1 and not e.keywords:
+                return self.to_str(*self.expr(e.args[0], env)), "Str"
+            if f == "len" and len(e.args) == 1 and not e.keywords:
+                x, t = self.expr(e.args[0], env)
+                if t == "Str":
+                    return "%s.length" % x, "Nat"
+            if isinstance(e.func, ast.Attribute) and e.func.attr == "replace" and len(e.args) == 2 and not e.keywords:
+                a, b = e.args
+                if (isinstance(a, ast.Constant) and isinstance(b, ast.Constant) and isinstance(a.value, str) and isinstance(b.value, str)
+                        and len(a.value) == 1 and len(b.value) == 1):
+                    s, t = self.expr(e.func.value, env)
+                    if t == "Str":
+                        return "(replaceChar %s %s %s)" % (_chars(a.value)[1:-1], _chars(b.value)[1:-1], s), "Str"
+            if f == self.put_class and len(e.args) == 2 and not e.keywords:
+                p, tp = self.expr(e.args[0], env)
+                s, ts = self.expr(e.args[1], env)
+                if (tp, ts) == ("Nat", "Str"):
+                    return "(some (%s, %s) : Put)" % (p, s), "Put"
+            if isinstance(e.func, ast.Attribute) and e.func.attr in self.foreign and not e.keywords:
+                lean_f, targs, tres = self.foreign[e.func.attr]
+                args = [self.expr(a, env) for a in e.args]
+                if [t for _, t in args] == targs:
+                    self.used_foreign.add(e.func.attr)
+                    return "(%s %s)" % (lean_f, " ".join(x for x, _ in args)), tres
+        raise Untranslatable("expression %s" % ast.unparse(e)[:80])
+
+    # ---- statements ------------------------------------------------------------------------------------------
+    @staticmethod
+    def assigned(stmts):
+        """names (re)bound by the statements, in order of first appearance; a method call / item assignment that changes an object
+        counts as a rebinding of its variable"""
+        out = []
+
+        def add(n):
+            if n not in out:
+                out.append(n)
+
+        def target(t):
+            if isinstance(t, ast.Name):
+                add(t.id)
+            elif isinstance(t, (ast.Tuple, ast.List)):
+                for x in t.elts:
+                    target(x)
+            elif isinstance(t, (ast.Subscript, ast.Attribute)):
+                r = t
+                while isinstance(r, (ast.Subscript, ast.Attribute)):
+                    r = r.value
+                if not isinstance(r, ast.Name):
+                    raise Untranslatable("assignment target %s" % ast.unparse(t))
+                add(r.id)
+            else:
+                raise Untranslatable("assignment target %s" % ast.unparse(t))
+
+        def walk(ss):
+            for s in ss:
+                if isinstance(s, ast.Assign):
+                    for t in s.targets:
+                        target(t)
+                elif isinstance(s, (ast.AugAssign, ast.AnnAssign)):
+                    target(s.target)
+                elif isinstance(s, ast.For):
+                    target(s.target)
+                    walk(s.body)
+                    walk(s.orelse)
+                elif isinstance(s, ast.If):
+                    walk(s.body)
+                    walk(s.orelse)
+                elif isinstance(s, ast.Expr) and isinstance(s.value, ast.Call) and isinstance(s.value.func, ast.Attribute):
+                    r = s.value.func.value
+                    while isinstance(r, (ast.Subscript, ast.Attribute)):
+                        r = r.value
+                    if isinstance(r, ast.Name):
+                        add(r.id)
+                elif isinstance(s, (ast.Assert, ast.Pass)) or (isinstance(s, ast.Expr) and isinstance(s.value, ast.Constant)):
+                    pass
+                else:
+                    raise Untranslatable("statement %s" % ast.unparse(s)[:60])
+        walk(stmts)
+        return out
+
+    @staticmethod
+    def can_fail(stmts):
+        return any(isinstance(n, (ast.Assert, ast.Raise)) for s in stmts for n in ast.walk(s))
+
+    def let(self, pad, name, t, value, rest):
+        return "%slet %s : %s := %s\n%s" % (pad, self.v(name), _RW_LEAN_T[t], value, rest)
+
+    def block(self, stmts, env, ind, result, fallible):
+        """`result(env)` is the value of the block when control reaches its end"""
+        pad = " " * ind
+        if not stmts:
+            r = result(env)
+            return pad + ("some %s" % r if fallible else r)
+        st, rest = stmts[0], stmts[1:]
+        env = dict(env)
+
+        def go():
+            return self.block(rest, env, ind, result, fallible)
+        if isinstance(st, ast.Expr) and isinstance(st.value, ast.Constant):
+            return go()
+        if isinstance(st, ast.Pass):
+            return go()
+        if isinstance(st, ast.Assert):
+            if isinstance(st.test, ast.Constant) and st.test.value is False:
+                return pad + "none"
+            c, t = self.expr(st.test, env)
+            if t != "Bool":
+                raise Untranslatable("assert %s" % ast.unparse(st.test))
+            return "%sif %s then\n%s\n%selse\n%s  none" % (pad, c, self.block(rest, env, ind + 2, result, fallible), pad, pad)
+        if isinstance(st, ast.If):
+            c, t = self.expr(st.test, env)
+            if t != "Bool":
+                raise Untranslatable("test %s" % ast.unparse(st.test))
+            return "%sif %s then\n%s\n%selse\n%s" % (pad, c, self.block(st.body + rest, env, ind + 2, result, fallible), pad,
+                                                  self.block(st.orelse + rest, env, ind + 2, result, fallible))
+        if isinstance(st, ast.Assign) and len(st.targets) == 1:
+            tg = st.targets[0]
+            if isinstance(tg, ast.Tuple) and isinstance(st.value, ast.Tuple) and len(tg.elts) == len(st.value.elts) and all(isinstance(x, ast.Name) for x in tg.elts):
+                names = [x.id for x in tg.elts]
+                if len(set(names)) != len(names) or any(isinstance(n, ast.Name) and n.id in names for v in st.value.elts for n in ast.walk(v)):
+                    raise Untranslatable("parallel assignment %s" % ast.unparse(st)[:60])
+                seq = [ast.Assign(targets=[x], value=v) for x, v in zip(tg.elts, st.value.elts)]
+                return self.block(seq + rest, env, ind, result, fallible)
+            if isinstance(tg, ast.Name):
+                val = st.value
+                # the two foreign calls: constructing the aligner (remembers the pattern), calling it (the result object)
+                if isinstance(val, ast.Call) and ast.unparse(val.func) == self.aligner_class:
+                    if len(val.args) != 1 or val.keywords:
+                        raise Untranslatable("arguments of %s" % ast.unparse(val)[:60])
+                    p, tp = self.expr(val.args[0], env)
+                    if tp != "Str":
+                        raise Untranslatable("pattern of the aligner")
+                    env[tg.id] = ("Aligner", p, None)
+                    return go()
+                if isinstance(val, ast.Call) and isinstance(val.func, ast.Name) and isinstance(env.get(val.func.id), tuple):
+                    al = env[val.func.id]
+                    kws = {k.arg: k.value for k in val.keywords}
+                    if len(val.args) != 1 or set(kws) != {"clip_cigar"} or not (isinstance(kws["clip_cigar"], ast.Constant) and isinstance(kws["clip_cigar"].value, bool)):
+                        raise Untranslatable("arguments of the aligner call %s" % ast.unparse(val)[:60])
+                    q, tq = self.expr(val.args[0], env)
+                    if tq != "Str":
+                        raise Untranslatable("text of the aligner call")
+                    w = "w_" + val.func.id
+                    env[val.func.id] = ("Aligner", al[1], w)
+                    env[tg.id] = "Wfa"
+                    self.used_foreign.add("wfa")
+                    return "%slet %s : Wfa := wfa %s %s %s\n%s" % (pad, w, al[1], q, "true" if kws["clip_cigar"].value else "false",
+                                                                 self.let(pad, tg.id, "Wfa", w, go()))
+                x, t = self.expr(val, env)
+                if t not in _RW_LEAN_T or t in ("Put",):
+                    raise Untranslatable("assignment of a %s" % (t,))
+                env[tg.id] = t
+                return self.let(pad, tg.id, t, x, go())
+            if (isinstance(tg, ast.Subscript) and isinstance(tg.value, ast.Attribute) and isinstance(tg.value.value, ast.Name)
+                    and env.get(tg.value.value.id) == "Rec" and tg.value.attr == "tags"):
+                k, tk = self.expr(tg.slice, env)
+                x, tx = self.expr(st.value, env)
+                if (tk, tx) != ("Str", "Str"):
+                    raise Untranslatable("tag assignment %s" % ast.unparse(st)[:60])
+                r = tg.value.value.id
+                self.reads.add(r)
+                return self.let(pad, r, "Rec", "{ %s with tags := dictSet %s.tags %s %s }" % (self.v(r), self.v(r), k, x), go())
+        if isinstance(st, ast.AugAssign) and isinstance(st.target, ast.Name) and type(st.op) in (ast.Add, ast.Sub):
+            x, t = self.expr(ast.BinOp(left=ast.Name(id=st.target.id, ctx=ast.Load()), op=st.op, right=st.value), env)
+            if t != env.get(st.target.id):
+                raise Untranslatable("%s changes the type of %s" % (ast.unparse(st)[:40], st.target.id))
+            return self.let(pad, st.target.id, t, x, go())
+        if (isinstance(st, ast.Expr) and isinstance(st.value, ast.Call) and isinstance(st.value.func, ast.Attribute) and st.value.func.attr == "put"
+                and isinstance(st.value.func.value, ast.Name) and env.get(st.value.func.value.id) == "Puts" and len(st.value.args) == 1 and not st.value.keywords):
+            x, t = self.expr(st.value.args[0], env)
+            if t != "Put":
+                raise Untranslatable("put of a %s" % (t,))
+            q = st.value.func.value.id
+            self.reads.add(q)
+            return self.let(pad, q, "Puts", "%s ++ [%s]" % (self.v(q), x), go())
+        if isinstance(st, ast.For) and not st.orelse:
+            return self.for_loop(st, rest, env, ind, result, fallible)
+        raise Untranslatable("statement %s" % ast.unparse(st)[:70])
+
+    def for_loop(self, st, rest, env, ind, result, fallible):
+        pad = " " * ind
+        # -- what is iterated, and the names an element is unpacked into
+        it = st.iter
+        items = {}
+        if (isinstance(it, ast.Call) and isinstance(it.func, ast.Attribute) and it.func.attr == "keys" and not it.args and not it.keywords):
+            d, td = self.expr(it.func.value, env)
+            if td != "Dict" or not isinstance(st.target, ast.Name):
+                raise Untranslatable("loop over %s" % ast.unparse(it))
+            elem_t, binds = "Str × Str", [(st.target.id, "Str", "x.1")]
+            items[ast.unparse(ast.Subscript(value=it.func.value, slice=ast.Name(id=st.target.id, ctx=ast.Load()), ctx=ast.Load()))] = "x.2"
+            frozen = {st.target.id} | {n.id for n in ast.walk(it) if isinstance(n, ast.Name)}
+            iter_lean = d
+        else:
+            d, td = self.expr(it, env)
+            if td not in _RW_ELEM:
+                raise Untranslatable("loop over %s" % ast.unparse(it))
+            elem_t, ts = _RW_ELEM[td]
+            if not (isinstance(st.target, ast.Tuple) and len(st.target.elts) == len(ts) and all(isinstance(x, ast.Name) for x in st.target.elts)):
+                raise Untranslatable("loop target %s" % ast.unparse(st.target))
+            proj = ["x.1", "x.2"] if len(ts) == 2 else ["x.1"] + ["x." + "2." * i + "1" for i in range(1, len(ts) - 1)] + ["x." + "2." * (len(ts) - 2) + "2"]
+            binds = [(x.id, t, p) for x, t, p in zip(st.target.elts, ts, proj)]
+            frozen = {n.id for n in ast.walk(it) if isinstance(n, ast.Name)}
+            iter_lean = d
+        body_assigned = self.assigned(st.body)
+        if items and frozen & set(body_assigned):
+            raise Untranslatable("the loop over %s changes what it iterates" % ast.unparse(it))
+        # the variables the loop carries, in the order they were first assigned: those its body rebinds, and those the theorems are
+        # stated about when they are in scope (a body that no longer updates one of them is a change of logic, not of shape)
+        pinned = self.pin.get(binds[0][0], [])
+        carried = [n for n in env if (n in body_assigned or (n in pinned and not isinstance(env[n], tuple))) and n not in [b[0] for b in binds]]
+        if not carried or any(isinstance(env[n], tuple) for n in carried):
+            raise Untranslatable("variables carried by the loop over %s" % ast.unparse(it))
+        body_fallible = self.can_fail(st.body)
+        if body_fallible and not fallible:
+            raise Untranslatable("a loop that can fail in a context that cannot")
+        tag = binds[0][0]
+        st_name = "%sSt_%s" % (self.prefix[0].upper() + self.prefix[1:], tag)
+        # -- the step function: carried variables in, element unpacked, body, carried variables out
+        inner_env = {n: env[n] for n in env}
+        for n, t, _ in binds:
+            inner_env[n] = t
+        saved_reads, saved_items = self.reads, self.items
+        self.reads, self.items = set(), dict(saved_items, **items)
+        if len(carried) == 1:
+            res = lambda en: self.v(carried[0])   # noqa: E731
+            state_t = _RW_LEAN_T[env[carried[0]]]
+        else:
+            res = lambda en: "(⟨%s⟩ : %s)" % (", ".join(self.v(n) for n in carried), st_name)   # noqa: E731
+            state_t = st_name
+
+        def checked(en):
+            for n in carried:
+                if en.get(n) != env[n]:
+                    raise Untranslatable("the loop changes the type of %s" % n)
+            return res(en)
+        body = self.block(st.body, inner_env, 2, checked, body_fallible)
+        body_reads = self.reads
+        self.reads, self.items = saved_reads, saved_items
+        free = sorted(n for n in body_reads if n in env and n not in carried and n not in [b[0] for b in binds])
+        for n in free:
+            if isinstance(env[n], tuple):
+                raise Untranslatable("the object %s used inside a loop" % n)
+        self.reads |= set(free) | set(carried)
+        used = [f for f in sorted(self.used_foreign) if re.search(r"\b%s\b" % self.foreign_lean(f), body)]
+        foreign_params = "".join(" " + self.foreign_sig[f] for f in used)
+        foreign_args = "".join(" " + self.foreign_lean(f) for f in used)
+        head = ""
+        if len(carried) == 1:
+            state_param = "(%s : %s)" % (self.v(carried[0]), state_t)
+        else:
+            state_param = "(s : %s)" % st_name
+            for n in carried:
+                head += "  let %s : %s := s.%s\n" % (self.v(n), _RW_LEAN_T[env[n]], self.v(n))
+        for n, t, p in binds:
+            head += "  let %s : %s := %s\n" % (self.v(n), _RW_LEAN_T[t], p)
+        sig = "%s%s %s (x : %s) : %s :=\n%s%s\n" % (
+            foreign_params, "".join(" (%s : %s)" % (self.v(n), _RW_LEAN_T[env[n]]) for n in free), state_param, elem_t,
+            ("Option (%s)" % state_t if body_fallible else state_t), head, body)
+        struct = ""
+        if len(carried) > 1:
+            struct = "structure %s where\n%s" % (st_name, "".join("  %s : %s\n" % (self.v(n), _RW_LEAN_T[env[n]]) for n in carried))
+        key = (struct, sig)
+        if key in self.def_index:
+            fname = self.def_index[key]
+        else:
+            fname = "%sFor_%s" % (self.prefix, tag)
+            while fname in self.names:
+                fname += "'"
+            if struct and st_name in self.names:
+                raise Untranslatable("two different loops over %s" % tag)
+            self.names.add(fname)
+            self.names.add(st_name)
+            self.def_index[key] = fname
+            doc = "/-- the body of `for %s in %s` -/\n" % (ast.unparse(st.target), ast.unparse(it))
+            self.defs.append((("/-- the variables carried by `for %s in %s` -/\n" % (ast.unparse(st.target), ast.unparse(it)) + struct + "\n") if struct else "")
+                             + doc + "def " + fname + sig)
+        # -- the loop itself
+        call = "(%s%s%s)" % (fname, foreign_args, "".join(" " + self.v(n) for n in free)) if (free or foreign_args) else fname
+        init = self.v(carried[0]) if len(carried) == 1 else "(⟨%s⟩ : %s)" % (", ".join(self.v(n) for n in carried), st_name)
+        after_env = {n: t for n, t in env.items()}
+        tail = self.block(rest, after_env, ind, result, fallible)
+        if body_fallible:
+            out = "%smatch %s.foldlM %s %s with\n%s| none => none\n%s| some s =>\n" % (pad, iter_lean, call, init, pad, pad)
+            unpack = [(n, "s" if len(carried) == 1 else "s.%s" % self.v(n)) for n in carried]
+        else:
+            out = "%slet s : %s := %s.foldl %s %s\n" % (pad, state_t, iter_lean, call, init)
+            unpack = [(n, "s" if len(carried) == 1 else "s.%s" % self.v(n)) for n in carried]
+        for n, src in unpack:
+            out += "%slet %s : %s := %s\n" % (pad, self.v(n), _RW_LEAN_T[env[n]], src)
+        return out + tail
+
+    def foreign_lean(self, f):
+        return "wfa" if f == "wfa" else self.foreign[f][0]
+
+
+def _rw_nodoc(stmts):
+    return [s for s in stmts if not (isinstance(s, ast.Expr) and isinstance(s.value, ast.Constant))]
+
+
+def _gen_realign_worker():
+    _, src = src_of("gaftools/cli/realign.py")
+    mod = ast.parse(src)
+    # -- the message class: PriorityAlignment(priority, seq), in that order
+    cls = _only([n for n in mod.body if isinstance(n, ast.ClassDef) and n.name == "PriorityAlignment"], "class PriorityAlignment")
+    fields = [(s.target.id, ast.unparse(s.annotation)) for s in cls.body if isinstance(s, ast.AnnAssign) and isinstance(s.target, ast.Name)]
+    if fields != [("priority", "int"), ("seq", "str")]:
+        raise Untranslatable("fields of PriorityAlignment: %s" % fields)
+    imports = [ast.unparse(n) for n in mod.body if isinstance(n, ast.ImportFrom) and any(a.name == "WavefrontAligner" for a in n.names)]
+    if imports != ["from pywfa.align import WavefrontAligner"]:
+        raise Untranslatable("where WavefrontAligner comes from: %s" % imports)
+
+    # -- realign_gaf: what a batch entry is made of (this also fixes the types of the worker's parameters)
+    rg = find_func(mod, "realign_gaf")
+    appends = [n for n in ast.walk(rg) if isinstance(n, ast.Call) and ast.unparse(n.func) == "seq_batch.append"]
+    app = _only(appends, "seq_batch.append in realign_gaf")
+    loop = _only([n for n in ast.walk(rg) if isinstance(n, ast.For) and any(isinstance(s, ast.Expr) and s.value is app for s in n.body)],
+                 "the loop that fills the batch")
+    if not (isinstance(loop.target, ast.Name) and ast.unparse(loop.iter).endswith(".read_file()")):
+        raise Untranslatable("the loop that fills the batch: %s" % ast.unparse(loop.iter))
+    rec = loop.target.id
+    reader = ast.unparse(loop.iter)[:-len(".read_file()")]
+    made = [ast.unparse(s.value) for s in ast.walk(rg) if isinstance(s, ast.Assign) and ast.unparse(s.targets[0]) == reader]
+    if made != ["GAF(gaf)"]:
+        raise Untranslatable("the reader of the records: %s" % made)
+    pos = [i for i, s in enumerate(loop.body) if isinstance(s, ast.Expr) and s.value is app][0]
+    if not (len(app.args) == 1 and isinstance(app.args[0], ast.Tuple) and len(app.args[0].elts) == 4 and all(isinstance(x, ast.Name) for x in app.args[0].elts)):
+        raise Untranslatable("batch entry %s" % ast.unparse(app))
+    counter = app.args[0].elts[3].id
+    inits = [s for s in rg.body if isinstance(s, ast.Assign) and ast.unparse(s.targets[0]) == counter]
+    if [ast.unparse(s.value) for s in inits] != ["0"]:
+        raise Untranslatable("initial value of %s" % counter)
+    bumps = [ast.unparse(s) for s in ast.walk(rg) if isinstance(s, (ast.AugAssign, ast.Assign)) and counter in [n.id for n in ast.walk(s) if isinstance(n, ast.Name) and isinstance(n.ctx, ast.Store)] and s not in inits]
+    if bumps != ["%s += 1" % counter] or ast.unparse(loop.body[pos + 1]) != bumps[0]:
+        raise Untranslatable("how %s is counted: %s" % (counter, bumps))
+    bt = _RwTr("batch")
+    bt.put_class, bt.aligner_class = "PriorityAlignment", "WavefrontAligner"
+    bt.foreign = {"extract_path": ("extractPath", ["Str"], "Str"), "fetch": ("fetch", ["Str", "Nat", "Nat"], "Str")}
+    bt.foreign_sig = {}
+    bt.used_foreign, bt.reads, bt.items = set(), set(), {}
+    entry_t = {}
+
+    def entry(en):
+        parts = []
+        for x in app.args[0].elts:
+            l, t = bt.expr(x, en)
+            parts.append((l, t))
+        if [t for _, t in parts] != ["Rec", "Str", "Str", "Nat"]:
+            raise Untranslatable("types of the batch entry: %s" % [t for _, t in parts])
+        entry_t["ok"] = True
+        return "(%s)" % ", ".join(l for l, _ in parts)
+    entry_body = bt.block(loop.body[:pos], {rec: "Rec", counter: "Nat"}, 2, entry, False)
+    if bt.used_foreign != {"extract_path", "fetch"} or bt.defs:
+        raise Untranslatable("what the batch entry is computed from: %s" % sorted(bt.used_foreign))
+    # the objects the two foreign methods are called on
+    objs = {}
+    for n in ast.walk(ast.Module(body=loop.body[:pos], type_ignores=[])):
+        if isinstance(n, ast.Call) and isinstance(n.func, ast.Attribute) and n.func.attr in bt.foreign:
+            objs[n.func.attr] = ast.unparse(n.func.value)
+    for meth, ctor in (("extract_path", "GFA(graph)"), ("fetch", "pysam.FastaFile(fasta)")):
+        made = [ast.unparse(s.value) for s in rg.body if isinstance(s, ast.Assign) and ast.unparse(s.targets[0]) == objs.get(meth)]
+        if made != [ctor]:
+            raise Untranslatable("the object %s is called on: %s" % (meth, made))
+    # -- every Process runs the worker on (the batch, the queue)
+    procs = [n for n in ast.walk(rg) if isinstance(n, ast.Call) and ast.unparse(n.func) == "mp.Process"]
+    if not procs:
+        raise Untranslatable("no mp.Process in realign_gaf")
+    for p in procs:
+        kw = {k.arg: ast.unparse(k.value) for k in p.keywords}
+        if p.args or kw.get("target") != "wfa_alignment" or set(kw) != {"target", "args"}:
+            raise Untranslatable("mp.Process call %s" % ast.unparse(p)[:80])
+        a = [k.value for k in p.keywords if k.arg == "args"][0]
+        if not (isinstance(a, ast.Tuple) and len(a.elts) == 2 and ast.unparse(a.elts[0]) == "seq_batch"):
+            raise Untranslatable("arguments of the worker: %s" % ast.unparse(a))
+        qname = ast.unparse(a.elts[1])
+        qmade = {ast.unparse(s.value) for s in ast.walk(rg) if isinstance(s, ast.Assign) and ast.unparse(s.targets[0]) == qname}
+        if qmade != {"mp.Queue()"}:
+            raise Untranslatable("the queue handed to the worker: %s" % sorted(qmade))
+
+    # -- the worker
+    fn = find_func(mod, "wfa_alignment")
+    params = [a.arg for a in fn.args.args]
+    if len(params) != 2 or fn.args.vararg or fn.args.kwarg or fn.args.kwonlyargs or fn.args.defaults:
+        raise Untranslatable("parameters of wfa_alignment")
+    wt = _RwTr("worker")
+    wt.put_class, wt.aligner_class = "PriorityAlignment", "WavefrontAligner"
+    wt.foreign, wt.foreign_sig = {}, {"wfa": "(wfa : Str → Str → Bool → Wfa)"}
+    wt.used_foreign, wt.reads, wt.items = set(), set(), {}
+    wt.pin = _RW_PINNED
+    body = _rw_nodoc(fn.body)
+    fallible = wt.can_fail(body)
+    text = wt.block(body, {params[0]: "Batch", params[1]: "Puts"}, 2, lambda en: wt.v(params[1]), fallible)
+    if wt.used_foreign != {"wfa"}:
+        raise Untranslatable("the worker does not call the aligner")
+    res_t = "Option (List Put)" if fallible else "List Put"
+    rest = _rw_assemble(wt, bt, params, res_t, text, rec, reader, counter, entry_body)
+    # -- the theorems of Props/TieA19.lean are stated about these names and types: anything else is outside the tie
+    iface = _rw_interface(rest)
+    if iface != _RW_INTERFACE:
+        raise Untranslatable("the translated definitions do not have the names / types the theorems are stated about: %s" %
+                             ([ln for ln in iface if ln not in _RW_INTERFACE] + [ln for ln in _RW_INTERFACE if ln not in iface])[:3])
+    return (_RW_PRELUDE % ("generated by harness/translate.py from gaftools/cli/realign.py : wfa_alignment statement by statement (locals are `let`-bound,\n"
+                           "    a `for` loop is a fold of its body over the variables it carries, `assert False` is `none`, the queue is the list of the objects\n"
+                           "    `put` so far, the foreign aligner is the parameter `wfa`), and the statements of realign_gaf that make a batch entry — do not edit")
+            + rest)
+
+
+def _rw_interface(text):
+    """the signature lines of the generated definitions: `def … :=`, `structure … where` and the fields of the structures"""
+    return [ln for ln in text.split("\n")
+            if ln.startswith(("def ", "structure ")) or re.fullmatch(r"  v_\w+ : [^=]*", ln)]
+
+
+_RW_PINNED = {"op_type": ["match", "mismatch", "cigar_len", "ins", "deletion", "soft_clip", "cigar"], "k": ["out_string"], "gaf_line": ["qu"]}
+_RW_INTERFACE = [
+    "def workerFor_k (v_out_string : Str) (x : Str × Str) : Str :=",
+    "structure WorkerSt_op_type where",
+    "  v_match : Int",
+    "  v_mismatch : Int",
+    "  v_cigar_len : Int",
+    "  v_ins : Int",
+    "  v_deletion : Int",
+    "  v_soft_clip : Int",
+    "  v_cigar : Str",
+    "def workerFor_op_type (s : WorkerSt_op_type) (x : Nat × Nat) : Option (WorkerSt_op_type) :=",
+    "def workerFor_gaf_line (wfa : Str → Str → Bool → Wfa) (v_qu : List Put) (x : Rec × Str × Str × Nat) : Option (List Put) :=",
+    "def worker (wfa : Str → Str → Bool → Wfa) (v_seq_batch : List (Rec × Str × Str × Nat)) (v_qu : List Put) : Option (List Put) :=",
+    "def batchEntry (extractPath : Str → Str) (fetch : Str → Nat → Nat → Str) (v_line : Rec) (v_priority_counter : Nat) : Rec × Str × Str × Nat :=",
+]
+
+
+def _rw_assemble(wt, bt, params, res_t, text, rec, reader, counter, entry_body):
+    return ("\n".join(wt.defs) + "\n"
+            + "/-- `wfa_alignment(%s, %s)`: the queue after the call (`none`: an assertion failed) -/\n" % (params[0], params[1])
+            + "def worker (wfa : Str → Str → Bool → Wfa) (%s : List (Rec × Str × Str × Nat)) (%s : List Put) : %s :=\n" % (wt.v(params[0]), wt.v(params[1]), res_t)
+            + text + "\n\n"
+            + "/-- realign_gaf, for one record `%s` of `%s.read_file()` at count `%s`: the entry appended to the batch (the count is then increased by one);\n" % (rec, reader, counter)
+            + "    `extractPath` = `GFA(graph).extract_path`, `fetch` = `pysam.FastaFile(fasta).fetch` -/\n"
+            + "def batchEntry (extractPath : Str → Str) (fetch : Str → Nat → Nat → Str) (%s : Rec) (%s : Nat) : Rec × Str × Str × Nat :=\n" % (bt.v(rec), bt.v(counter))
+            + entry_body + "\n"
+            + "end Gaftools.Gen.Realign\n")
+
+
+def gen_realign_worker():
+    try:
+        return _gen_realign_worker()
+    except (Untranslatable, SyntaxError, OSError, KeyError, IndexError):
+        raise
+    except Exception as e:  # a shape the translator did not foresee is never an alarm
+        raise Untranslatable("translator: %s: %s" % (type(e).__name__, e))
+
+
+GENERATORS["RealignWorker"] = gen_realign_worker
+
+
 def regenerate(only=None):
     """returns {name: {"tie": "A"|"B-only", "detail": str, "changed": bool}}"""
     os.makedirs(GEN, exist_ok=True)
@@ -5630,7 +8859,151 @@ def regenerate(only=None):
     return res
 
 
+VIEWSEL_FALLBACK_DEFS = r'''/-! ### the translation of the source as it stood when the tie was made (hand-kept twin) -/
+
+/-- `view.search` -/
+def search (node : (List String)) (node_list : (List IKey)) : M (List IKey) := do
+  let t1 ← pyIdx node 1
+  let t2 ← pyIntOf t1
+  let q_s := t2
+  let t3 ← pyIdx node 2
+  let t4 ← pyIntOf t3
+  let q_e := t4
+  let t8 ← pyFilterM (fun n => pyAnd (PyAtom.le (n.get 2) (PyAtom.int q_e)) (PyAtom.lt (PyAtom.int q_s) (n.get 3))) node_list
+  pure t8
+
+/-- the body of `for region in regions` in `get_unstable` -/
+def get_unstable_loop1 (index : (Dict IKey (List Nat))) (st : ((Dict String (List IKey)) × (List PyAtom))) (region : String) : M ((Dict String (List IKey)) × (List PyAtom)) := do
+  let node_dict := st.1
+  let result := st.2
+  let t1 ← pyIdx (pySplit region ':') 0
+  let c := t1
+  let t2 ← pyIdx (pySplit region ':') 1
+  let t3 ← pyIdx (pySplit t2 '-') 0
+  let start := t3
+  let t4 ← pyIdx (pySplit region ':') 1
+  let t5 ← pyLast (pySplit t4 '-')
+  let end_ := t5
+  let jn1 ← (match dictGet? node_dict c with
+    | some t6 => do
+      let node_list := t6
+      pure (node_list, node_dict)
+    | none => do
+      let node_list := ((dictKeys index).filter (fun x => ((!(x.eqStr "ref_contig")) && ((x.get 1) == (PyAtom.str c)))))
+      let t7 ← pySortedBy (fun x => (x.get 2)) node_list
+      let node_list := t7
+      let node_dict := dictSet node_dict c node_list
+      pure (node_list, node_dict))
+  let node_list := jn1.1
+  let node_dict := jn1.2
+  let t8 ← search [c, start, end_] node_list
+  let node := t8
+  let result := result ++ (node.map (fun n => (n.get 0)))
+  pure (node_dict, result)
+
+/-- `view.get_unstable` -/
+def get_unstable (regions : (List String)) (index : (Dict IKey (List Nat))) : M (List PyAtom) := do
+  let node_dict : (Dict String (List IKey)) := []
+  let result : (List PyAtom) := []
+  let st ← regions.foldlM (get_unstable_loop1 index) (node_dict, result)
+  let node_dict := st.1
+  let result := st.2
+  pure result
+
+/-- the body of `for i in ind_key` in `run` -/
+def run_loop1 (st : (Dict PyAtom IKey)) (i : IKey) : M (Dict PyAtom IKey) := do
+  let ind_dict := st
+  let ind_dict := dictSet ind_dict (i.get 0) i
+  pure ind_dict
+
+/-- the body of `for nd in nodes` in `run` -/
+def run_loop2 (ind : (Dict IKey (List Nat))) (ind_dict : (Dict PyAtom IKey)) (st : (List Nat)) (nd : PyAtom) : M (List Nat) := do
+  let offsets := st
+  let offsets ← (if (dictHas ind_dict nd)
+    then do
+      let t1 ← dictGet ind_dict nd
+      let t2 ← dictGet ind t1
+      let offsets := setUnion offsets (setOf t2)
+      pure offsets
+    else do
+      pure offsets)
+  pure offsets
+
+/-- the body of `for ofs in offsets` in `run` -/
+def run_loop3 {Rec : Type} {Out : Type} (readLine : (Nat → M Rec)) (toStable : (Rec → M Out)) (st : (List Out)) (ofs : Nat) : M (List Out) := do
+  let out := st
+  let t1 ← readLine ofs
+  let line := t1
+  let t2 ← toStable line
+  let out := out ++ [t2]
+  pure out
+
+/-- the body of `for ofs in offsets` in `run` -/
+def run_loop4 {Rec : Type} {Out : Type} (readLine : (Nat → M Rec)) (toUnstable : (Rec → M Out)) (st : (List Out)) (ofs : Nat) : M (List Out) := do
+  let out := st
+  let t1 ← readLine ofs
+  let line := t1
+  let t2 ← toUnstable line
+  let out := out ++ [t2]
+  pure out
+
+/-- the body of `for ofs in offsets` in `run` -/
+def run_loop5 {Rec : Type} {Out : Type} (readLine : (Nat → M Rec)) (strOf : (Rec → Out)) (st : (List Out)) (ofs : Nat) : M (List Out) := do
+  let out := st
+  let t1 ← readLine ofs
+  let line := t1
+  let out := out ++ [(strOf line)]
+  pure out
+
+/-- `view.run` is in the branch that selects by nodes / regions -/
+def selecting (nodes : (List PyAtom)) (regions : (List String)) : Bool := ((!(nodes.length == 0)) || (!(regions.length == 0)))
+
+/-- `view.run`, the selecting branch from the statement after the index is unpickled (`ind`) to its end; the result is
+    what has been printed to `writer` (`readLine` = `GAF.read_line`, `toStable` / `toUnstable` = the conversions with the tables
+    built in the head of `run`, `strOf` = `str` of a record) -/
+def run {Rec Out : Type} (readLine : Nat → M Rec) (toStable toUnstable : Rec → M Out) (strOf : Rec → Out)
+    (format : Option String) (ind : (Dict IKey (List Nat))) (nodes : (List PyAtom)) (regions : (List String)) : M (List Out) := do
+  let out : List Out := []
+  let t1 ← pySortedBy (fun x => ((x.get 1), (x.get 2))) ((dictKeys ind).filter (fun k => (!(k.eqStr "ref_contig"))))
+  let ind_key := t1
+  let ind_dict : (Dict PyAtom IKey) := []
+  let ind_dict ← ind_key.foldlM (run_loop1) ind_dict
+  let nodes ← (if (!regions.isEmpty)
+    then do
+      pyAssert (nodes == [])
+      let t2 ← get_unstable regions ind
+      let nodes := t2
+      pure nodes
+    else do
+      pure nodes)
+  let offsets : (List Nat) := []
+  let offsets ← nodes.foldlM (run_loop2 ind ind_dict) offsets
+  let t3 ← pySortedBy (fun v => v) offsets
+  let offsets := t3
+  if (offsets.length == 0) then
+    throw (.commandLineError "No alignments found for the given nodes/regions")
+  else
+    let out ← (if (truthyStr format)
+      then do
+        let out ← (if (format == some "stable")
+          then do
+            let out ← offsets.foldlM (run_loop3 readLine toStable) out
+            pure out
+          else do
+            pyAssert (format == some "unstable")
+            let out ← offsets.foldlM (run_loop4 readLine toUnstable) out
+            pure out)
+        pure out
+      else do
+        let out ← offsets.foldlM (run_loop5 readLine strOf) out
+        pure out)
+    pure out
+'''
+
 FALLBACK = {
+    "ViewSel": ("import Gaftools.Model.View\nimport Gaftools.Model.TextLayer\n"
+                "/-! FALLBACK (source construct outside the translator's subset): `search`, `get_unstable` and the selecting branch of `run` as\n"
+                "    translated from the source the tie was made against -/\n" + VIEWSEL_PRELUDE + "\n" + VIEWSEL_FALLBACK_DEFS + "\n\nend Gaftools.Gen.ViewSel\n"),
     "Search": SEARCH_HEADER % ("FALLBACK (source construct outside the translator's subset): a frozen copy of the translation of the three functions\n"
                                "    as the source stood when `Props/TieA12.lean` was written") + r'''/-- the test of the `while` of `find_component` -/
 def fcCond (σ : FcSt) : Bool := decide (σ.queue.length > 0)
@@ -6090,6 +9463,270 @@ def cmpGaf (al1 al2 : Aln) : Option Int := Gaftools.Sort.cmpGaf al1 al2
 end Gaftools.Gen
 """,
 }
+
+FALLBACK["RealignWorker"] = _RW_PRELUDE % ("FALLBACK (source construct outside the translator's subset): a frozen copy of the translation of wfa_alignment and of\n"
+                                           "    the batch entry of realign_gaf as the source stood when `Props/TieA19.lean` was written") + r"""/-- the body of `for k in gaf_line.tags.keys()` -/
+def workerFor_k (v_out_string : Str) (x : Str × Str) : Str :=
+  let v_k : Str := x.1
+  let v_out_string : Str := (v_out_string ++ ((['\t'] : Str) ++ v_k ++ x.2))
+  v_out_string
+
+/-- the variables carried by `for (op_type, op_len) in res.cigartuples` -/
+structure WorkerSt_op_type where
+  v_match : Int
+  v_mismatch : Int
+  v_cigar_len : Int
+  v_ins : Int
+  v_deletion : Int
+  v_soft_clip : Int
+  v_cigar : Str
+
+/-- the body of `for (op_type, op_len) in res.cigartuples` -/
+def workerFor_op_type (s : WorkerSt_op_type) (x : Nat × Nat) : Option (WorkerSt_op_type) :=
+  let v_match : Int := s.v_match
+  let v_mismatch : Int := s.v_mismatch
+  let v_cigar_len : Int := s.v_cigar_len
+  let v_ins : Int := s.v_ins
+  let v_deletion : Int := s.v_deletion
+  let v_soft_clip : Int := s.v_soft_clip
+  let v_cigar : Str := s.v_cigar
+  let v_op_type : Nat := x.1
+  let v_op_len : Nat := x.2
+  if ((v_op_type : Int) == (0 : Int)) then
+    let v_match : Int := (v_match + (v_op_len : Int))
+    let v_cigar : Str := (v_cigar ++ ((dec v_op_len) ++ (['='] : Str)))
+    let v_cigar_len : Int := (v_cigar_len + (v_op_len : Int))
+    some (⟨v_match, v_mismatch, v_cigar_len, v_ins, v_deletion, v_soft_clip, v_cigar⟩ : WorkerSt_op_type)
+  else
+    if ((v_op_type : Int) == (1 : Int)) then
+      let v_ins : Int := (v_ins + (v_op_len : Int))
+      let v_cigar : Str := (v_cigar ++ ((dec v_op_len) ++ (['I'] : Str)))
+      let v_cigar_len : Int := (v_cigar_len + (v_op_len : Int))
+      some (⟨v_match, v_mismatch, v_cigar_len, v_ins, v_deletion, v_soft_clip, v_cigar⟩ : WorkerSt_op_type)
+    else
+      if ((v_op_type : Int) == (2 : Int)) then
+        let v_deletion : Int := (v_deletion + (v_op_len : Int))
+        let v_cigar : Str := (v_cigar ++ ((dec v_op_len) ++ (['D'] : Str)))
+        let v_cigar_len : Int := (v_cigar_len + (v_op_len : Int))
+        some (⟨v_match, v_mismatch, v_cigar_len, v_ins, v_deletion, v_soft_clip, v_cigar⟩ : WorkerSt_op_type)
+      else
+        if ((v_op_type : Int) == (4 : Int)) then
+          let v_soft_clip : Int := (v_soft_clip + (v_op_len : Int))
+          let v_cigar_len : Int := (v_cigar_len + (v_op_len : Int))
+          some (⟨v_match, v_mismatch, v_cigar_len, v_ins, v_deletion, v_soft_clip, v_cigar⟩ : WorkerSt_op_type)
+        else
+          if ((v_op_type : Int) == (8 : Int)) then
+            let v_mismatch : Int := (v_mismatch + (v_op_len : Int))
+            let v_cigar : Str := (v_cigar ++ ((dec v_op_len) ++ (['X'] : Str)))
+            let v_cigar_len : Int := (v_cigar_len + (v_op_len : Int))
+            some (⟨v_match, v_mismatch, v_cigar_len, v_ins, v_deletion, v_soft_clip, v_cigar⟩ : WorkerSt_op_type)
+          else
+            none
+
+/-- the body of `for (gaf_line, ref, query, prior_counter) in seq_batch` -/
+def workerFor_gaf_line (wfa : Str → Str → Bool → Wfa) (v_qu : List Put) (x : Rec × Str × Str × Nat) : Option (List Put) :=
+  let v_gaf_line : Rec := x.1
+  let v_ref : Str := x.2.1
+  let v_query : Str := x.2.2.1
+  let v_prior_counter : Nat := x.2.2.2
+  if decide (((v_gaf_line.qe : Int) - (v_gaf_line.qs : Int)) > (60000 : Int)) then
+    let v_out_string : Str := (v_gaf_line.qname ++ (['\t'] : Str) ++ (dec v_gaf_line.qlen) ++ (['\t'] : Str) ++ (dec v_gaf_line.qs) ++ (['\t'] : Str) ++ (dec v_gaf_line.qe) ++ (['\t'] : Str) ++ v_gaf_line.strand ++ (['\t'] : Str) ++ v_gaf_line.path ++ (['\t'] : Str) ++ (dec v_gaf_line.plen) ++ (['\t'] : Str) ++ (dec v_gaf_line.ps) ++ (['\t'] : Str) ++ (dec v_gaf_line.pe) ++ (['\t'] : Str) ++ (dec v_gaf_line.nmatch) ++ (['\t'] : Str) ++ (dec v_gaf_line.blen) ++ (['\t'] : Str) ++ (dec v_gaf_line.mapq))
+    let s : Str := v_gaf_line.tags.foldl workerFor_k v_out_string
+    let v_out_string : Str := s
+    let v_qu : List Put := v_qu ++ [(some (v_prior_counter, (v_out_string ++ (['\n'] : Str))) : Put)]
+    some v_qu
+  else
+    let w_aligner : Wfa := wfa v_ref v_query false
+    let v_res : Wfa := w_aligner
+    let v_match : Int := (0 : Int)
+    let v_mismatch : Int := (0 : Int)
+    let v_cigar_len : Int := (0 : Int)
+    let v_ins : Int := (0 : Int)
+    let v_deletion : Int := (0 : Int)
+    let v_soft_clip : Int := (0 : Int)
+    let v_cigar : Str := ([] : Str)
+    match v_res.cigartuples.foldlM workerFor_op_type (⟨v_match, v_mismatch, v_cigar_len, v_ins, v_deletion, v_soft_clip, v_cigar⟩ : WorkerSt_op_type) with
+    | none => none
+    | some s =>
+    let v_match : Int := s.v_match
+    let v_mismatch : Int := s.v_mismatch
+    let v_cigar_len : Int := s.v_cigar_len
+    let v_ins : Int := s.v_ins
+    let v_deletion : Int := s.v_deletion
+    let v_soft_clip : Int := s.v_soft_clip
+    let v_cigar : Str := s.v_cigar
+    let v_out_string : Str := (v_gaf_line.qname ++ (['\t'] : Str) ++ (dec v_gaf_line.qlen) ++ (['\t'] : Str) ++ (dec v_gaf_line.qs) ++ (['\t'] : Str) ++ (dec v_gaf_line.qe) ++ (['\t'] : Str) ++ v_gaf_line.strand ++ (['\t'] : Str) ++ v_gaf_line.path ++ (['\t'] : Str) ++ (dec v_gaf_line.plen) ++ (['\t'] : Str) ++ (dec v_gaf_line.ps) ++ (['\t'] : Str) ++ (dec v_gaf_line.pe) ++ (['\t'] : Str) ++ (decI v_match) ++ (['\t'] : Str) ++ (decI v_cigar_len) ++ (['\t'] : Str) ++ (dec v_gaf_line.mapq))
+    let v_cigar : Str := (replaceChar 'M' '=' w_aligner.cigarstring)
+    let v_gaf_line : Rec := { v_gaf_line with tags := dictSet v_gaf_line.tags (['c', 'g', ':', 'Z', ':'] : Str) v_cigar }
+    let s : Str := v_gaf_line.tags.foldl workerFor_k v_out_string
+    let v_out_string : Str := s
+    let v_qu : List Put := v_qu ++ [(some (v_prior_counter, (v_out_string ++ (['\n'] : Str))) : Put)]
+    some v_qu
+
+/-- `wfa_alignment(seq_batch, qu)`: the queue after the call (`none`: an assertion failed) -/
+def worker (wfa : Str → Str → Bool → Wfa) (v_seq_batch : List (Rec × Str × Str × Nat)) (v_qu : List Put) : Option (List Put) :=
+  match v_seq_batch.foldlM (workerFor_gaf_line wfa) v_qu with
+  | none => none
+  | some s =>
+  let v_qu : List Put := s
+  let v_qu : List Put := v_qu ++ [(none : Put)]
+  some v_qu
+
+/-- realign_gaf, for one record `line` of `gaf_file.read_file()` at count `priority_counter`: the entry appended to the batch (the count is then increased by one);
+    `extractPath` = `GFA(graph).extract_path`, `fetch` = `pysam.FastaFile(fasta).fetch` -/
+def batchEntry (extractPath : Str → Str) (fetch : Str → Nat → Nat → Str) (v_line : Rec) (v_priority_counter : Nat) : Rec × Str × Str × Nat :=
+  let v_path_sequence : Str := (extractPath v_line.path)
+  let v_ref : Str := (rwSlice v_path_sequence v_line.ps v_line.pe)
+  let v_query : Str := (fetch v_line.qname v_line.qs v_line.qe)
+  (v_line, v_ref, v_query, v_priority_counter)
+end Gaftools.Gen.Realign
+"""
+
+# the translation of the source as it was when the model was written (the definitions TieA13 was proved against)
+FALLBACK["IndexLoop"] = (
+    "import Gaftools.Model.View\nimport Gaftools.Model.ConvText\nimport Gaftools.Gen.SearchIv\n"
+    "/-! FALLBACK (source construct outside the translator's subset): convert_coord and the record loop of run as modelled by hand -/\n"
+    "set_option linter.unusedVariables false\n"
+    "namespace Gaftools.Gen\nopen Gaftools.Gaf Gaftools.Conv Gaftools.ConvText Gaftools.View\n\n" + _IX_PRELUDE + r'''
+/-! ## convert_coord -/
+
+/-- body of `for node in ref[query_contig_name][start:end + 1]` -/
+def convertCoord_for2 (query_start_int : Int) (query_end_int : Int) (unstable_coord : List String) (node : Seg) : List String :=
+  let cases : Int := (-1 : Int)
+  if ((node.so ≤ query_start_int) ∧ (query_start_int < (node.so + (node.en - node.so)))) then
+    let cases : Int := (1 : Int)
+    if (cases ≠ (-1 : Int)) then
+      let unstable_coord : List String := unstable_coord ++ [node.id]
+      unstable_coord
+    else
+      unstable_coord
+  else
+    if ((node.so < query_end_int) ∧ (query_end_int ≤ (node.so + (node.en - node.so)))) then
+      let cases : Int := (2 : Int)
+      if (cases ≠ (-1 : Int)) then
+        let unstable_coord : List String := unstable_coord ++ [node.id]
+        unstable_coord
+      else
+        unstable_coord
+    else
+      if ((query_start_int < node.so) ∧ (node.so < (node.so + (node.en - node.so))) ∧ ((node.so + (node.en - node.so)) < query_end_int)) then
+        let cases : Int := (3 : Int)
+        if (cases ≠ (-1 : Int)) then
+          let unstable_coord : List String := unstable_coord ++ [node.id]
+          unstable_coord
+        else
+          unstable_coord
+      else
+        if (cases ≠ (-1 : Int)) then
+          let unstable_coord : List String := unstable_coord ++ [node.id]
+          unstable_coord
+        else
+          unstable_coord
+
+/-- body of `for nd in gaf_contigs` -/
+def convertCoord_for1 (line : List Str) (ref : String → List Seg) (unstable_coord : List String) (nd : Str) : Option (List String) :=
+  if ((nd == ['>']) || (nd == ['<'])) then
+    some unstable_coord
+  else
+    if ((nd.contains ':') && (nd.contains '-')) then
+      let tmp : List Str := (splitOnChar ':' (rstrip nd))
+      (tmp[0]?).bind fun v2 =>
+      let query_contig_name : Str := v2
+      (tmp[1]?).bind fun v3 =>
+      (unpack2 (splitOnChar '-' (rstrip v3))).bind fun v4 =>
+      let query_start : Str := v4.1
+      let query_end : Str := v4.2
+      (toInt query_start).bind fun query_start_int =>
+      (toInt query_end).bind fun query_end_int =>
+      (Gaftools.Gen.searchIv (ref (String.ofList query_contig_name)) query_start_int query_end_int ((ref (String.ofList query_contig_name)).length + 2) (0 : Int) ((ref (String.ofList query_contig_name)).length : Int)).bind fun v5 =>
+      let start : Int := v5.1
+      let end_ : Int := v5.2
+      let unstable_coord : List String := (pySlice (ref (String.ofList query_contig_name)) start (end_ + (1 : Int))).foldl (convertCoord_for2 query_start_int query_end_int) unstable_coord
+      some unstable_coord
+    else
+      (line[7]?).bind fun v6 =>
+      let query_start : Str := v6
+      (line[8]?).bind fun v7 =>
+      let query_end : Str := v7
+      let query_contig_name : Str := nd
+      (toInt query_start).bind fun query_start_int =>
+      (toInt query_end).bind fun query_end_int =>
+      (Gaftools.Gen.searchIv (ref (String.ofList query_contig_name)) query_start_int query_end_int ((ref (String.ofList query_contig_name)).length + 2) (0 : Int) ((ref (String.ofList query_contig_name)).length : Int)).bind fun v8 =>
+      let start : Int := v8.1
+      let end_ : Int := v8.2
+      let unstable_coord : List String := (pySlice (ref (String.ofList query_contig_name)) start (end_ + (1 : Int))).foldl (convertCoord_for2 query_start_int query_end_int) unstable_coord
+      some unstable_coord
+
+/-- `convert_coord(line, ref)`: the node ids a stable record traverses (`none` = an exception) -/
+def convertCoord (line : List Str) (ref : String → List Seg) : Option (List String) :=
+  let unstable_coord : List String := []
+  (line[5]?).bind fun v1 =>
+  let gaf_contigs : List Str := (filterNone (reSplit (fun c => c == '>' || c == '<') (fun c => c == '>' || c == '<') v1))
+  (gaf_contigs.foldlM (convertCoord_for1 line ref) unstable_coord).bind fun unstable_coord =>
+  some unstable_coord
+
+/-! ## run -/
+
+/-- body of `for a in alignment` -/
+def run_for1 (nodes : String → Option NodeInfo) (offset : Nat) (out_dict : Idx) (a : String) : Option Idx :=
+  let onKeyError : Unit → Option Idx := fun _ =>
+      (nodes a).bind fun v2 =>
+      let out_dict : Idx := dSet out_dict (v2.id, v2.sn, v2.so, (v2.so + (v2.en - v2.so))) [offset]
+      some out_dict
+  match ((nodes a).bind fun v3 => some (v3.id, v3.sn, v3.so, (v3.so + (v3.en - v3.so)))) with
+  | none => onKeyError ()
+  | some k =>
+    if dHas out_dict k then
+      let out_dict : Idx := dAppend out_dict k offset
+      some out_dict
+    else onKeyError ()
+
+/-- the variables the `while True:` loop carries from one iteration to the next -/
+structure RunSt where
+  out_dict : Idx
+  offset : Nat
+  gaf_file : GafFile
+
+/-- body of `while True:` (`false` = `break`) -/
+def run_while (stable : Bool) (nodes : String → Option NodeInfo) (reference : String → List Seg) (s : RunSt) : Option (Bool × RunSt) :=
+  let out_dict : Idx := s.out_dict
+  let offset : Nat := s.offset
+  let gaf_file : GafFile := s.gaf_file
+  let offset : Nat := gaf_file.pos
+  let mapping : Option Str := gaf_file.rest.head?
+  let gaf_file : GafFile := ⟨gaf_file.pos + 1, gaf_file.rest.tail⟩
+  if mapping.isNone then
+    some (false, ⟨out_dict, offset, gaf_file⟩)
+  else
+    let mapping : Str := mapping.getD []
+    let val : List Str := (splitOnChar '\t' (rstrip mapping))
+    if stable then
+      (Gaftools.Gen.convertCoord val reference).bind fun v1 =>
+      let alignment : List String := v1
+      (alignment.foldlM (run_for1 nodes offset) out_dict).bind fun out_dict =>
+      some (true, ⟨out_dict, offset, gaf_file⟩)
+    else
+      (val[5]?).bind fun v4 =>
+      let alignment : List String := (((v4.splitOnP (fun c => c == '>' || c == '<')).drop 1).map String.ofList)
+      (alignment.foldlM (run_for1 nodes offset) out_dict).bind fun out_dict =>
+      some (true, ⟨out_dict, offset, gaf_file⟩)
+
+/-- `ref_contig = [contig for contig in gfa_file.contigs if gfa_file.contigs[contig] == 0]`; `contigs` = the dictionary `gfa_file.contigs` (name ↦ rank, insertion order) -/
+def run_ref_contig (contigs : List (String × Int)) : List String :=
+  (contigs.filter (fun kv => decide (kv.2 = (0 : Int)))).map (fun kv => kv.1)
+
+/-- `run`, from the initialisation of the loop state to `pickle.dump(out_dict, …)`: the index and the entries stored under text keys -/
+def run (stable : Bool) (nodes : String → Option NodeInfo) (reference : String → List Seg) (ref_contig : List String) (gaf_file : GafFile) (fuel : Nat) : Option (Idx × List (String × List String)) :=
+  let out_dict : Idx := []
+  let offset : Nat := 0
+  (whileTrue (run_while stable nodes reference) fuel ⟨out_dict, offset, gaf_file⟩).bind fun s =>
+  let out_dict : Idx := s.out_dict
+  let offset : Nat := s.offset
+  let gaf_file : GafFile := s.gaf_file
+  some (out_dict, [("ref_contig", ref_contig)])
+end Gaftools.Gen
+''')
+
 
 FALLBACK["OrderRun"] = r"""import Gaftools.Model.Order
 /-! FALLBACK (source construct outside the translator's subset): count_sn, name_comps and the loop over the requested chromosomes of
@@ -6649,6 +10286,160 @@ def toStableS (nodes : String → Option SNode) (ref_contig : List String) (cont
     some (stable_coord, (⟨strand, v25, v26, ((v26 + path_end) - path_start), reverse_flag⟩ : ConvOut))
 end Gaftools.Gen
 """
+
+FALLBACK["RealignBatch"] = _RB_HEADER % ("FALLBACK (source construct outside the translator's subset): a frozen copy of the translation of\n"
+                                          "    realign_gaf / wfa_alignment as the source stood when `Props/TieA18.lean` was written") + r'''/-- `batch_size` at the loop over the records; `verif`: the verification hook is on, `env`: the integer in its variable -/
+def batchSize (verif : Bool) (env : Option Int) : Int :=
+  let batch_size : Int := 1000
+  if verif then
+    let batch_size : Int := env.getD batch_size
+    batch_size
+  else
+    batch_size
+
+/-- the variables before the first record -/
+def initSt : St :=
+  let σ : St := { processes := [], seq_batch := [], priority_counter := 0, p_queue := [], runs := [], out := [] }
+  let σ : St := { σ with processes := [] }
+  let σ : St := { σ with seq_batch := [] }
+  let σ : St := { σ with priority_counter := 0 }
+  σ
+
+/-- `n_sentinels` on entry of the in-loop collector loop -/
+def collectorInitMain : Nat := 0
+
+/-- `n_sentinels` on entry of the leftover collector loop -/
+def collectorInitLeft : Nat := 0
+
+/-- the body of `for line in gaf_file.read_file()`; `coll k ps`: what the `k`-th execution of a collector loop, run on the
+    processes `ps`, puts into `p_queue` (in arrival order) -/
+def recStep (batch_size cores : Int) (coll : Nat → List Proc → List Nat) (σ : St) (line : Nat) : St :=
+  let σ : St := { σ with seq_batch := σ.seq_batch ++ [(line, σ.priority_counter)] }
+  let σ : St := { σ with priority_counter := σ.priority_counter + 1 }
+  if ((σ.seq_batch.length : Int) != batch_size) then
+    σ
+  else
+    let σ : St := { σ with processes := σ.processes ++ [(⟨σ.seq_batch, false⟩ : Proc)] }
+    let σ : St := { σ with seq_batch := [] }
+    let σ : St :=
+      if ((σ.processes.length : Int) == cores) then
+        let σ : St := { σ with p_queue := [] }
+        let σ : St := { σ with processes := σ.processes.map (fun p => { p with started := true }) }
+        let σ : St := { σ with p_queue := σ.p_queue ++ coll σ.runs.length σ.processes, runs := σ.runs ++ [σ.processes] }
+        let queue_len : Int := (σ.p_queue.length : Int)
+        let σ : St := (List.range (queue_len).toNat).foldl (fun (σ : St) _ =>
+            match pqGet σ.p_queue with
+            | none => σ
+            | some r =>
+              let σ : St := { σ with p_queue := r.2 }
+              let σ : St := { σ with out := σ.out ++ [r.1] }
+              σ) σ
+        let σ : St := { σ with processes := [] }
+        let σ : St := { σ with p_queue := [] }
+        σ
+      else
+        σ
+    σ
+
+/-- the statements after the loop: the leftover batch, the leftover round -/
+def leftover (batch_size cores : Int) (coll : Nat → List Proc → List Nat) (σ : St) : St :=
+  let σ : St :=
+    if decide ((σ.seq_batch.length : Int) > (0 : Int)) then
+      let σ : St := { σ with processes := σ.processes ++ [(⟨σ.seq_batch, false⟩ : Proc)] }
+      σ
+    else
+      σ
+  let σ : St :=
+    if ((σ.processes.length : Int) != (0 : Int)) then
+      let σ : St := { σ with p_queue := [] }
+      let σ : St := { σ with processes := σ.processes.map (fun p => { p with started := true }) }
+      let σ : St := { σ with p_queue := σ.p_queue ++ coll σ.runs.length σ.processes, runs := σ.runs ++ [σ.processes] }
+      let queue_len : Int := (σ.p_queue.length : Int)
+      let σ : St := (List.range (queue_len).toNat).foldl (fun (σ : St) _ =>
+          match pqGet σ.p_queue with
+          | none => σ
+          | some r =>
+            let σ : St := { σ with p_queue := r.2 }
+            let σ : St := { σ with out := σ.out ++ [r.1] }
+            σ) σ
+      σ
+    else
+      σ
+  σ
+
+/-- `realign_gaf` on the records `lines` -/
+def realignGaf (batch_size cores : Int) (coll : Nat → List Proc → List Nat) (lines : List Nat) : St :=
+  leftover batch_size cores coll (lines.foldl (recStep batch_size cores coll) initSt)
+
+/-- the component of a batch element that `wfa_alignment` gives to `PriorityAlignment` as `priority` -/
+def workerPrio (t : Item) : Nat := t.2
+
+/-- what `wfa_alignment` puts on the queue for one element of its batch (`conds i`: the outcome of the `i`-th test on the way) -/
+def workerPuts (conds : Nat → Bool) (t : Item) : List Msg :=
+  (if conds 0 then [Msg.item (workerPrio t)] else [Msg.item (workerPrio t)])
+
+/-- … and after the last element -/
+def workerTail : List Msg := [Msg.sentinel]
+
+/-- everything a worker puts, in order -/
+def workerTodo (conds : Item → Nat → Bool) (batch : List Item) : List Msg :=
+  batch.flatMap (fun t => workerPuts (conds t) t) ++ workerTail
+end Gaftools.Gen.RealignBatch
+'''
+
+FALLBACK["PhaseTsv"] = PHASE_TSV_HEADER % (
+    "FALLBACK (source construct outside the translator's subset): a frozen copy of the translation of class Node, the TSV loop of\n"
+    "    add_phase_info, reverse_cigar and is_file_gzipped as the source stood when `Props/TieA22.lean` was written") + _PHASE_TSV_DOCS % (
+    """def nodeInit (chr_name haplotype phase_set : Str) : Node :=
+  { chr_name := chr_name, phase_set := phase_set, haplotype := haplotype }""",
+    """def tsvBody (st : Dict) (line : Str) : Option (Dict) :=
+  let phase : Dict := st
+  let line_elements : List Str := ((Gaftools.Gaf.rstrip line).splitOn '\\t')
+  match line_elements[0]? with
+  | none => none
+  | some v1 =>
+  if (!(dHas phase v1)) then
+    match line_elements[3]? with
+    | none => none
+    | some v2 =>
+    match line_elements[1]? with
+    | none => none
+    | some v3 =>
+    match line_elements[2]? with
+    | none => none
+    | some v4 =>
+    let tmp : Node := (nodeInit v2 v3 v4)
+    match line_elements[0]? with
+    | none => none
+    | some v5 =>
+    let phase : Dict := (dSet phase v5 tmp)
+    some phase
+  else
+    some phase""",
+    """def tsvLoop (tsv_file : List Str) : Option Dict :=
+  let phase : Dict := []
+  match tsv_file.foldlM (tsvBody) phase with
+  | none => none
+  | some phase =>
+  some phase""",
+    """def revCigarBody (all_cigars : List Str) (st : Str) (i : Int) : Option (Str) :=
+  let new_cigar : Str := st
+  match pyIdx all_cigars (i - (2 : Int)) with
+  | none => none
+  | some v1 =>
+  match pyIdx all_cigars (i - (1 : Int)) with
+  | none => none
+  | some v2 =>
+  let new_cigar : Str := (new_cigar ++ (v1 ++ v2))
+  some new_cigar""",
+    """def reverseCigar (cg : Str) : Option Str :=
+  let all_cigars : List Str := (groupDigits cg)
+  let new_cigar : Str := []
+  match (pyRange (all_cigars.length : Int) (0 : Int) (-2 : Int)).foldlM (revCigarBody all_cigars) new_cigar with
+  | none => none
+  | some new_cigar =>
+  some new_cigar""",
+    "def isFileGzipped (bytes : List UInt8) : Bool := (bytes.take 2 == [0x1f, 0x8b])")
 
 if __name__ == "__main__":
     import json
